@@ -71,12 +71,16 @@ InitSt(n, sink) ==
                          nstart |-> Len(Ups(n)), ndata |-> Len(Ups(n)), nend |-> Len(Ups(n)),
                          has |-> [q \in 1..Len(Ups(n)) |-> FALSE],
                          vals |-> [q \in 1..Len(Ups(n)) |-> 0]]
-    [] k = "flatten" -> [sink |-> sink, otb |-> NoRef, itb |-> NoRef]
+    [] k \in {"flatten", "flatmap"} -> [sink |-> sink, otb |-> NoRef, itb |-> NoRef]
     [] k = "share"   -> [sink |-> sink]
-    [] k = "from_iter" -> [sink |-> sink, pos |-> 0, inloop |-> FALSE, gotpull |-> FALSE,
-                           completed |-> FALSE, resdone |-> FALSE]
     [] k = "interval" -> [sink |-> sink, cnt |-> 0, cleared |-> FALSE]
     [] OTHER -> [sink |-> sink]
+
+\* a from_iter subscription: the iterator (items / unbounded 1,2,3..), its name for `next` events
+\* ("" = not instrumented) and the flags of from_iter.rs:115-120
+NewFi(sink, items, unb, lim, name) ==
+  [node |-> 0, sink |-> sink, items |-> items, unbounded |-> unb, limit |-> lim, name |-> name, pos |-> 0,
+   inloop |-> FALSE, gotpull |-> FALSE, completed |-> FALSE, resdone |-> FALSE]
 
 InitNd(n) == IF Kind(n) = "share" THEN [sinks |-> <<>>, utb |-> NoRef] ELSE [x |-> 0]
 
@@ -110,6 +114,7 @@ variables
   sk = [k \in 1..NSinks |-> [attached |-> FALSE, greeted |-> FALSE, ended |-> FALSE,
                              disposed |-> FALSE, pulls |-> 0, credit |-> 0, tb |-> NoRef]],
   pi = <<>>,                           \* puppet instances in creation order
+  fi = <<>>,                           \* from_iter subscriptions (static nodes and flatmap's inner lists)
   tasks = <<>>,                        \* mock nursery tasks (interval)
   now = 0,
   obs = <<>>,
@@ -279,6 +284,7 @@ T1:
       call FailP(to.s);
     } else if (ch = "defer") {
       pi[to.s].deferred := pi[to.s].deferred + 1;
+      obs := LogO(obs, Ev("note", ThOf(self), "", IName(to.s), "defer", 0));
     };
 T2:
     goto Ret;
@@ -303,6 +309,67 @@ FE4:
     } else if (m.t = "P") {
       Panic();
     } else {
+      goto Ret;
+    };
+  }
+  \* ==== from_iter ============================================================================
+  else if (to.r = "src" /\ Kind(to.n) = "from_iter") {
+    if (m.t = "H") {
+      \* from_iter.rs:114-190: clone the iterable, greet the sink
+      sx := Len(fi) + 1;
+      obs := LogO(obs, Ev("clone", ThOf(self), "",
+                          "I" \o ToString(to.n) \o "#" \o ToString(Cardinality({q \in 1..Len(fi) : fi[q].name # "" /\ fi[q].node = to.n}) + 1),
+                          "", 0));
+      fi := Append(fi, [NewFi(m.tb, Node(to.n).items, Node(to.n).unbounded, Node(to.n).limit,
+                              "I" \o ToString(to.n) \o "#" \o ToString(Cardinality({q \in 1..Len(fi) : fi[q].name # "" /\ fi[q].node = to.n}) + 1))
+                        EXCEPT !.node = to.n]);
+FR1:
+      call Deliver("S", m.tb, MsgH(Ref(0, "fitb", sx, 0)));
+FR2:
+      goto Ret;
+    } else { goto Ret; };
+  }
+  else if (to.r = "fitb") {
+    \* sink talkback: from_iter.rs:159-185
+    if (fi[to.s].completed) { goto Ret; }
+    else if (m.t \in {"H", "D"}) { Panic(); }
+    else if (m.t = "P") {
+      fi[to.s].gotpull := TRUE;
+FR3:
+      if (~fi[to.s].inloop /\ ~fi[to.s].resdone) {
+        \* the emission loop: from_iter.rs:127-151
+        fi[to.s].inloop := TRUE;
+FR4:
+        while (fi[to.s].gotpull /\ ~fi[to.s].completed) {
+          \* iter.next()
+          lv := IF fi[to.s].unbounded
+                THEN (IF fi[to.s].pos >= fi[to.s].limit THEN -1 ELSE fi[to.s].pos + 1)
+                ELSE (IF fi[to.s].pos < Len(fi[to.s].items) THEN fi[to.s].items[fi[to.s].pos + 1] ELSE -1);
+          fi[to.s] := [fi[to.s] EXCEPT !.gotpull = FALSE, !.pos = @ + 1, !.resdone = (lv = -1)];
+          if (fi[to.s].name # "") {
+            obs := LogO(IF fi[to.s].unbounded /\ lv = -1
+                        THEN LogO(obs, Ev("runaway", ThOf(self), "", fi[to.s].name, "", fi[to.s].pos - 1))
+                        ELSE obs,
+                        Ev("next", ThOf(self), "", fi[to.s].name, "", lv));
+          };
+FR5:
+          if (fi[to.s].resdone) {
+            call Deliver("S", fi[to.s].sink, Msg("T"));
+FR6:
+            goto FR8;
+          } else {
+            call Deliver("S", fi[to.s].sink, MsgD(lv));
+          };
+FR7:
+          skip;
+        };
+FR8:
+        fi[to.s].inloop := FALSE;
+      };
+FR9:
+      goto Ret;
+    } else {
+      fi[to.s].completed := TRUE;
       goto Ret;
     };
   }
@@ -789,7 +856,7 @@ CB7:
     };
   }
   \* ==== flatten ==============================================================================
-  else if (Kind(to.n) = "flatten") {
+  else if (Kind(to.n) \in {"flatten", "flatmap"}) {
     if (to.r = "src") {
       if (m.t = "H") {
         sx := Len(st[to.n]) + 1;
@@ -808,11 +875,22 @@ FL3:
 FL4:
         goto Ret;
       } else if (m.t = "D") {
+        if (Kind(to.n) = "flatmap") {
+          \* flatten(map(g)): map's closure turns the datum into from_iter(g(x)) (graph.rs "flatmap")
+          obs := LogO(obs, Ev("fn", ThOf(self), "", FnName(to.n), "", m.v));
+        };
+FL5a:
         if (S(to).itb # NoRef) {
           call Deliver("S", S(to).itb, Msg("T"));
         };
 FL5:
-        call Deliver("S", Ref(NodeOfPid(m.v), "src", 0, 0), MsgH(Ref(to.n, "in", to.s, 0)));
+        if (Kind(to.n) = "flatmap") {
+          \* subscribing the fresh from_iter: it greets the inner-source closure at once
+          fi := Append(fi, NewFi(Ref(to.n, "in", to.s, 0), GenList(Node(to.n).g, m.v), FALSE, 0, ""));
+          call Deliver("S", Ref(to.n, "in", to.s, 0), MsgH(Ref(0, "fitb", Len(fi), 0)));
+        } else {
+          call Deliver("S", Ref(NodeOfPid(m.v), "src", 0, 0), MsgH(Ref(to.n, "in", to.s, 0)));
+        };
 FL6:
         goto Ret;
       } else if (m.t = "P") {
@@ -952,63 +1030,6 @@ SH9:
           };
         };
 SH10:
-        goto Ret;
-      };
-    };
-  }
-  \* ==== from_iter ============================================================================
-  else if (Kind(to.n) = "from_iter") {
-    if (to.r = "src") {
-      if (m.t = "H") {
-        \* from_iter.rs:114-190: clone the iterable, greet the sink
-        sx := Len(st[to.n]) + 1;
-        st[to.n] := Append(st[to.n], InitSt(to.n, m.tb));
-        obs := LogO(obs, Ev("clone", ThOf(self), "", "I" \o ToString(to.n) \o "#" \o ToString(sx), "", 0));
-FR1:
-        call Deliver("S", m.tb, MsgH(Ref(to.n, "tb", sx, 0)));
-FR2:
-        goto Ret;
-      } else { goto Ret; };
-    } else {
-      \* sink talkback: from_iter.rs:159-185
-      if (S(to).completed) { goto Ret; }
-      else if (m.t \in {"H", "D"}) { Panic(); }
-      else if (m.t = "P") {
-        st[to.n][to.s].gotpull := TRUE;
-FR3:
-        if (~S(to).inloop /\ ~S(to).resdone) {
-          \* the emission loop: from_iter.rs:127-151
-          st[to.n][to.s].inloop := TRUE;
-FR4:
-          while (S(to).gotpull /\ ~S(to).completed) {
-            \* iter.next()
-            lv := IF Node(to.n).unbounded
-                  THEN (IF S(to).pos >= Node(to.n).limit THEN -1 ELSE S(to).pos + 1)
-                  ELSE (IF S(to).pos < Len(Node(to.n).items) THEN Node(to.n).items[S(to).pos + 1] ELSE -1);
-            st[to.n][to.s] := [S(to) EXCEPT !.gotpull = FALSE, !.pos = @ + 1,
-                                            !.resdone = (lv = -1)];
-            obs := LogO(IF Node(to.n).unbounded /\ lv = -1
-                        THEN LogO(obs, Ev("runaway", ThOf(self), "", "I" \o ToString(to.n) \o "#" \o ToString(to.s), "", S(to).pos - 1))
-                        ELSE obs,
-                        Ev("next", ThOf(self), "", "I" \o ToString(to.n) \o "#" \o ToString(to.s), "", lv));
-FR5:
-            if (S(to).resdone) {
-              call Deliver("S", S(to).sink, Msg("T"));
-FR6:
-              goto FR8;
-            } else {
-              call Deliver("S", S(to).sink, MsgD(lv));
-            };
-FR7:
-            skip;
-          };
-FR8:
-          st[to.n][to.s].inloop := FALSE;
-        };
-FR9:
-        goto Ret;
-      } else {
-        st[to.n][to.s].completed := TRUE;
         goto Ret;
       };
     };
@@ -1256,8 +1277,8 @@ MDone:
 } *)
 \* BEGIN TRANSLATION
 CONSTANT defaultInitValue
-VARIABLES pc, st, nd, sk, pi, tasks, now, obs, script, ntop, panicked, done, 
-          stack
+VARIABLES pc, st, nd, sk, pi, fi, tasks, now, obs, script, ntop, panicked, 
+          done, stack
 
 (* define statement *)
 LogO(o, e) == IF KeepObs THEN Append(o, e) ELSE o
@@ -1314,9 +1335,9 @@ ThOf(slf) == slf
 VARIABLES fr, to, m, lg, sx, jx, ch, lv, snap, ka, ca, gx, ex, nx, fx, bx, bc, 
           tx, ta, tc, ft, act, sj
 
-vars == << pc, st, nd, sk, pi, tasks, now, obs, script, ntop, panicked, done, 
-           stack, fr, to, m, lg, sx, jx, ch, lv, snap, ka, ca, gx, ex, nx, fx, 
-           bx, bc, tx, ta, tc, ft, act, sj >>
+vars == << pc, st, nd, sk, pi, fi, tasks, now, obs, script, ntop, panicked, 
+           done, stack, fr, to, m, lg, sx, jx, ch, lv, snap, ka, ca, gx, ex, 
+           nx, fx, bx, bc, tx, ta, tc, ft, act, sj >>
 
 ProcSet == {0}
 
@@ -1326,6 +1347,7 @@ Init == (* Global variables *)
         /\ sk = [k \in 1..NSinks |-> [attached |-> FALSE, greeted |-> FALSE, ended |-> FALSE,
                                       disposed |-> FALSE, pulls |-> 0, credit |-> 0, tb |-> NoRef]]
         /\ pi = <<>>
+        /\ fi = <<>>
         /\ tasks = <<>>
         /\ now = 0
         /\ obs = <<>>
@@ -1397,10 +1419,10 @@ DStart(self) == /\ pc[self] = "DStart"
                                                                                        lg >>
                            /\ UNCHANGED << pi, sx >>
                 /\ pc' = [pc EXCEPT ![self] = "DDisp"]
-                /\ UNCHANGED << st, nd, sk, tasks, now, script, ntop, panicked, 
-                                done, stack, fr, to, m, jx, ch, lv, snap, ka, 
-                                ca, gx, ex, nx, fx, bx, bc, tx, ta, tc, ft, 
-                                act, sj >>
+                /\ UNCHANGED << st, nd, sk, fi, tasks, now, script, ntop, 
+                                panicked, done, stack, fr, to, m, jx, ch, lv, 
+                                snap, ka, ca, gx, ex, nx, fx, bx, bc, tx, ta, 
+                                tc, ft, act, sj >>
 
 DDisp(self) == /\ pc[self] = "DDisp"
                /\ IF to[self].r = "K"
@@ -1413,7 +1435,7 @@ DDisp(self) == /\ pc[self] = "DDisp"
                                                       ELSE /\ TRUE
                                                            /\ sk' = sk
                           /\ pc' = [pc EXCEPT ![self] = "K1"]
-                          /\ UNCHANGED << st, nd, pi, tasks, obs, script, 
+                          /\ UNCHANGED << st, nd, pi, fi, tasks, obs, script, 
                                           panicked, stack, fr, to, m, lg, sx, 
                                           jx, ch, lv, snap >>
                      ELSE /\ IF to[self].r = "src" /\ IsPuppet(to[self].n)
@@ -1421,7 +1443,7 @@ DDisp(self) == /\ pc[self] = "DDisp"
                                           /\ script' = LogS(script, <<"sub", IName(sx[self]), c>>)
                                           /\ ch' = [ch EXCEPT ![self] = c]
                                      /\ pc' = [pc EXCEPT ![self] = "P1"]
-                                     /\ UNCHANGED << st, nd, sk, pi, tasks, 
+                                     /\ UNCHANGED << st, nd, sk, pi, fi, tasks, 
                                                      obs, panicked, stack, fr, 
                                                      to, m, lg, sx, jx, lv, 
                                                      snap >>
@@ -1441,7 +1463,7 @@ DDisp(self) == /\ pc[self] = "DDisp"
                                                                       /\ pi' = pi
                                                            /\ UNCHANGED script
                                                 /\ pc' = [pc EXCEPT ![self] = "T1"]
-                                                /\ UNCHANGED << st, nd, sk, 
+                                                /\ UNCHANGED << st, nd, sk, fi, 
                                                                 tasks, obs, 
                                                                 panicked, 
                                                                 stack, fr, to, 
@@ -1468,6 +1490,7 @@ DDisp(self) == /\ pc[self] = "DDisp"
                                                                       /\ sk' = sk
                                                            /\ UNCHANGED << st, 
                                                                            nd, 
+                                                                           fi, 
                                                                            tasks, 
                                                                            script, 
                                                                            stack, 
@@ -1480,278 +1503,73 @@ DDisp(self) == /\ pc[self] = "DDisp"
                                                                            ch, 
                                                                            lv, 
                                                                            snap >>
-                                                      ELSE /\ IF Kind(to[self].n) = "map"
-                                                                 THEN /\ IF to[self].r = "src"
-                                                                            THEN /\ IF m[self].t = "H"
-                                                                                       THEN /\ sx' = [sx EXCEPT ![self] = Len(st[to[self].n]) + 1]
-                                                                                            /\ st' = [st EXCEPT ![to[self].n] = Append(st[to[self].n], InitSt(to[self].n, m[self].tb))]
-                                                                                            /\ pc' = [pc EXCEPT ![self] = "MP1"]
-                                                                                       ELSE /\ pc' = [pc EXCEPT ![self] = "Ret"]
-                                                                                            /\ UNCHANGED << st, 
-                                                                                                            sx >>
-                                                                                 /\ UNCHANGED << obs, 
-                                                                                                 panicked, 
-                                                                                                 stack, 
-                                                                                                 fr, 
-                                                                                                 to, 
-                                                                                                 m, 
-                                                                                                 lg, 
-                                                                                                 jx, 
-                                                                                                 ch, 
-                                                                                                 lv, 
-                                                                                                 snap >>
-                                                                            ELSE /\ IF to[self].r = "up"
-                                                                                       THEN /\ IF m[self].t = "H"
-                                                                                                  THEN /\ st' = [st EXCEPT ![to[self].n][to[self].s].utb = m[self].tb]
-                                                                                                       /\ pc' = [pc EXCEPT ![self] = "MP3"]
-                                                                                                       /\ UNCHANGED << obs, 
-                                                                                                                       panicked, 
-                                                                                                                       stack, 
-                                                                                                                       fr, 
-                                                                                                                       to, 
-                                                                                                                       m, 
-                                                                                                                       lg, 
-                                                                                                                       sx, 
-                                                                                                                       jx, 
-                                                                                                                       ch, 
-                                                                                                                       lv, 
-                                                                                                                       snap >>
-                                                                                                  ELSE /\ IF m[self].t = "D"
-                                                                                                             THEN /\ obs' = LogO(obs, Ev("fn", ThOf(self), "", FnName(to[self].n), "", m[self].v))
-                                                                                                                  /\ pc' = [pc EXCEPT ![self] = "MP5"]
-                                                                                                                  /\ UNCHANGED << panicked, 
-                                                                                                                                  stack, 
-                                                                                                                                  fr, 
-                                                                                                                                  to, 
-                                                                                                                                  m, 
-                                                                                                                                  lg, 
-                                                                                                                                  sx, 
-                                                                                                                                  jx, 
-                                                                                                                                  ch, 
-                                                                                                                                  lv, 
-                                                                                                                                  snap >>
-                                                                                                             ELSE /\ IF m[self].t = "P"
-                                                                                                                        THEN /\ obs' = LogO(obs \o [q \in 1..OpenCount(obs, 1, 0) |-> RetEv(ThOf(self))],
-                                                                                                                                            Ev("panic", ThOf(self), "", "", "", 0))
-                                                                                                                             /\ panicked' = TRUE
-                                                                                                                             /\ pc' = [pc EXCEPT ![self] = "Halt"]
-                                                                                                                             /\ UNCHANGED << stack, 
-                                                                                                                                             fr, 
-                                                                                                                                             to, 
-                                                                                                                                             m, 
-                                                                                                                                             lg, 
-                                                                                                                                             sx, 
-                                                                                                                                             jx, 
-                                                                                                                                             ch, 
-                                                                                                                                             lv, 
-                                                                                                                                             snap >>
-                                                                                                                        ELSE /\ /\ fr' = [fr EXCEPT ![self] = "S"]
-                                                                                                                                /\ m' = [m EXCEPT ![self] = m[self]]
-                                                                                                                                /\ stack' = [stack EXCEPT ![self] = << [ procedure |->  "Deliver",
-                                                                                                                                                                         pc        |->  "MP7",
-                                                                                                                                                                         lg        |->  lg[self],
-                                                                                                                                                                         sx        |->  sx[self],
-                                                                                                                                                                         jx        |->  jx[self],
-                                                                                                                                                                         ch        |->  ch[self],
-                                                                                                                                                                         lv        |->  lv[self],
-                                                                                                                                                                         snap      |->  snap[self],
-                                                                                                                                                                         fr        |->  fr[self],
-                                                                                                                                                                         to        |->  to[self],
-                                                                                                                                                                         m         |->  m[self] ] >>
-                                                                                                                                                                     \o stack[self]]
-                                                                                                                                /\ to' = [to EXCEPT ![self] = S(to[self]).sink]
-                                                                                                                             /\ lg' = [lg EXCEPT ![self] = FALSE]
-                                                                                                                             /\ sx' = [sx EXCEPT ![self] = 0]
-                                                                                                                             /\ jx' = [jx EXCEPT ![self] = 0]
-                                                                                                                             /\ ch' = [ch EXCEPT ![self] = ""]
-                                                                                                                             /\ lv' = [lv EXCEPT ![self] = 0]
-                                                                                                                             /\ snap' = [snap EXCEPT ![self] = <<>>]
-                                                                                                                             /\ pc' = [pc EXCEPT ![self] = "DStart"]
-                                                                                                                             /\ UNCHANGED << obs, 
-                                                                                                                                             panicked >>
-                                                                                                       /\ st' = st
+                                                      ELSE /\ IF to[self].r = "src" /\ Kind(to[self].n) = "from_iter"
+                                                                 THEN /\ IF m[self].t = "H"
+                                                                            THEN /\ sx' = [sx EXCEPT ![self] = Len(fi) + 1]
+                                                                                 /\ obs' = LogO(obs, Ev("clone", ThOf(self), "",
+                                                                                                        "I" \o ToString(to[self].n) \o "#" \o ToString(Cardinality({q \in 1..Len(fi) : fi[q].name # "" /\ fi[q].node = to[self].n}) + 1),
+                                                                                                        "", 0))
+                                                                                 /\ fi' = Append(fi, [NewFi(m[self].tb, Node(to[self].n).items, Node(to[self].n).unbounded, Node(to[self].n).limit,
+                                                                                                            "I" \o ToString(to[self].n) \o "#" \o ToString(Cardinality({q \in 1..Len(fi) : fi[q].name # "" /\ fi[q].node = to[self].n}) + 1))
+                                                                                                      EXCEPT !.node = to[self].n])
+                                                                                 /\ pc' = [pc EXCEPT ![self] = "FR1"]
+                                                                            ELSE /\ pc' = [pc EXCEPT ![self] = "Ret"]
+                                                                                 /\ UNCHANGED << fi, 
+                                                                                                 obs, 
+                                                                                                 sx >>
+                                                                      /\ UNCHANGED << st, 
+                                                                                      nd, 
+                                                                                      tasks, 
+                                                                                      script, 
+                                                                                      panicked, 
+                                                                                      stack, 
+                                                                                      fr, 
+                                                                                      to, 
+                                                                                      m, 
+                                                                                      lg, 
+                                                                                      jx, 
+                                                                                      ch, 
+                                                                                      lv, 
+                                                                                      snap >>
+                                                                 ELSE /\ IF to[self].r = "fitb"
+                                                                            THEN /\ IF fi[to[self].s].completed
+                                                                                       THEN /\ pc' = [pc EXCEPT ![self] = "Ret"]
+                                                                                            /\ UNCHANGED << fi, 
+                                                                                                            obs, 
+                                                                                                            panicked >>
                                                                                        ELSE /\ IF m[self].t \in {"H", "D"}
                                                                                                   THEN /\ obs' = LogO(obs \o [q \in 1..OpenCount(obs, 1, 0) |-> RetEv(ThOf(self))],
                                                                                                                       Ev("panic", ThOf(self), "", "", "", 0))
                                                                                                        /\ panicked' = TRUE
                                                                                                        /\ pc' = [pc EXCEPT ![self] = "Halt"]
-                                                                                                       /\ UNCHANGED << stack, 
-                                                                                                                       fr, 
-                                                                                                                       to, 
-                                                                                                                       m, 
-                                                                                                                       lg, 
-                                                                                                                       sx, 
-                                                                                                                       jx, 
-                                                                                                                       ch, 
-                                                                                                                       lv, 
-                                                                                                                       snap >>
-                                                                                                  ELSE /\ /\ fr' = [fr EXCEPT ![self] = "S"]
-                                                                                                          /\ m' = [m EXCEPT ![self] = m[self]]
-                                                                                                          /\ stack' = [stack EXCEPT ![self] = << [ procedure |->  "Deliver",
-                                                                                                                                                   pc        |->  "MP8",
-                                                                                                                                                   lg        |->  lg[self],
-                                                                                                                                                   sx        |->  sx[self],
-                                                                                                                                                   jx        |->  jx[self],
-                                                                                                                                                   ch        |->  ch[self],
-                                                                                                                                                   lv        |->  lv[self],
-                                                                                                                                                   snap      |->  snap[self],
-                                                                                                                                                   fr        |->  fr[self],
-                                                                                                                                                   to        |->  to[self],
-                                                                                                                                                   m         |->  m[self] ] >>
-                                                                                                                                               \o stack[self]]
-                                                                                                          /\ to' = [to EXCEPT ![self] = S(to[self]).utb]
-                                                                                                       /\ lg' = [lg EXCEPT ![self] = FALSE]
-                                                                                                       /\ sx' = [sx EXCEPT ![self] = 0]
-                                                                                                       /\ jx' = [jx EXCEPT ![self] = 0]
-                                                                                                       /\ ch' = [ch EXCEPT ![self] = ""]
-                                                                                                       /\ lv' = [lv EXCEPT ![self] = 0]
-                                                                                                       /\ snap' = [snap EXCEPT ![self] = <<>>]
-                                                                                                       /\ pc' = [pc EXCEPT ![self] = "DStart"]
+                                                                                                       /\ fi' = fi
+                                                                                                  ELSE /\ IF m[self].t = "P"
+                                                                                                             THEN /\ fi' = [fi EXCEPT ![to[self].s].gotpull = TRUE]
+                                                                                                                  /\ pc' = [pc EXCEPT ![self] = "FR3"]
+                                                                                                             ELSE /\ fi' = [fi EXCEPT ![to[self].s].completed = TRUE]
+                                                                                                                  /\ pc' = [pc EXCEPT ![self] = "Ret"]
                                                                                                        /\ UNCHANGED << obs, 
                                                                                                                        panicked >>
-                                                                                            /\ st' = st
-                                                                      /\ UNCHANGED << nd, 
-                                                                                      tasks, 
-                                                                                      script >>
-                                                                 ELSE /\ IF Kind(to[self].n) = "filter"
-                                                                            THEN /\ IF to[self].r = "src"
-                                                                                       THEN /\ IF m[self].t = "H"
-                                                                                                  THEN /\ sx' = [sx EXCEPT ![self] = Len(st[to[self].n]) + 1]
-                                                                                                       /\ st' = [st EXCEPT ![to[self].n] = Append(st[to[self].n], InitSt(to[self].n, m[self].tb))]
-                                                                                                       /\ pc' = [pc EXCEPT ![self] = "FI1"]
-                                                                                                  ELSE /\ pc' = [pc EXCEPT ![self] = "Ret"]
-                                                                                                       /\ UNCHANGED << st, 
-                                                                                                                       sx >>
-                                                                                            /\ UNCHANGED << obs, 
-                                                                                                            panicked, 
-                                                                                                            stack, 
-                                                                                                            fr, 
-                                                                                                            to, 
-                                                                                                            m, 
-                                                                                                            lg, 
-                                                                                                            jx, 
-                                                                                                            ch, 
-                                                                                                            lv, 
-                                                                                                            snap >>
-                                                                                       ELSE /\ IF to[self].r = "up"
-                                                                                                  THEN /\ IF m[self].t = "H"
-                                                                                                             THEN /\ st' = [st EXCEPT ![to[self].n][to[self].s].utb = m[self].tb]
-                                                                                                                  /\ pc' = [pc EXCEPT ![self] = "FI3"]
-                                                                                                                  /\ UNCHANGED << obs, 
-                                                                                                                                  panicked, 
-                                                                                                                                  stack, 
-                                                                                                                                  fr, 
-                                                                                                                                  to, 
-                                                                                                                                  m, 
-                                                                                                                                  lg, 
-                                                                                                                                  sx, 
-                                                                                                                                  jx, 
-                                                                                                                                  ch, 
-                                                                                                                                  lv, 
-                                                                                                                                  snap >>
-                                                                                                             ELSE /\ IF m[self].t = "D"
-                                                                                                                        THEN /\ obs' = LogO(obs, Ev("fn", ThOf(self), "", FnName(to[self].n), "", m[self].v))
-                                                                                                                             /\ pc' = [pc EXCEPT ![self] = "FI5"]
-                                                                                                                             /\ UNCHANGED << panicked, 
-                                                                                                                                             stack, 
-                                                                                                                                             fr, 
-                                                                                                                                             to, 
-                                                                                                                                             m, 
-                                                                                                                                             lg, 
-                                                                                                                                             sx, 
-                                                                                                                                             jx, 
-                                                                                                                                             ch, 
-                                                                                                                                             lv, 
-                                                                                                                                             snap >>
-                                                                                                                        ELSE /\ IF m[self].t = "P"
-                                                                                                                                   THEN /\ obs' = LogO(obs \o [q \in 1..OpenCount(obs, 1, 0) |-> RetEv(ThOf(self))],
-                                                                                                                                                       Ev("panic", ThOf(self), "", "", "", 0))
-                                                                                                                                        /\ panicked' = TRUE
-                                                                                                                                        /\ pc' = [pc EXCEPT ![self] = "Halt"]
-                                                                                                                                        /\ UNCHANGED << stack, 
-                                                                                                                                                        fr, 
-                                                                                                                                                        to, 
-                                                                                                                                                        m, 
-                                                                                                                                                        lg, 
-                                                                                                                                                        sx, 
-                                                                                                                                                        jx, 
-                                                                                                                                                        ch, 
-                                                                                                                                                        lv, 
-                                                                                                                                                        snap >>
-                                                                                                                                   ELSE /\ /\ fr' = [fr EXCEPT ![self] = "S"]
-                                                                                                                                           /\ m' = [m EXCEPT ![self] = m[self]]
-                                                                                                                                           /\ stack' = [stack EXCEPT ![self] = << [ procedure |->  "Deliver",
-                                                                                                                                                                                    pc        |->  "FI7",
-                                                                                                                                                                                    lg        |->  lg[self],
-                                                                                                                                                                                    sx        |->  sx[self],
-                                                                                                                                                                                    jx        |->  jx[self],
-                                                                                                                                                                                    ch        |->  ch[self],
-                                                                                                                                                                                    lv        |->  lv[self],
-                                                                                                                                                                                    snap      |->  snap[self],
-                                                                                                                                                                                    fr        |->  fr[self],
-                                                                                                                                                                                    to        |->  to[self],
-                                                                                                                                                                                    m         |->  m[self] ] >>
-                                                                                                                                                                                \o stack[self]]
-                                                                                                                                           /\ to' = [to EXCEPT ![self] = S(to[self]).sink]
-                                                                                                                                        /\ lg' = [lg EXCEPT ![self] = FALSE]
-                                                                                                                                        /\ sx' = [sx EXCEPT ![self] = 0]
-                                                                                                                                        /\ jx' = [jx EXCEPT ![self] = 0]
-                                                                                                                                        /\ ch' = [ch EXCEPT ![self] = ""]
-                                                                                                                                        /\ lv' = [lv EXCEPT ![self] = 0]
-                                                                                                                                        /\ snap' = [snap EXCEPT ![self] = <<>>]
-                                                                                                                                        /\ pc' = [pc EXCEPT ![self] = "DStart"]
-                                                                                                                                        /\ UNCHANGED << obs, 
-                                                                                                                                                        panicked >>
-                                                                                                                  /\ st' = st
-                                                                                                  ELSE /\ IF m[self].t \in {"H", "D"} \/ S(to[self]).utb = NoRef
-                                                                                                             THEN /\ obs' = LogO(obs \o [q \in 1..OpenCount(obs, 1, 0) |-> RetEv(ThOf(self))],
-                                                                                                                                 Ev("panic", ThOf(self), "", "", "", 0))
-                                                                                                                  /\ panicked' = TRUE
-                                                                                                                  /\ pc' = [pc EXCEPT ![self] = "Halt"]
-                                                                                                                  /\ UNCHANGED << stack, 
-                                                                                                                                  fr, 
-                                                                                                                                  to, 
-                                                                                                                                  m, 
-                                                                                                                                  lg, 
-                                                                                                                                  sx, 
-                                                                                                                                  jx, 
-                                                                                                                                  ch, 
-                                                                                                                                  lv, 
-                                                                                                                                  snap >>
-                                                                                                             ELSE /\ /\ fr' = [fr EXCEPT ![self] = "S"]
-                                                                                                                     /\ m' = [m EXCEPT ![self] = m[self]]
-                                                                                                                     /\ stack' = [stack EXCEPT ![self] = << [ procedure |->  "Deliver",
-                                                                                                                                                              pc        |->  "FI8",
-                                                                                                                                                              lg        |->  lg[self],
-                                                                                                                                                              sx        |->  sx[self],
-                                                                                                                                                              jx        |->  jx[self],
-                                                                                                                                                              ch        |->  ch[self],
-                                                                                                                                                              lv        |->  lv[self],
-                                                                                                                                                              snap      |->  snap[self],
-                                                                                                                                                              fr        |->  fr[self],
-                                                                                                                                                              to        |->  to[self],
-                                                                                                                                                              m         |->  m[self] ] >>
-                                                                                                                                                          \o stack[self]]
-                                                                                                                     /\ to' = [to EXCEPT ![self] = S(to[self]).utb]
-                                                                                                                  /\ lg' = [lg EXCEPT ![self] = FALSE]
-                                                                                                                  /\ sx' = [sx EXCEPT ![self] = 0]
-                                                                                                                  /\ jx' = [jx EXCEPT ![self] = 0]
-                                                                                                                  /\ ch' = [ch EXCEPT ![self] = ""]
-                                                                                                                  /\ lv' = [lv EXCEPT ![self] = 0]
-                                                                                                                  /\ snap' = [snap EXCEPT ![self] = <<>>]
-                                                                                                                  /\ pc' = [pc EXCEPT ![self] = "DStart"]
-                                                                                                                  /\ UNCHANGED << obs, 
-                                                                                                                                  panicked >>
-                                                                                                       /\ st' = st
-                                                                                 /\ UNCHANGED << nd, 
+                                                                                 /\ UNCHANGED << st, 
+                                                                                                 nd, 
                                                                                                  tasks, 
-                                                                                                 script >>
-                                                                            ELSE /\ IF Kind(to[self].n) = "scan"
+                                                                                                 script, 
+                                                                                                 stack, 
+                                                                                                 fr, 
+                                                                                                 to, 
+                                                                                                 m, 
+                                                                                                 lg, 
+                                                                                                 sx, 
+                                                                                                 jx, 
+                                                                                                 ch, 
+                                                                                                 lv, 
+                                                                                                 snap >>
+                                                                            ELSE /\ IF Kind(to[self].n) = "map"
                                                                                        THEN /\ IF to[self].r = "src"
                                                                                                   THEN /\ IF m[self].t = "H"
                                                                                                              THEN /\ sx' = [sx EXCEPT ![self] = Len(st[to[self].n]) + 1]
                                                                                                                   /\ st' = [st EXCEPT ![to[self].n] = Append(st[to[self].n], InitSt(to[self].n, m[self].tb))]
-                                                                                                                  /\ pc' = [pc EXCEPT ![self] = "SC1"]
+                                                                                                                  /\ pc' = [pc EXCEPT ![self] = "MP1"]
                                                                                                              ELSE /\ pc' = [pc EXCEPT ![self] = "Ret"]
                                                                                                                   /\ UNCHANGED << st, 
                                                                                                                                   sx >>
@@ -1769,7 +1587,7 @@ DDisp(self) == /\ pc[self] = "DDisp"
                                                                                                   ELSE /\ IF to[self].r = "up"
                                                                                                              THEN /\ IF m[self].t = "H"
                                                                                                                         THEN /\ st' = [st EXCEPT ![to[self].n][to[self].s].utb = m[self].tb]
-                                                                                                                             /\ pc' = [pc EXCEPT ![self] = "SC3"]
+                                                                                                                             /\ pc' = [pc EXCEPT ![self] = "MP3"]
                                                                                                                              /\ UNCHANGED << obs, 
                                                                                                                                              panicked, 
                                                                                                                                              stack, 
@@ -1783,9 +1601,8 @@ DDisp(self) == /\ pc[self] = "DDisp"
                                                                                                                                              lv, 
                                                                                                                                              snap >>
                                                                                                                         ELSE /\ IF m[self].t = "D"
-                                                                                                                                   THEN /\ obs' = LogO(obs, Ev("fn", ThOf(self), "", FnName(to[self].n), "", <<S(to[self]).acc, m[self].v>>))
-                                                                                                                                        /\ st' = [st EXCEPT ![to[self].n][to[self].s].acc = RedInt(Node(to[self].n).r, S(to[self]).acc, m[self].v)]
-                                                                                                                                        /\ pc' = [pc EXCEPT ![self] = "SC5"]
+                                                                                                                                   THEN /\ obs' = LogO(obs, Ev("fn", ThOf(self), "", FnName(to[self].n), "", m[self].v))
+                                                                                                                                        /\ pc' = [pc EXCEPT ![self] = "MP5"]
                                                                                                                                         /\ UNCHANGED << panicked, 
                                                                                                                                                         stack, 
                                                                                                                                                         fr, 
@@ -1815,7 +1632,7 @@ DDisp(self) == /\ pc[self] = "DDisp"
                                                                                                                                               ELSE /\ /\ fr' = [fr EXCEPT ![self] = "S"]
                                                                                                                                                       /\ m' = [m EXCEPT ![self] = m[self]]
                                                                                                                                                       /\ stack' = [stack EXCEPT ![self] = << [ procedure |->  "Deliver",
-                                                                                                                                                                                               pc        |->  "SC7",
+                                                                                                                                                                                               pc        |->  "MP7",
                                                                                                                                                                                                lg        |->  lg[self],
                                                                                                                                                                                                sx        |->  sx[self],
                                                                                                                                                                                                jx        |->  jx[self],
@@ -1836,7 +1653,7 @@ DDisp(self) == /\ pc[self] = "DDisp"
                                                                                                                                                    /\ pc' = [pc EXCEPT ![self] = "DStart"]
                                                                                                                                                    /\ UNCHANGED << obs, 
                                                                                                                                                                    panicked >>
-                                                                                                                                        /\ st' = st
+                                                                                                                             /\ st' = st
                                                                                                              ELSE /\ IF m[self].t \in {"H", "D"}
                                                                                                                         THEN /\ obs' = LogO(obs \o [q \in 1..OpenCount(obs, 1, 0) |-> RetEv(ThOf(self))],
                                                                                                                                             Ev("panic", ThOf(self), "", "", "", 0))
@@ -1855,7 +1672,7 @@ DDisp(self) == /\ pc[self] = "DDisp"
                                                                                                                         ELSE /\ /\ fr' = [fr EXCEPT ![self] = "S"]
                                                                                                                                 /\ m' = [m EXCEPT ![self] = m[self]]
                                                                                                                                 /\ stack' = [stack EXCEPT ![self] = << [ procedure |->  "Deliver",
-                                                                                                                                                                         pc        |->  "SC8",
+                                                                                                                                                                         pc        |->  "MP8",
                                                                                                                                                                          lg        |->  lg[self],
                                                                                                                                                                          sx        |->  sx[self],
                                                                                                                                                                          jx        |->  jx[self],
@@ -1880,12 +1697,12 @@ DDisp(self) == /\ pc[self] = "DDisp"
                                                                                             /\ UNCHANGED << nd, 
                                                                                                             tasks, 
                                                                                                             script >>
-                                                                                       ELSE /\ IF Kind(to[self].n) = "take"
+                                                                                       ELSE /\ IF Kind(to[self].n) = "filter"
                                                                                                   THEN /\ IF to[self].r = "src"
                                                                                                              THEN /\ IF m[self].t = "H"
                                                                                                                         THEN /\ sx' = [sx EXCEPT ![self] = Len(st[to[self].n]) + 1]
                                                                                                                              /\ st' = [st EXCEPT ![to[self].n] = Append(st[to[self].n], InitSt(to[self].n, m[self].tb))]
-                                                                                                                             /\ pc' = [pc EXCEPT ![self] = "TK1"]
+                                                                                                                             /\ pc' = [pc EXCEPT ![self] = "FI1"]
                                                                                                                         ELSE /\ pc' = [pc EXCEPT ![self] = "Ret"]
                                                                                                                              /\ UNCHANGED << st, 
                                                                                                                                              sx >>
@@ -1903,7 +1720,7 @@ DDisp(self) == /\ pc[self] = "DDisp"
                                                                                                              ELSE /\ IF to[self].r = "up"
                                                                                                                         THEN /\ IF m[self].t = "H"
                                                                                                                                    THEN /\ st' = [st EXCEPT ![to[self].n][to[self].s].utb = m[self].tb]
-                                                                                                                                        /\ pc' = [pc EXCEPT ![self] = "TK3"]
+                                                                                                                                        /\ pc' = [pc EXCEPT ![self] = "FI3"]
                                                                                                                                         /\ UNCHANGED << obs, 
                                                                                                                                                         panicked, 
                                                                                                                                                         stack, 
@@ -1917,9 +1734,9 @@ DDisp(self) == /\ pc[self] = "DDisp"
                                                                                                                                                         lv, 
                                                                                                                                                         snap >>
                                                                                                                                    ELSE /\ IF m[self].t = "D"
-                                                                                                                                              THEN /\ pc' = [pc EXCEPT ![self] = "tk_taken_ld"]
-                                                                                                                                                   /\ UNCHANGED << obs, 
-                                                                                                                                                                   panicked, 
+                                                                                                                                              THEN /\ obs' = LogO(obs, Ev("fn", ThOf(self), "", FnName(to[self].n), "", m[self].v))
+                                                                                                                                                   /\ pc' = [pc EXCEPT ![self] = "FI5"]
+                                                                                                                                                   /\ UNCHANGED << panicked, 
                                                                                                                                                                    stack, 
                                                                                                                                                                    fr, 
                                                                                                                                                                    to, 
@@ -1948,7 +1765,7 @@ DDisp(self) == /\ pc[self] = "DDisp"
                                                                                                                                                          ELSE /\ /\ fr' = [fr EXCEPT ![self] = "S"]
                                                                                                                                                                  /\ m' = [m EXCEPT ![self] = m[self]]
                                                                                                                                                                  /\ stack' = [stack EXCEPT ![self] = << [ procedure |->  "Deliver",
-                                                                                                                                                                                                          pc        |->  "TK6",
+                                                                                                                                                                                                          pc        |->  "FI7",
                                                                                                                                                                                                           lg        |->  lg[self],
                                                                                                                                                                                                           sx        |->  sx[self],
                                                                                                                                                                                                           jx        |->  jx[self],
@@ -1970,13 +1787,12 @@ DDisp(self) == /\ pc[self] = "DDisp"
                                                                                                                                                               /\ UNCHANGED << obs, 
                                                                                                                                                                               panicked >>
                                                                                                                                         /\ st' = st
-                                                                                                                        ELSE /\ IF m[self].t \in {"H", "D"}
+                                                                                                                        ELSE /\ IF m[self].t \in {"H", "D"} \/ S(to[self]).utb = NoRef
                                                                                                                                    THEN /\ obs' = LogO(obs \o [q \in 1..OpenCount(obs, 1, 0) |-> RetEv(ThOf(self))],
                                                                                                                                                        Ev("panic", ThOf(self), "", "", "", 0))
                                                                                                                                         /\ panicked' = TRUE
                                                                                                                                         /\ pc' = [pc EXCEPT ![self] = "Halt"]
-                                                                                                                                        /\ UNCHANGED << st, 
-                                                                                                                                                        stack, 
+                                                                                                                                        /\ UNCHANGED << stack, 
                                                                                                                                                         fr, 
                                                                                                                                                         to, 
                                                                                                                                                         m, 
@@ -1986,84 +1802,40 @@ DDisp(self) == /\ pc[self] = "DDisp"
                                                                                                                                                         ch, 
                                                                                                                                                         lv, 
                                                                                                                                                         snap >>
-                                                                                                                                   ELSE /\ IF m[self].t = "P"
-                                                                                                                                              THEN /\ IF S(to[self]).taken < Node(to[self].n).n
-                                                                                                                                                         THEN /\ IF S(to[self]).utb = NoRef
-                                                                                                                                                                    THEN /\ obs' = LogO(obs \o [q \in 1..OpenCount(obs, 1, 0) |-> RetEv(ThOf(self))],
-                                                                                                                                                                                        Ev("panic", ThOf(self), "", "", "", 0))
-                                                                                                                                                                         /\ panicked' = TRUE
-                                                                                                                                                                         /\ pc' = [pc EXCEPT ![self] = "Halt"]
-                                                                                                                                                                         /\ UNCHANGED << stack, 
-                                                                                                                                                                                         fr, 
-                                                                                                                                                                                         to, 
-                                                                                                                                                                                         m, 
-                                                                                                                                                                                         lg, 
-                                                                                                                                                                                         sx, 
-                                                                                                                                                                                         jx, 
-                                                                                                                                                                                         ch, 
-                                                                                                                                                                                         lv, 
-                                                                                                                                                                                         snap >>
-                                                                                                                                                                    ELSE /\ /\ fr' = [fr EXCEPT ![self] = "S"]
-                                                                                                                                                                            /\ m' = [m EXCEPT ![self] = m[self]]
-                                                                                                                                                                            /\ stack' = [stack EXCEPT ![self] = << [ procedure |->  "Deliver",
-                                                                                                                                                                                                                     pc        |->  "TK7",
-                                                                                                                                                                                                                     lg        |->  lg[self],
-                                                                                                                                                                                                                     sx        |->  sx[self],
-                                                                                                                                                                                                                     jx        |->  jx[self],
-                                                                                                                                                                                                                     ch        |->  ch[self],
-                                                                                                                                                                                                                     lv        |->  lv[self],
-                                                                                                                                                                                                                     snap      |->  snap[self],
-                                                                                                                                                                                                                     fr        |->  fr[self],
-                                                                                                                                                                                                                     to        |->  to[self],
-                                                                                                                                                                                                                     m         |->  m[self] ] >>
-                                                                                                                                                                                                                 \o stack[self]]
-                                                                                                                                                                            /\ to' = [to EXCEPT ![self] = S(to[self]).utb]
-                                                                                                                                                                         /\ lg' = [lg EXCEPT ![self] = FALSE]
-                                                                                                                                                                         /\ sx' = [sx EXCEPT ![self] = 0]
-                                                                                                                                                                         /\ jx' = [jx EXCEPT ![self] = 0]
-                                                                                                                                                                         /\ ch' = [ch EXCEPT ![self] = ""]
-                                                                                                                                                                         /\ lv' = [lv EXCEPT ![self] = 0]
-                                                                                                                                                                         /\ snap' = [snap EXCEPT ![self] = <<>>]
-                                                                                                                                                                         /\ pc' = [pc EXCEPT ![self] = "DStart"]
-                                                                                                                                                                         /\ UNCHANGED << obs, 
-                                                                                                                                                                                         panicked >>
-                                                                                                                                                         ELSE /\ pc' = [pc EXCEPT ![self] = "TK7"]
-                                                                                                                                                              /\ UNCHANGED << obs, 
-                                                                                                                                                                              panicked, 
-                                                                                                                                                                              stack, 
-                                                                                                                                                                              fr, 
-                                                                                                                                                                              to, 
-                                                                                                                                                                              m, 
-                                                                                                                                                                              lg, 
-                                                                                                                                                                              sx, 
-                                                                                                                                                                              jx, 
-                                                                                                                                                                              ch, 
-                                                                                                                                                                              lv, 
-                                                                                                                                                                              snap >>
-                                                                                                                                                   /\ st' = st
-                                                                                                                                              ELSE /\ st' = [st EXCEPT ![to[self].n][to[self].s].end = TRUE]
-                                                                                                                                                   /\ pc' = [pc EXCEPT ![self] = "TK8"]
-                                                                                                                                                   /\ UNCHANGED << obs, 
-                                                                                                                                                                   panicked, 
-                                                                                                                                                                   stack, 
-                                                                                                                                                                   fr, 
-                                                                                                                                                                   to, 
-                                                                                                                                                                   m, 
-                                                                                                                                                                   lg, 
-                                                                                                                                                                   sx, 
-                                                                                                                                                                   jx, 
-                                                                                                                                                                   ch, 
-                                                                                                                                                                   lv, 
-                                                                                                                                                                   snap >>
+                                                                                                                                   ELSE /\ /\ fr' = [fr EXCEPT ![self] = "S"]
+                                                                                                                                           /\ m' = [m EXCEPT ![self] = m[self]]
+                                                                                                                                           /\ stack' = [stack EXCEPT ![self] = << [ procedure |->  "Deliver",
+                                                                                                                                                                                    pc        |->  "FI8",
+                                                                                                                                                                                    lg        |->  lg[self],
+                                                                                                                                                                                    sx        |->  sx[self],
+                                                                                                                                                                                    jx        |->  jx[self],
+                                                                                                                                                                                    ch        |->  ch[self],
+                                                                                                                                                                                    lv        |->  lv[self],
+                                                                                                                                                                                    snap      |->  snap[self],
+                                                                                                                                                                                    fr        |->  fr[self],
+                                                                                                                                                                                    to        |->  to[self],
+                                                                                                                                                                                    m         |->  m[self] ] >>
+                                                                                                                                                                                \o stack[self]]
+                                                                                                                                           /\ to' = [to EXCEPT ![self] = S(to[self]).utb]
+                                                                                                                                        /\ lg' = [lg EXCEPT ![self] = FALSE]
+                                                                                                                                        /\ sx' = [sx EXCEPT ![self] = 0]
+                                                                                                                                        /\ jx' = [jx EXCEPT ![self] = 0]
+                                                                                                                                        /\ ch' = [ch EXCEPT ![self] = ""]
+                                                                                                                                        /\ lv' = [lv EXCEPT ![self] = 0]
+                                                                                                                                        /\ snap' = [snap EXCEPT ![self] = <<>>]
+                                                                                                                                        /\ pc' = [pc EXCEPT ![self] = "DStart"]
+                                                                                                                                        /\ UNCHANGED << obs, 
+                                                                                                                                                        panicked >>
+                                                                                                                             /\ st' = st
                                                                                                        /\ UNCHANGED << nd, 
                                                                                                                        tasks, 
                                                                                                                        script >>
-                                                                                                  ELSE /\ IF Kind(to[self].n) = "skip"
+                                                                                                  ELSE /\ IF Kind(to[self].n) = "scan"
                                                                                                              THEN /\ IF to[self].r = "src"
                                                                                                                         THEN /\ IF m[self].t = "H"
                                                                                                                                    THEN /\ sx' = [sx EXCEPT ![self] = Len(st[to[self].n]) + 1]
                                                                                                                                         /\ st' = [st EXCEPT ![to[self].n] = Append(st[to[self].n], InitSt(to[self].n, m[self].tb))]
-                                                                                                                                        /\ pc' = [pc EXCEPT ![self] = "SK1"]
+                                                                                                                                        /\ pc' = [pc EXCEPT ![self] = "SC1"]
                                                                                                                                    ELSE /\ pc' = [pc EXCEPT ![self] = "Ret"]
                                                                                                                                         /\ UNCHANGED << st, 
                                                                                                                                                         sx >>
@@ -2081,7 +1853,7 @@ DDisp(self) == /\ pc[self] = "DDisp"
                                                                                                                         ELSE /\ IF to[self].r = "up"
                                                                                                                                    THEN /\ IF m[self].t = "H"
                                                                                                                                               THEN /\ st' = [st EXCEPT ![to[self].n][to[self].s].utb = m[self].tb]
-                                                                                                                                                   /\ pc' = [pc EXCEPT ![self] = "SK3"]
+                                                                                                                                                   /\ pc' = [pc EXCEPT ![self] = "SC3"]
                                                                                                                                                    /\ UNCHANGED << obs, 
                                                                                                                                                                    panicked, 
                                                                                                                                                                    stack, 
@@ -2095,44 +1867,20 @@ DDisp(self) == /\ pc[self] = "DDisp"
                                                                                                                                                                    lv, 
                                                                                                                                                                    snap >>
                                                                                                                                               ELSE /\ IF m[self].t = "D"
-                                                                                                                                                         THEN /\ IF S(to[self]).skipped < Node(to[self].n).n
-                                                                                                                                                                    THEN /\ st' = [st EXCEPT ![to[self].n][to[self].s].skipped = S(to[self]).skipped + 1]
-                                                                                                                                                                         /\ pc' = [pc EXCEPT ![self] = "SK5"]
-                                                                                                                                                                         /\ UNCHANGED << stack, 
-                                                                                                                                                                                         fr, 
-                                                                                                                                                                                         to, 
-                                                                                                                                                                                         m, 
-                                                                                                                                                                                         lg, 
-                                                                                                                                                                                         sx, 
-                                                                                                                                                                                         jx, 
-                                                                                                                                                                                         ch, 
-                                                                                                                                                                                         lv, 
-                                                                                                                                                                                         snap >>
-                                                                                                                                                                    ELSE /\ /\ fr' = [fr EXCEPT ![self] = "S"]
-                                                                                                                                                                            /\ m' = [m EXCEPT ![self] = m[self]]
-                                                                                                                                                                            /\ stack' = [stack EXCEPT ![self] = << [ procedure |->  "Deliver",
-                                                                                                                                                                                                                     pc        |->  "SK6",
-                                                                                                                                                                                                                     lg        |->  lg[self],
-                                                                                                                                                                                                                     sx        |->  sx[self],
-                                                                                                                                                                                                                     jx        |->  jx[self],
-                                                                                                                                                                                                                     ch        |->  ch[self],
-                                                                                                                                                                                                                     lv        |->  lv[self],
-                                                                                                                                                                                                                     snap      |->  snap[self],
-                                                                                                                                                                                                                     fr        |->  fr[self],
-                                                                                                                                                                                                                     to        |->  to[self],
-                                                                                                                                                                                                                     m         |->  m[self] ] >>
-                                                                                                                                                                                                                 \o stack[self]]
-                                                                                                                                                                            /\ to' = [to EXCEPT ![self] = S(to[self]).sink]
-                                                                                                                                                                         /\ lg' = [lg EXCEPT ![self] = FALSE]
-                                                                                                                                                                         /\ sx' = [sx EXCEPT ![self] = 0]
-                                                                                                                                                                         /\ jx' = [jx EXCEPT ![self] = 0]
-                                                                                                                                                                         /\ ch' = [ch EXCEPT ![self] = ""]
-                                                                                                                                                                         /\ lv' = [lv EXCEPT ![self] = 0]
-                                                                                                                                                                         /\ snap' = [snap EXCEPT ![self] = <<>>]
-                                                                                                                                                                         /\ pc' = [pc EXCEPT ![self] = "DStart"]
-                                                                                                                                                                         /\ st' = st
-                                                                                                                                                              /\ UNCHANGED << obs, 
-                                                                                                                                                                              panicked >>
+                                                                                                                                                         THEN /\ obs' = LogO(obs, Ev("fn", ThOf(self), "", FnName(to[self].n), "", <<S(to[self]).acc, m[self].v>>))
+                                                                                                                                                              /\ st' = [st EXCEPT ![to[self].n][to[self].s].acc = RedInt(Node(to[self].n).r, S(to[self]).acc, m[self].v)]
+                                                                                                                                                              /\ pc' = [pc EXCEPT ![self] = "SC5"]
+                                                                                                                                                              /\ UNCHANGED << panicked, 
+                                                                                                                                                                              stack, 
+                                                                                                                                                                              fr, 
+                                                                                                                                                                              to, 
+                                                                                                                                                                              m, 
+                                                                                                                                                                              lg, 
+                                                                                                                                                                              sx, 
+                                                                                                                                                                              jx, 
+                                                                                                                                                                              ch, 
+                                                                                                                                                                              lv, 
+                                                                                                                                                                              snap >>
                                                                                                                                                          ELSE /\ IF m[self].t = "P"
                                                                                                                                                                     THEN /\ obs' = LogO(obs \o [q \in 1..OpenCount(obs, 1, 0) |-> RetEv(ThOf(self))],
                                                                                                                                                                                         Ev("panic", ThOf(self), "", "", "", 0))
@@ -2151,7 +1899,7 @@ DDisp(self) == /\ pc[self] = "DDisp"
                                                                                                                                                                     ELSE /\ /\ fr' = [fr EXCEPT ![self] = "S"]
                                                                                                                                                                             /\ m' = [m EXCEPT ![self] = m[self]]
                                                                                                                                                                             /\ stack' = [stack EXCEPT ![self] = << [ procedure |->  "Deliver",
-                                                                                                                                                                                                                     pc        |->  "SK7",
+                                                                                                                                                                                                                     pc        |->  "SC7",
                                                                                                                                                                                                                      lg        |->  lg[self],
                                                                                                                                                                                                                      sx        |->  sx[self],
                                                                                                                                                                                                                      jx        |->  jx[self],
@@ -2173,7 +1921,7 @@ DDisp(self) == /\ pc[self] = "DDisp"
                                                                                                                                                                          /\ UNCHANGED << obs, 
                                                                                                                                                                                          panicked >>
                                                                                                                                                               /\ st' = st
-                                                                                                                                   ELSE /\ IF m[self].t \in {"H", "D"} \/ S(to[self]).utb = NoRef
+                                                                                                                                   ELSE /\ IF m[self].t \in {"H", "D"}
                                                                                                                                               THEN /\ obs' = LogO(obs \o [q \in 1..OpenCount(obs, 1, 0) |-> RetEv(ThOf(self))],
                                                                                                                                                                   Ev("panic", ThOf(self), "", "", "", 0))
                                                                                                                                                    /\ panicked' = TRUE
@@ -2191,7 +1939,7 @@ DDisp(self) == /\ pc[self] = "DDisp"
                                                                                                                                               ELSE /\ /\ fr' = [fr EXCEPT ![self] = "S"]
                                                                                                                                                       /\ m' = [m EXCEPT ![self] = m[self]]
                                                                                                                                                       /\ stack' = [stack EXCEPT ![self] = << [ procedure |->  "Deliver",
-                                                                                                                                                                                               pc        |->  "SK8",
+                                                                                                                                                                                               pc        |->  "SC8",
                                                                                                                                                                                                lg        |->  lg[self],
                                                                                                                                                                                                sx        |->  sx[self],
                                                                                                                                                                                                jx        |->  jx[self],
@@ -2216,84 +1964,44 @@ DDisp(self) == /\ pc[self] = "DDisp"
                                                                                                                   /\ UNCHANGED << nd, 
                                                                                                                                   tasks, 
                                                                                                                                   script >>
-                                                                                                             ELSE /\ IF Kind(to[self].n) = "merge"
+                                                                                                             ELSE /\ IF Kind(to[self].n) = "take"
                                                                                                                         THEN /\ IF to[self].r = "src"
                                                                                                                                    THEN /\ IF m[self].t = "H"
                                                                                                                                               THEN /\ sx' = [sx EXCEPT ![self] = Len(st[to[self].n]) + 1]
                                                                                                                                                    /\ st' = [st EXCEPT ![to[self].n] = Append(st[to[self].n], InitSt(to[self].n, m[self].tb))]
-                                                                                                                                                   /\ jx' = [jx EXCEPT ![self] = 1]
-                                                                                                                                                   /\ pc' = [pc EXCEPT ![self] = "MG1"]
+                                                                                                                                                   /\ pc' = [pc EXCEPT ![self] = "TK1"]
                                                                                                                                               ELSE /\ pc' = [pc EXCEPT ![self] = "Ret"]
                                                                                                                                                    /\ UNCHANGED << st, 
-                                                                                                                                                                   sx, 
-                                                                                                                                                                   jx >>
+                                                                                                                                                                   sx >>
                                                                                                                                         /\ UNCHANGED << obs, 
-                                                                                                                                                        panicked >>
+                                                                                                                                                        panicked, 
+                                                                                                                                                        stack, 
+                                                                                                                                                        fr, 
+                                                                                                                                                        to, 
+                                                                                                                                                        m, 
+                                                                                                                                                        lg, 
+                                                                                                                                                        jx, 
+                                                                                                                                                        ch, 
+                                                                                                                                                        lv, 
+                                                                                                                                                        snap >>
                                                                                                                                    ELSE /\ IF to[self].r = "up"
                                                                                                                                               THEN /\ IF m[self].t = "H"
-                                                                                                                                                         THEN /\ pc' = [pc EXCEPT ![self] = "mg_late_ld"]
+                                                                                                                                                         THEN /\ st' = [st EXCEPT ![to[self].n][to[self].s].utb = m[self].tb]
+                                                                                                                                                              /\ pc' = [pc EXCEPT ![self] = "TK3"]
                                                                                                                                                               /\ UNCHANGED << obs, 
-                                                                                                                                                                              panicked >>
+                                                                                                                                                                              panicked, 
+                                                                                                                                                                              stack, 
+                                                                                                                                                                              fr, 
+                                                                                                                                                                              to, 
+                                                                                                                                                                              m, 
+                                                                                                                                                                              lg, 
+                                                                                                                                                                              sx, 
+                                                                                                                                                                              jx, 
+                                                                                                                                                                              ch, 
+                                                                                                                                                                              lv, 
+                                                                                                                                                                              snap >>
                                                                                                                                                          ELSE /\ IF m[self].t = "D"
-                                                                                                                                                                    THEN /\ pc' = [pc EXCEPT ![self] = "mg_data"]
-                                                                                                                                                                         /\ UNCHANGED << obs, 
-                                                                                                                                                                                         panicked >>
-                                                                                                                                                                    ELSE /\ IF m[self].t = "P"
-                                                                                                                                                                               THEN /\ obs' = LogO(obs \o [q \in 1..OpenCount(obs, 1, 0) |-> RetEv(ThOf(self))],
-                                                                                                                                                                                                   Ev("panic", ThOf(self), "", "", "", 0))
-                                                                                                                                                                                    /\ panicked' = TRUE
-                                                                                                                                                                                    /\ pc' = [pc EXCEPT ![self] = "Halt"]
-                                                                                                                                                                               ELSE /\ IF m[self].t = "E"
-                                                                                                                                                                                          THEN /\ pc' = [pc EXCEPT ![self] = "mg_ended_st"]
-                                                                                                                                                                                          ELSE /\ pc' = [pc EXCEPT ![self] = "mg_tb_clr"]
-                                                                                                                                                                                    /\ UNCHANGED << obs, 
-                                                                                                                                                                                                    panicked >>
-                                                                                                                                                   /\ UNCHANGED << st, 
-                                                                                                                                                                   jx >>
-                                                                                                                                              ELSE /\ IF IsEnd(m[self])
-                                                                                                                                                         THEN /\ st' = [st EXCEPT ![to[self].n][to[self].s].ended = TRUE]
-                                                                                                                                                         ELSE /\ TRUE
-                                                                                                                                                              /\ st' = st
-                                                                                                                                                   /\ jx' = [jx EXCEPT ![self] = 1]
-                                                                                                                                                   /\ pc' = [pc EXCEPT ![self] = "MG8"]
-                                                                                                                                                   /\ UNCHANGED << obs, 
-                                                                                                                                                                   panicked >>
-                                                                                                                                        /\ sx' = sx
-                                                                                                                             /\ UNCHANGED << nd, 
-                                                                                                                                             tasks, 
-                                                                                                                                             script, 
-                                                                                                                                             stack, 
-                                                                                                                                             fr, 
-                                                                                                                                             to, 
-                                                                                                                                             m, 
-                                                                                                                                             lg, 
-                                                                                                                                             ch, 
-                                                                                                                                             lv, 
-                                                                                                                                             snap >>
-                                                                                                                        ELSE /\ IF Kind(to[self].n) = "concat"
-                                                                                                                                   THEN /\ IF to[self].r = "src"
-                                                                                                                                              THEN /\ IF m[self].t = "H"
-                                                                                                                                                         THEN /\ sx' = [sx EXCEPT ![self] = Len(st[to[self].n]) + 1]
-                                                                                                                                                              /\ st' = [st EXCEPT ![to[self].n] = Append(st[to[self].n], InitSt(to[self].n, m[self].tb))]
-                                                                                                                                                              /\ pc' = [pc EXCEPT ![self] = "CCNext"]
-                                                                                                                                                         ELSE /\ pc' = [pc EXCEPT ![self] = "Ret"]
-                                                                                                                                                              /\ UNCHANGED << st, 
-                                                                                                                                                                              sx >>
-                                                                                                                                                   /\ UNCHANGED << obs, 
-                                                                                                                                                                   panicked, 
-                                                                                                                                                                   stack, 
-                                                                                                                                                                   fr, 
-                                                                                                                                                                   to, 
-                                                                                                                                                                   m, 
-                                                                                                                                                                   lg, 
-                                                                                                                                                                   jx, 
-                                                                                                                                                                   ch, 
-                                                                                                                                                                   lv, 
-                                                                                                                                                                   snap >>
-                                                                                                                                              ELSE /\ IF to[self].r = "up"
-                                                                                                                                                         THEN /\ IF m[self].t = "H"
-                                                                                                                                                                    THEN /\ st' = [st EXCEPT ![to[self].n][to[self].s].utb = m[self].tb]
-                                                                                                                                                                         /\ pc' = [pc EXCEPT ![self] = "CC1"]
+                                                                                                                                                                    THEN /\ pc' = [pc EXCEPT ![self] = "tk_taken_ld"]
                                                                                                                                                                          /\ UNCHANGED << obs, 
                                                                                                                                                                                          panicked, 
                                                                                                                                                                                          stack, 
@@ -2306,11 +2014,25 @@ DDisp(self) == /\ pc[self] = "DDisp"
                                                                                                                                                                                          ch, 
                                                                                                                                                                                          lv, 
                                                                                                                                                                                          snap >>
-                                                                                                                                                                    ELSE /\ IF m[self].t = "D"
-                                                                                                                                                                               THEN /\ /\ fr' = [fr EXCEPT ![self] = "S"]
+                                                                                                                                                                    ELSE /\ IF m[self].t = "P"
+                                                                                                                                                                               THEN /\ obs' = LogO(obs \o [q \in 1..OpenCount(obs, 1, 0) |-> RetEv(ThOf(self))],
+                                                                                                                                                                                                   Ev("panic", ThOf(self), "", "", "", 0))
+                                                                                                                                                                                    /\ panicked' = TRUE
+                                                                                                                                                                                    /\ pc' = [pc EXCEPT ![self] = "Halt"]
+                                                                                                                                                                                    /\ UNCHANGED << stack, 
+                                                                                                                                                                                                    fr, 
+                                                                                                                                                                                                    to, 
+                                                                                                                                                                                                    m, 
+                                                                                                                                                                                                    lg, 
+                                                                                                                                                                                                    sx, 
+                                                                                                                                                                                                    jx, 
+                                                                                                                                                                                                    ch, 
+                                                                                                                                                                                                    lv, 
+                                                                                                                                                                                                    snap >>
+                                                                                                                                                                               ELSE /\ /\ fr' = [fr EXCEPT ![self] = "S"]
                                                                                                                                                                                        /\ m' = [m EXCEPT ![self] = m[self]]
                                                                                                                                                                                        /\ stack' = [stack EXCEPT ![self] = << [ procedure |->  "Deliver",
-                                                                                                                                                                                                                                pc        |->  "CC3",
+                                                                                                                                                                                                                                pc        |->  "TK6",
                                                                                                                                                                                                                                 lg        |->  lg[self],
                                                                                                                                                                                                                                 sx        |->  sx[self],
                                                                                                                                                                                                                                 jx        |->  jx[self],
@@ -2329,15 +2051,335 @@ DDisp(self) == /\ pc[self] = "DDisp"
                                                                                                                                                                                     /\ lv' = [lv EXCEPT ![self] = 0]
                                                                                                                                                                                     /\ snap' = [snap EXCEPT ![self] = <<>>]
                                                                                                                                                                                     /\ pc' = [pc EXCEPT ![self] = "DStart"]
-                                                                                                                                                                                    /\ UNCHANGED << st, 
-                                                                                                                                                                                                    obs, 
+                                                                                                                                                                                    /\ UNCHANGED << obs, 
+                                                                                                                                                                                                    panicked >>
+                                                                                                                                                              /\ st' = st
+                                                                                                                                              ELSE /\ IF m[self].t \in {"H", "D"}
+                                                                                                                                                         THEN /\ obs' = LogO(obs \o [q \in 1..OpenCount(obs, 1, 0) |-> RetEv(ThOf(self))],
+                                                                                                                                                                             Ev("panic", ThOf(self), "", "", "", 0))
+                                                                                                                                                              /\ panicked' = TRUE
+                                                                                                                                                              /\ pc' = [pc EXCEPT ![self] = "Halt"]
+                                                                                                                                                              /\ UNCHANGED << st, 
+                                                                                                                                                                              stack, 
+                                                                                                                                                                              fr, 
+                                                                                                                                                                              to, 
+                                                                                                                                                                              m, 
+                                                                                                                                                                              lg, 
+                                                                                                                                                                              sx, 
+                                                                                                                                                                              jx, 
+                                                                                                                                                                              ch, 
+                                                                                                                                                                              lv, 
+                                                                                                                                                                              snap >>
+                                                                                                                                                         ELSE /\ IF m[self].t = "P"
+                                                                                                                                                                    THEN /\ IF S(to[self]).taken < Node(to[self].n).n
+                                                                                                                                                                               THEN /\ IF S(to[self]).utb = NoRef
+                                                                                                                                                                                          THEN /\ obs' = LogO(obs \o [q \in 1..OpenCount(obs, 1, 0) |-> RetEv(ThOf(self))],
+                                                                                                                                                                                                              Ev("panic", ThOf(self), "", "", "", 0))
+                                                                                                                                                                                               /\ panicked' = TRUE
+                                                                                                                                                                                               /\ pc' = [pc EXCEPT ![self] = "Halt"]
+                                                                                                                                                                                               /\ UNCHANGED << stack, 
+                                                                                                                                                                                                               fr, 
+                                                                                                                                                                                                               to, 
+                                                                                                                                                                                                               m, 
+                                                                                                                                                                                                               lg, 
+                                                                                                                                                                                                               sx, 
+                                                                                                                                                                                                               jx, 
+                                                                                                                                                                                                               ch, 
+                                                                                                                                                                                                               lv, 
+                                                                                                                                                                                                               snap >>
+                                                                                                                                                                                          ELSE /\ /\ fr' = [fr EXCEPT ![self] = "S"]
+                                                                                                                                                                                                  /\ m' = [m EXCEPT ![self] = m[self]]
+                                                                                                                                                                                                  /\ stack' = [stack EXCEPT ![self] = << [ procedure |->  "Deliver",
+                                                                                                                                                                                                                                           pc        |->  "TK7",
+                                                                                                                                                                                                                                           lg        |->  lg[self],
+                                                                                                                                                                                                                                           sx        |->  sx[self],
+                                                                                                                                                                                                                                           jx        |->  jx[self],
+                                                                                                                                                                                                                                           ch        |->  ch[self],
+                                                                                                                                                                                                                                           lv        |->  lv[self],
+                                                                                                                                                                                                                                           snap      |->  snap[self],
+                                                                                                                                                                                                                                           fr        |->  fr[self],
+                                                                                                                                                                                                                                           to        |->  to[self],
+                                                                                                                                                                                                                                           m         |->  m[self] ] >>
+                                                                                                                                                                                                                                       \o stack[self]]
+                                                                                                                                                                                                  /\ to' = [to EXCEPT ![self] = S(to[self]).utb]
+                                                                                                                                                                                               /\ lg' = [lg EXCEPT ![self] = FALSE]
+                                                                                                                                                                                               /\ sx' = [sx EXCEPT ![self] = 0]
+                                                                                                                                                                                               /\ jx' = [jx EXCEPT ![self] = 0]
+                                                                                                                                                                                               /\ ch' = [ch EXCEPT ![self] = ""]
+                                                                                                                                                                                               /\ lv' = [lv EXCEPT ![self] = 0]
+                                                                                                                                                                                               /\ snap' = [snap EXCEPT ![self] = <<>>]
+                                                                                                                                                                                               /\ pc' = [pc EXCEPT ![self] = "DStart"]
+                                                                                                                                                                                               /\ UNCHANGED << obs, 
+                                                                                                                                                                                                               panicked >>
+                                                                                                                                                                               ELSE /\ pc' = [pc EXCEPT ![self] = "TK7"]
+                                                                                                                                                                                    /\ UNCHANGED << obs, 
+                                                                                                                                                                                                    panicked, 
+                                                                                                                                                                                                    stack, 
+                                                                                                                                                                                                    fr, 
+                                                                                                                                                                                                    to, 
+                                                                                                                                                                                                    m, 
+                                                                                                                                                                                                    lg, 
+                                                                                                                                                                                                    sx, 
+                                                                                                                                                                                                    jx, 
+                                                                                                                                                                                                    ch, 
+                                                                                                                                                                                                    lv, 
+                                                                                                                                                                                                    snap >>
+                                                                                                                                                                         /\ st' = st
+                                                                                                                                                                    ELSE /\ st' = [st EXCEPT ![to[self].n][to[self].s].end = TRUE]
+                                                                                                                                                                         /\ pc' = [pc EXCEPT ![self] = "TK8"]
+                                                                                                                                                                         /\ UNCHANGED << obs, 
+                                                                                                                                                                                         panicked, 
+                                                                                                                                                                                         stack, 
+                                                                                                                                                                                         fr, 
+                                                                                                                                                                                         to, 
+                                                                                                                                                                                         m, 
+                                                                                                                                                                                         lg, 
+                                                                                                                                                                                         sx, 
+                                                                                                                                                                                         jx, 
+                                                                                                                                                                                         ch, 
+                                                                                                                                                                                         lv, 
+                                                                                                                                                                                         snap >>
+                                                                                                                             /\ UNCHANGED << nd, 
+                                                                                                                                             tasks, 
+                                                                                                                                             script >>
+                                                                                                                        ELSE /\ IF Kind(to[self].n) = "skip"
+                                                                                                                                   THEN /\ IF to[self].r = "src"
+                                                                                                                                              THEN /\ IF m[self].t = "H"
+                                                                                                                                                         THEN /\ sx' = [sx EXCEPT ![self] = Len(st[to[self].n]) + 1]
+                                                                                                                                                              /\ st' = [st EXCEPT ![to[self].n] = Append(st[to[self].n], InitSt(to[self].n, m[self].tb))]
+                                                                                                                                                              /\ pc' = [pc EXCEPT ![self] = "SK1"]
+                                                                                                                                                         ELSE /\ pc' = [pc EXCEPT ![self] = "Ret"]
+                                                                                                                                                              /\ UNCHANGED << st, 
+                                                                                                                                                                              sx >>
+                                                                                                                                                   /\ UNCHANGED << obs, 
+                                                                                                                                                                   panicked, 
+                                                                                                                                                                   stack, 
+                                                                                                                                                                   fr, 
+                                                                                                                                                                   to, 
+                                                                                                                                                                   m, 
+                                                                                                                                                                   lg, 
+                                                                                                                                                                   jx, 
+                                                                                                                                                                   ch, 
+                                                                                                                                                                   lv, 
+                                                                                                                                                                   snap >>
+                                                                                                                                              ELSE /\ IF to[self].r = "up"
+                                                                                                                                                         THEN /\ IF m[self].t = "H"
+                                                                                                                                                                    THEN /\ st' = [st EXCEPT ![to[self].n][to[self].s].utb = m[self].tb]
+                                                                                                                                                                         /\ pc' = [pc EXCEPT ![self] = "SK3"]
+                                                                                                                                                                         /\ UNCHANGED << obs, 
+                                                                                                                                                                                         panicked, 
+                                                                                                                                                                                         stack, 
+                                                                                                                                                                                         fr, 
+                                                                                                                                                                                         to, 
+                                                                                                                                                                                         m, 
+                                                                                                                                                                                         lg, 
+                                                                                                                                                                                         sx, 
+                                                                                                                                                                                         jx, 
+                                                                                                                                                                                         ch, 
+                                                                                                                                                                                         lv, 
+                                                                                                                                                                                         snap >>
+                                                                                                                                                                    ELSE /\ IF m[self].t = "D"
+                                                                                                                                                                               THEN /\ IF S(to[self]).skipped < Node(to[self].n).n
+                                                                                                                                                                                          THEN /\ st' = [st EXCEPT ![to[self].n][to[self].s].skipped = S(to[self]).skipped + 1]
+                                                                                                                                                                                               /\ pc' = [pc EXCEPT ![self] = "SK5"]
+                                                                                                                                                                                               /\ UNCHANGED << stack, 
+                                                                                                                                                                                                               fr, 
+                                                                                                                                                                                                               to, 
+                                                                                                                                                                                                               m, 
+                                                                                                                                                                                                               lg, 
+                                                                                                                                                                                                               sx, 
+                                                                                                                                                                                                               jx, 
+                                                                                                                                                                                                               ch, 
+                                                                                                                                                                                                               lv, 
+                                                                                                                                                                                                               snap >>
+                                                                                                                                                                                          ELSE /\ /\ fr' = [fr EXCEPT ![self] = "S"]
+                                                                                                                                                                                                  /\ m' = [m EXCEPT ![self] = m[self]]
+                                                                                                                                                                                                  /\ stack' = [stack EXCEPT ![self] = << [ procedure |->  "Deliver",
+                                                                                                                                                                                                                                           pc        |->  "SK6",
+                                                                                                                                                                                                                                           lg        |->  lg[self],
+                                                                                                                                                                                                                                           sx        |->  sx[self],
+                                                                                                                                                                                                                                           jx        |->  jx[self],
+                                                                                                                                                                                                                                           ch        |->  ch[self],
+                                                                                                                                                                                                                                           lv        |->  lv[self],
+                                                                                                                                                                                                                                           snap      |->  snap[self],
+                                                                                                                                                                                                                                           fr        |->  fr[self],
+                                                                                                                                                                                                                                           to        |->  to[self],
+                                                                                                                                                                                                                                           m         |->  m[self] ] >>
+                                                                                                                                                                                                                                       \o stack[self]]
+                                                                                                                                                                                                  /\ to' = [to EXCEPT ![self] = S(to[self]).sink]
+                                                                                                                                                                                               /\ lg' = [lg EXCEPT ![self] = FALSE]
+                                                                                                                                                                                               /\ sx' = [sx EXCEPT ![self] = 0]
+                                                                                                                                                                                               /\ jx' = [jx EXCEPT ![self] = 0]
+                                                                                                                                                                                               /\ ch' = [ch EXCEPT ![self] = ""]
+                                                                                                                                                                                               /\ lv' = [lv EXCEPT ![self] = 0]
+                                                                                                                                                                                               /\ snap' = [snap EXCEPT ![self] = <<>>]
+                                                                                                                                                                                               /\ pc' = [pc EXCEPT ![self] = "DStart"]
+                                                                                                                                                                                               /\ st' = st
+                                                                                                                                                                                    /\ UNCHANGED << obs, 
                                                                                                                                                                                                     panicked >>
                                                                                                                                                                                ELSE /\ IF m[self].t = "P"
                                                                                                                                                                                           THEN /\ obs' = LogO(obs \o [q \in 1..OpenCount(obs, 1, 0) |-> RetEv(ThOf(self))],
                                                                                                                                                                                                               Ev("panic", ThOf(self), "", "", "", 0))
                                                                                                                                                                                                /\ panicked' = TRUE
                                                                                                                                                                                                /\ pc' = [pc EXCEPT ![self] = "Halt"]
-                                                                                                                                                                                               /\ UNCHANGED << st, 
+                                                                                                                                                                                               /\ UNCHANGED << stack, 
+                                                                                                                                                                                                               fr, 
+                                                                                                                                                                                                               to, 
+                                                                                                                                                                                                               m, 
+                                                                                                                                                                                                               lg, 
+                                                                                                                                                                                                               sx, 
+                                                                                                                                                                                                               jx, 
+                                                                                                                                                                                                               ch, 
+                                                                                                                                                                                                               lv, 
+                                                                                                                                                                                                               snap >>
+                                                                                                                                                                                          ELSE /\ /\ fr' = [fr EXCEPT ![self] = "S"]
+                                                                                                                                                                                                  /\ m' = [m EXCEPT ![self] = m[self]]
+                                                                                                                                                                                                  /\ stack' = [stack EXCEPT ![self] = << [ procedure |->  "Deliver",
+                                                                                                                                                                                                                                           pc        |->  "SK7",
+                                                                                                                                                                                                                                           lg        |->  lg[self],
+                                                                                                                                                                                                                                           sx        |->  sx[self],
+                                                                                                                                                                                                                                           jx        |->  jx[self],
+                                                                                                                                                                                                                                           ch        |->  ch[self],
+                                                                                                                                                                                                                                           lv        |->  lv[self],
+                                                                                                                                                                                                                                           snap      |->  snap[self],
+                                                                                                                                                                                                                                           fr        |->  fr[self],
+                                                                                                                                                                                                                                           to        |->  to[self],
+                                                                                                                                                                                                                                           m         |->  m[self] ] >>
+                                                                                                                                                                                                                                       \o stack[self]]
+                                                                                                                                                                                                  /\ to' = [to EXCEPT ![self] = S(to[self]).sink]
+                                                                                                                                                                                               /\ lg' = [lg EXCEPT ![self] = FALSE]
+                                                                                                                                                                                               /\ sx' = [sx EXCEPT ![self] = 0]
+                                                                                                                                                                                               /\ jx' = [jx EXCEPT ![self] = 0]
+                                                                                                                                                                                               /\ ch' = [ch EXCEPT ![self] = ""]
+                                                                                                                                                                                               /\ lv' = [lv EXCEPT ![self] = 0]
+                                                                                                                                                                                               /\ snap' = [snap EXCEPT ![self] = <<>>]
+                                                                                                                                                                                               /\ pc' = [pc EXCEPT ![self] = "DStart"]
+                                                                                                                                                                                               /\ UNCHANGED << obs, 
+                                                                                                                                                                                                               panicked >>
+                                                                                                                                                                                    /\ st' = st
+                                                                                                                                                         ELSE /\ IF m[self].t \in {"H", "D"} \/ S(to[self]).utb = NoRef
+                                                                                                                                                                    THEN /\ obs' = LogO(obs \o [q \in 1..OpenCount(obs, 1, 0) |-> RetEv(ThOf(self))],
+                                                                                                                                                                                        Ev("panic", ThOf(self), "", "", "", 0))
+                                                                                                                                                                         /\ panicked' = TRUE
+                                                                                                                                                                         /\ pc' = [pc EXCEPT ![self] = "Halt"]
+                                                                                                                                                                         /\ UNCHANGED << stack, 
+                                                                                                                                                                                         fr, 
+                                                                                                                                                                                         to, 
+                                                                                                                                                                                         m, 
+                                                                                                                                                                                         lg, 
+                                                                                                                                                                                         sx, 
+                                                                                                                                                                                         jx, 
+                                                                                                                                                                                         ch, 
+                                                                                                                                                                                         lv, 
+                                                                                                                                                                                         snap >>
+                                                                                                                                                                    ELSE /\ /\ fr' = [fr EXCEPT ![self] = "S"]
+                                                                                                                                                                            /\ m' = [m EXCEPT ![self] = m[self]]
+                                                                                                                                                                            /\ stack' = [stack EXCEPT ![self] = << [ procedure |->  "Deliver",
+                                                                                                                                                                                                                     pc        |->  "SK8",
+                                                                                                                                                                                                                     lg        |->  lg[self],
+                                                                                                                                                                                                                     sx        |->  sx[self],
+                                                                                                                                                                                                                     jx        |->  jx[self],
+                                                                                                                                                                                                                     ch        |->  ch[self],
+                                                                                                                                                                                                                     lv        |->  lv[self],
+                                                                                                                                                                                                                     snap      |->  snap[self],
+                                                                                                                                                                                                                     fr        |->  fr[self],
+                                                                                                                                                                                                                     to        |->  to[self],
+                                                                                                                                                                                                                     m         |->  m[self] ] >>
+                                                                                                                                                                                                                 \o stack[self]]
+                                                                                                                                                                            /\ to' = [to EXCEPT ![self] = S(to[self]).utb]
+                                                                                                                                                                         /\ lg' = [lg EXCEPT ![self] = FALSE]
+                                                                                                                                                                         /\ sx' = [sx EXCEPT ![self] = 0]
+                                                                                                                                                                         /\ jx' = [jx EXCEPT ![self] = 0]
+                                                                                                                                                                         /\ ch' = [ch EXCEPT ![self] = ""]
+                                                                                                                                                                         /\ lv' = [lv EXCEPT ![self] = 0]
+                                                                                                                                                                         /\ snap' = [snap EXCEPT ![self] = <<>>]
+                                                                                                                                                                         /\ pc' = [pc EXCEPT ![self] = "DStart"]
+                                                                                                                                                                         /\ UNCHANGED << obs, 
+                                                                                                                                                                                         panicked >>
+                                                                                                                                                              /\ st' = st
+                                                                                                                                        /\ UNCHANGED << nd, 
+                                                                                                                                                        tasks, 
+                                                                                                                                                        script >>
+                                                                                                                                   ELSE /\ IF Kind(to[self].n) = "merge"
+                                                                                                                                              THEN /\ IF to[self].r = "src"
+                                                                                                                                                         THEN /\ IF m[self].t = "H"
+                                                                                                                                                                    THEN /\ sx' = [sx EXCEPT ![self] = Len(st[to[self].n]) + 1]
+                                                                                                                                                                         /\ st' = [st EXCEPT ![to[self].n] = Append(st[to[self].n], InitSt(to[self].n, m[self].tb))]
+                                                                                                                                                                         /\ jx' = [jx EXCEPT ![self] = 1]
+                                                                                                                                                                         /\ pc' = [pc EXCEPT ![self] = "MG1"]
+                                                                                                                                                                    ELSE /\ pc' = [pc EXCEPT ![self] = "Ret"]
+                                                                                                                                                                         /\ UNCHANGED << st, 
+                                                                                                                                                                                         sx, 
+                                                                                                                                                                                         jx >>
+                                                                                                                                                              /\ UNCHANGED << obs, 
+                                                                                                                                                                              panicked >>
+                                                                                                                                                         ELSE /\ IF to[self].r = "up"
+                                                                                                                                                                    THEN /\ IF m[self].t = "H"
+                                                                                                                                                                               THEN /\ pc' = [pc EXCEPT ![self] = "mg_late_ld"]
+                                                                                                                                                                                    /\ UNCHANGED << obs, 
+                                                                                                                                                                                                    panicked >>
+                                                                                                                                                                               ELSE /\ IF m[self].t = "D"
+                                                                                                                                                                                          THEN /\ pc' = [pc EXCEPT ![self] = "mg_data"]
+                                                                                                                                                                                               /\ UNCHANGED << obs, 
+                                                                                                                                                                                                               panicked >>
+                                                                                                                                                                                          ELSE /\ IF m[self].t = "P"
+                                                                                                                                                                                                     THEN /\ obs' = LogO(obs \o [q \in 1..OpenCount(obs, 1, 0) |-> RetEv(ThOf(self))],
+                                                                                                                                                                                                                         Ev("panic", ThOf(self), "", "", "", 0))
+                                                                                                                                                                                                          /\ panicked' = TRUE
+                                                                                                                                                                                                          /\ pc' = [pc EXCEPT ![self] = "Halt"]
+                                                                                                                                                                                                     ELSE /\ IF m[self].t = "E"
+                                                                                                                                                                                                                THEN /\ pc' = [pc EXCEPT ![self] = "mg_ended_st"]
+                                                                                                                                                                                                                ELSE /\ pc' = [pc EXCEPT ![self] = "mg_tb_clr"]
+                                                                                                                                                                                                          /\ UNCHANGED << obs, 
+                                                                                                                                                                                                                          panicked >>
+                                                                                                                                                                         /\ UNCHANGED << st, 
+                                                                                                                                                                                         jx >>
+                                                                                                                                                                    ELSE /\ IF IsEnd(m[self])
+                                                                                                                                                                               THEN /\ st' = [st EXCEPT ![to[self].n][to[self].s].ended = TRUE]
+                                                                                                                                                                               ELSE /\ TRUE
+                                                                                                                                                                                    /\ st' = st
+                                                                                                                                                                         /\ jx' = [jx EXCEPT ![self] = 1]
+                                                                                                                                                                         /\ pc' = [pc EXCEPT ![self] = "MG8"]
+                                                                                                                                                                         /\ UNCHANGED << obs, 
+                                                                                                                                                                                         panicked >>
+                                                                                                                                                              /\ sx' = sx
+                                                                                                                                                   /\ UNCHANGED << nd, 
+                                                                                                                                                                   tasks, 
+                                                                                                                                                                   script, 
+                                                                                                                                                                   stack, 
+                                                                                                                                                                   fr, 
+                                                                                                                                                                   to, 
+                                                                                                                                                                   m, 
+                                                                                                                                                                   lg, 
+                                                                                                                                                                   ch, 
+                                                                                                                                                                   lv, 
+                                                                                                                                                                   snap >>
+                                                                                                                                              ELSE /\ IF Kind(to[self].n) = "concat"
+                                                                                                                                                         THEN /\ IF to[self].r = "src"
+                                                                                                                                                                    THEN /\ IF m[self].t = "H"
+                                                                                                                                                                               THEN /\ sx' = [sx EXCEPT ![self] = Len(st[to[self].n]) + 1]
+                                                                                                                                                                                    /\ st' = [st EXCEPT ![to[self].n] = Append(st[to[self].n], InitSt(to[self].n, m[self].tb))]
+                                                                                                                                                                                    /\ pc' = [pc EXCEPT ![self] = "CCNext"]
+                                                                                                                                                                               ELSE /\ pc' = [pc EXCEPT ![self] = "Ret"]
+                                                                                                                                                                                    /\ UNCHANGED << st, 
+                                                                                                                                                                                                    sx >>
+                                                                                                                                                                         /\ UNCHANGED << obs, 
+                                                                                                                                                                                         panicked, 
+                                                                                                                                                                                         stack, 
+                                                                                                                                                                                         fr, 
+                                                                                                                                                                                         to, 
+                                                                                                                                                                                         m, 
+                                                                                                                                                                                         lg, 
+                                                                                                                                                                                         jx, 
+                                                                                                                                                                                         ch, 
+                                                                                                                                                                                         lv, 
+                                                                                                                                                                                         snap >>
+                                                                                                                                                                    ELSE /\ IF to[self].r = "up"
+                                                                                                                                                                               THEN /\ IF m[self].t = "H"
+                                                                                                                                                                                          THEN /\ st' = [st EXCEPT ![to[self].n][to[self].s].utb = m[self].tb]
+                                                                                                                                                                                               /\ pc' = [pc EXCEPT ![self] = "CC1"]
+                                                                                                                                                                                               /\ UNCHANGED << obs, 
+                                                                                                                                                                                                               panicked, 
                                                                                                                                                                                                                stack, 
                                                                                                                                                                                                                fr, 
                                                                                                                                                                                                                to, 
@@ -2348,11 +2390,11 @@ DDisp(self) == /\ pc[self] = "DDisp"
                                                                                                                                                                                                                ch, 
                                                                                                                                                                                                                lv, 
                                                                                                                                                                                                                snap >>
-                                                                                                                                                                                          ELSE /\ IF m[self].t = "E"
+                                                                                                                                                                                          ELSE /\ IF m[self].t = "D"
                                                                                                                                                                                                      THEN /\ /\ fr' = [fr EXCEPT ![self] = "S"]
                                                                                                                                                                                                              /\ m' = [m EXCEPT ![self] = m[self]]
                                                                                                                                                                                                              /\ stack' = [stack EXCEPT ![self] = << [ procedure |->  "Deliver",
-                                                                                                                                                                                                                                                      pc        |->  "CC4",
+                                                                                                                                                                                                                                                      pc        |->  "CC3",
                                                                                                                                                                                                                                                       lg        |->  lg[self],
                                                                                                                                                                                                                                                       sx        |->  sx[self],
                                                                                                                                                                                                                                                       jx        |->  jx[self],
@@ -2371,172 +2413,6 @@ DDisp(self) == /\ pc[self] = "DDisp"
                                                                                                                                                                                                           /\ lv' = [lv EXCEPT ![self] = 0]
                                                                                                                                                                                                           /\ snap' = [snap EXCEPT ![self] = <<>>]
                                                                                                                                                                                                           /\ pc' = [pc EXCEPT ![self] = "DStart"]
-                                                                                                                                                                                                          /\ st' = st
-                                                                                                                                                                                                     ELSE /\ st' = [st EXCEPT ![to[self].n][to[self].s].i = S(to[self]).i + 1]
-                                                                                                                                                                                                          /\ sx' = [sx EXCEPT ![self] = to[self].s]
-                                                                                                                                                                                                          /\ pc' = [pc EXCEPT ![self] = "CCNext"]
-                                                                                                                                                                                                          /\ UNCHANGED << stack, 
-                                                                                                                                                                                                                          fr, 
-                                                                                                                                                                                                                          to, 
-                                                                                                                                                                                                                          m, 
-                                                                                                                                                                                                                          lg, 
-                                                                                                                                                                                                                          jx, 
-                                                                                                                                                                                                                          ch, 
-                                                                                                                                                                                                                          lv, 
-                                                                                                                                                                                                                          snap >>
-                                                                                                                                                                                               /\ UNCHANGED << obs, 
-                                                                                                                                                                                                               panicked >>
-                                                                                                                                                         ELSE /\ IF m[self].t \in {"H", "D"}
-                                                                                                                                                                    THEN /\ obs' = LogO(obs \o [q \in 1..OpenCount(obs, 1, 0) |-> RetEv(ThOf(self))],
-                                                                                                                                                                                        Ev("panic", ThOf(self), "", "", "", 0))
-                                                                                                                                                                         /\ panicked' = TRUE
-                                                                                                                                                                         /\ pc' = [pc EXCEPT ![self] = "Halt"]
-                                                                                                                                                                         /\ st' = st
-                                                                                                                                                                    ELSE /\ IF m[self].t = "P"
-                                                                                                                                                                               THEN /\ st' = [st EXCEPT ![to[self].n][to[self].s].gotpull = TRUE]
-                                                                                                                                                                               ELSE /\ TRUE
-                                                                                                                                                                                    /\ st' = st
-                                                                                                                                                                         /\ pc' = [pc EXCEPT ![self] = "CC5"]
-                                                                                                                                                                         /\ UNCHANGED << obs, 
-                                                                                                                                                                                         panicked >>
-                                                                                                                                                              /\ UNCHANGED << stack, 
-                                                                                                                                                                              fr, 
-                                                                                                                                                                              to, 
-                                                                                                                                                                              m, 
-                                                                                                                                                                              lg, 
-                                                                                                                                                                              sx, 
-                                                                                                                                                                              jx, 
-                                                                                                                                                                              ch, 
-                                                                                                                                                                              lv, 
-                                                                                                                                                                              snap >>
-                                                                                                                                        /\ UNCHANGED << nd, 
-                                                                                                                                                        tasks, 
-                                                                                                                                                        script >>
-                                                                                                                                   ELSE /\ IF Kind(to[self].n) = "combine"
-                                                                                                                                              THEN /\ IF to[self].r = "src"
-                                                                                                                                                         THEN /\ IF m[self].t = "H"
-                                                                                                                                                                    THEN /\ sx' = [sx EXCEPT ![self] = Len(st[to[self].n]) + 1]
-                                                                                                                                                                         /\ st' = [st EXCEPT ![to[self].n] = Append(st[to[self].n], InitSt(to[self].n, m[self].tb))]
-                                                                                                                                                                         /\ jx' = [jx EXCEPT ![self] = 1]
-                                                                                                                                                                         /\ pc' = [pc EXCEPT ![self] = "CB1"]
-                                                                                                                                                                    ELSE /\ pc' = [pc EXCEPT ![self] = "Ret"]
-                                                                                                                                                                         /\ UNCHANGED << st, 
-                                                                                                                                                                                         sx, 
-                                                                                                                                                                                         jx >>
-                                                                                                                                                              /\ UNCHANGED << obs, 
-                                                                                                                                                                              panicked >>
-                                                                                                                                                         ELSE /\ IF to[self].r = "up"
-                                                                                                                                                                    THEN /\ IF m[self].t = "H"
-                                                                                                                                                                               THEN /\ pc' = [pc EXCEPT ![self] = "cb_tb_st"]
-                                                                                                                                                                                    /\ UNCHANGED << obs, 
-                                                                                                                                                                                                    panicked >>
-                                                                                                                                                                               ELSE /\ IF m[self].t = "D"
-                                                                                                                                                                                          THEN /\ pc' = [pc EXCEPT ![self] = "cb_vals_ld"]
-                                                                                                                                                                                               /\ UNCHANGED << obs, 
-                                                                                                                                                                                                               panicked >>
-                                                                                                                                                                                          ELSE /\ IF m[self].t = "P"
-                                                                                                                                                                                                     THEN /\ obs' = LogO(obs \o [q \in 1..OpenCount(obs, 1, 0) |-> RetEv(ThOf(self))],
-                                                                                                                                                                                                                         Ev("panic", ThOf(self), "", "", "", 0))
-                                                                                                                                                                                                          /\ panicked' = TRUE
-                                                                                                                                                                                                          /\ pc' = [pc EXCEPT ![self] = "Halt"]
-                                                                                                                                                                                                     ELSE /\ pc' = [pc EXCEPT ![self] = "cb_end_fs"]
-                                                                                                                                                                                                          /\ UNCHANGED << obs, 
-                                                                                                                                                                                                                          panicked >>
-                                                                                                                                                                         /\ jx' = jx
-                                                                                                                                                                    ELSE /\ IF m[self].t \in {"H", "D"}
-                                                                                                                                                                               THEN /\ obs' = LogO(obs \o [q \in 1..OpenCount(obs, 1, 0) |-> RetEv(ThOf(self))],
-                                                                                                                                                                                                   Ev("panic", ThOf(self), "", "", "", 0))
-                                                                                                                                                                                    /\ panicked' = TRUE
-                                                                                                                                                                                    /\ pc' = [pc EXCEPT ![self] = "Halt"]
-                                                                                                                                                                                    /\ jx' = jx
-                                                                                                                                                                               ELSE /\ jx' = [jx EXCEPT ![self] = 1]
-                                                                                                                                                                                    /\ pc' = [pc EXCEPT ![self] = "CB6"]
-                                                                                                                                                                                    /\ UNCHANGED << obs, 
-                                                                                                                                                                                                    panicked >>
-                                                                                                                                                              /\ UNCHANGED << st, 
-                                                                                                                                                                              sx >>
-                                                                                                                                                   /\ UNCHANGED << nd, 
-                                                                                                                                                                   tasks, 
-                                                                                                                                                                   script, 
-                                                                                                                                                                   stack, 
-                                                                                                                                                                   fr, 
-                                                                                                                                                                   to, 
-                                                                                                                                                                   m, 
-                                                                                                                                                                   lg, 
-                                                                                                                                                                   ch, 
-                                                                                                                                                                   lv, 
-                                                                                                                                                                   snap >>
-                                                                                                                                              ELSE /\ IF Kind(to[self].n) = "flatten"
-                                                                                                                                                         THEN /\ IF to[self].r = "src"
-                                                                                                                                                                    THEN /\ IF m[self].t = "H"
-                                                                                                                                                                               THEN /\ sx' = [sx EXCEPT ![self] = Len(st[to[self].n]) + 1]
-                                                                                                                                                                                    /\ st' = [st EXCEPT ![to[self].n] = Append(st[to[self].n], InitSt(to[self].n, m[self].tb))]
-                                                                                                                                                                                    /\ pc' = [pc EXCEPT ![self] = "FL1"]
-                                                                                                                                                                               ELSE /\ pc' = [pc EXCEPT ![self] = "Ret"]
-                                                                                                                                                                                    /\ UNCHANGED << st, 
-                                                                                                                                                                                                    sx >>
-                                                                                                                                                                         /\ UNCHANGED << obs, 
-                                                                                                                                                                                         panicked, 
-                                                                                                                                                                                         stack, 
-                                                                                                                                                                                         fr, 
-                                                                                                                                                                                         to, 
-                                                                                                                                                                                         m, 
-                                                                                                                                                                                         lg, 
-                                                                                                                                                                                         jx, 
-                                                                                                                                                                                         ch, 
-                                                                                                                                                                                         lv, 
-                                                                                                                                                                                         snap >>
-                                                                                                                                                                    ELSE /\ IF to[self].r = "up"
-                                                                                                                                                                               THEN /\ IF m[self].t = "H"
-                                                                                                                                                                                          THEN /\ st' = [st EXCEPT ![to[self].n][to[self].s].otb = m[self].tb]
-                                                                                                                                                                                               /\ pc' = [pc EXCEPT ![self] = "FL3"]
-                                                                                                                                                                                               /\ UNCHANGED << obs, 
-                                                                                                                                                                                                               panicked, 
-                                                                                                                                                                                                               stack, 
-                                                                                                                                                                                                               fr, 
-                                                                                                                                                                                                               to, 
-                                                                                                                                                                                                               m, 
-                                                                                                                                                                                                               lg, 
-                                                                                                                                                                                                               sx, 
-                                                                                                                                                                                                               jx, 
-                                                                                                                                                                                                               ch, 
-                                                                                                                                                                                                               lv, 
-                                                                                                                                                                                                               snap >>
-                                                                                                                                                                                          ELSE /\ IF m[self].t = "D"
-                                                                                                                                                                                                     THEN /\ IF S(to[self]).itb # NoRef
-                                                                                                                                                                                                                THEN /\ /\ fr' = [fr EXCEPT ![self] = "S"]
-                                                                                                                                                                                                                        /\ m' = [m EXCEPT ![self] = Msg("T")]
-                                                                                                                                                                                                                        /\ stack' = [stack EXCEPT ![self] = << [ procedure |->  "Deliver",
-                                                                                                                                                                                                                                                                 pc        |->  "FL5",
-                                                                                                                                                                                                                                                                 lg        |->  lg[self],
-                                                                                                                                                                                                                                                                 sx        |->  sx[self],
-                                                                                                                                                                                                                                                                 jx        |->  jx[self],
-                                                                                                                                                                                                                                                                 ch        |->  ch[self],
-                                                                                                                                                                                                                                                                 lv        |->  lv[self],
-                                                                                                                                                                                                                                                                 snap      |->  snap[self],
-                                                                                                                                                                                                                                                                 fr        |->  fr[self],
-                                                                                                                                                                                                                                                                 to        |->  to[self],
-                                                                                                                                                                                                                                                                 m         |->  m[self] ] >>
-                                                                                                                                                                                                                                                             \o stack[self]]
-                                                                                                                                                                                                                        /\ to' = [to EXCEPT ![self] = S(to[self]).itb]
-                                                                                                                                                                                                                     /\ lg' = [lg EXCEPT ![self] = FALSE]
-                                                                                                                                                                                                                     /\ sx' = [sx EXCEPT ![self] = 0]
-                                                                                                                                                                                                                     /\ jx' = [jx EXCEPT ![self] = 0]
-                                                                                                                                                                                                                     /\ ch' = [ch EXCEPT ![self] = ""]
-                                                                                                                                                                                                                     /\ lv' = [lv EXCEPT ![self] = 0]
-                                                                                                                                                                                                                     /\ snap' = [snap EXCEPT ![self] = <<>>]
-                                                                                                                                                                                                                     /\ pc' = [pc EXCEPT ![self] = "DStart"]
-                                                                                                                                                                                                                ELSE /\ pc' = [pc EXCEPT ![self] = "FL5"]
-                                                                                                                                                                                                                     /\ UNCHANGED << stack, 
-                                                                                                                                                                                                                                     fr, 
-                                                                                                                                                                                                                                     to, 
-                                                                                                                                                                                                                                     m, 
-                                                                                                                                                                                                                                     lg, 
-                                                                                                                                                                                                                                     sx, 
-                                                                                                                                                                                                                                     jx, 
-                                                                                                                                                                                                                                     ch, 
-                                                                                                                                                                                                                                     lv, 
-                                                                                                                                                                                                                                     snap >>
                                                                                                                                                                                                           /\ UNCHANGED << st, 
                                                                                                                                                                                                                           obs, 
                                                                                                                                                                                                                           panicked >>
@@ -2557,31 +2433,184 @@ DDisp(self) == /\ pc[self] = "DDisp"
                                                                                                                                                                                                                                      lv, 
                                                                                                                                                                                                                                      snap >>
                                                                                                                                                                                                                 ELSE /\ IF m[self].t = "E"
-                                                                                                                                                                                                                           THEN /\ IF S(to[self]).itb # NoRef
-                                                                                                                                                                                                                                      THEN /\ /\ fr' = [fr EXCEPT ![self] = "S"]
-                                                                                                                                                                                                                                              /\ m' = [m EXCEPT ![self] = Msg("T")]
-                                                                                                                                                                                                                                              /\ stack' = [stack EXCEPT ![self] = << [ procedure |->  "Deliver",
-                                                                                                                                                                                                                                                                                       pc        |->  "FL7",
-                                                                                                                                                                                                                                                                                       lg        |->  lg[self],
-                                                                                                                                                                                                                                                                                       sx        |->  sx[self],
-                                                                                                                                                                                                                                                                                       jx        |->  jx[self],
-                                                                                                                                                                                                                                                                                       ch        |->  ch[self],
-                                                                                                                                                                                                                                                                                       lv        |->  lv[self],
-                                                                                                                                                                                                                                                                                       snap      |->  snap[self],
-                                                                                                                                                                                                                                                                                       fr        |->  fr[self],
-                                                                                                                                                                                                                                                                                       to        |->  to[self],
-                                                                                                                                                                                                                                                                                       m         |->  m[self] ] >>
-                                                                                                                                                                                                                                                                                   \o stack[self]]
-                                                                                                                                                                                                                                              /\ to' = [to EXCEPT ![self] = S(to[self]).itb]
-                                                                                                                                                                                                                                           /\ lg' = [lg EXCEPT ![self] = FALSE]
-                                                                                                                                                                                                                                           /\ sx' = [sx EXCEPT ![self] = 0]
-                                                                                                                                                                                                                                           /\ jx' = [jx EXCEPT ![self] = 0]
-                                                                                                                                                                                                                                           /\ ch' = [ch EXCEPT ![self] = ""]
-                                                                                                                                                                                                                                           /\ lv' = [lv EXCEPT ![self] = 0]
-                                                                                                                                                                                                                                           /\ snap' = [snap EXCEPT ![self] = <<>>]
-                                                                                                                                                                                                                                           /\ pc' = [pc EXCEPT ![self] = "DStart"]
-                                                                                                                                                                                                                                      ELSE /\ pc' = [pc EXCEPT ![self] = "FL7"]
-                                                                                                                                                                                                                                           /\ UNCHANGED << stack, 
+                                                                                                                                                                                                                           THEN /\ /\ fr' = [fr EXCEPT ![self] = "S"]
+                                                                                                                                                                                                                                   /\ m' = [m EXCEPT ![self] = m[self]]
+                                                                                                                                                                                                                                   /\ stack' = [stack EXCEPT ![self] = << [ procedure |->  "Deliver",
+                                                                                                                                                                                                                                                                            pc        |->  "CC4",
+                                                                                                                                                                                                                                                                            lg        |->  lg[self],
+                                                                                                                                                                                                                                                                            sx        |->  sx[self],
+                                                                                                                                                                                                                                                                            jx        |->  jx[self],
+                                                                                                                                                                                                                                                                            ch        |->  ch[self],
+                                                                                                                                                                                                                                                                            lv        |->  lv[self],
+                                                                                                                                                                                                                                                                            snap      |->  snap[self],
+                                                                                                                                                                                                                                                                            fr        |->  fr[self],
+                                                                                                                                                                                                                                                                            to        |->  to[self],
+                                                                                                                                                                                                                                                                            m         |->  m[self] ] >>
+                                                                                                                                                                                                                                                                        \o stack[self]]
+                                                                                                                                                                                                                                   /\ to' = [to EXCEPT ![self] = S(to[self]).sink]
+                                                                                                                                                                                                                                /\ lg' = [lg EXCEPT ![self] = FALSE]
+                                                                                                                                                                                                                                /\ sx' = [sx EXCEPT ![self] = 0]
+                                                                                                                                                                                                                                /\ jx' = [jx EXCEPT ![self] = 0]
+                                                                                                                                                                                                                                /\ ch' = [ch EXCEPT ![self] = ""]
+                                                                                                                                                                                                                                /\ lv' = [lv EXCEPT ![self] = 0]
+                                                                                                                                                                                                                                /\ snap' = [snap EXCEPT ![self] = <<>>]
+                                                                                                                                                                                                                                /\ pc' = [pc EXCEPT ![self] = "DStart"]
+                                                                                                                                                                                                                                /\ st' = st
+                                                                                                                                                                                                                           ELSE /\ st' = [st EXCEPT ![to[self].n][to[self].s].i = S(to[self]).i + 1]
+                                                                                                                                                                                                                                /\ sx' = [sx EXCEPT ![self] = to[self].s]
+                                                                                                                                                                                                                                /\ pc' = [pc EXCEPT ![self] = "CCNext"]
+                                                                                                                                                                                                                                /\ UNCHANGED << stack, 
+                                                                                                                                                                                                                                                fr, 
+                                                                                                                                                                                                                                                to, 
+                                                                                                                                                                                                                                                m, 
+                                                                                                                                                                                                                                                lg, 
+                                                                                                                                                                                                                                                jx, 
+                                                                                                                                                                                                                                                ch, 
+                                                                                                                                                                                                                                                lv, 
+                                                                                                                                                                                                                                                snap >>
+                                                                                                                                                                                                                     /\ UNCHANGED << obs, 
+                                                                                                                                                                                                                                     panicked >>
+                                                                                                                                                                               ELSE /\ IF m[self].t \in {"H", "D"}
+                                                                                                                                                                                          THEN /\ obs' = LogO(obs \o [q \in 1..OpenCount(obs, 1, 0) |-> RetEv(ThOf(self))],
+                                                                                                                                                                                                              Ev("panic", ThOf(self), "", "", "", 0))
+                                                                                                                                                                                               /\ panicked' = TRUE
+                                                                                                                                                                                               /\ pc' = [pc EXCEPT ![self] = "Halt"]
+                                                                                                                                                                                               /\ st' = st
+                                                                                                                                                                                          ELSE /\ IF m[self].t = "P"
+                                                                                                                                                                                                     THEN /\ st' = [st EXCEPT ![to[self].n][to[self].s].gotpull = TRUE]
+                                                                                                                                                                                                     ELSE /\ TRUE
+                                                                                                                                                                                                          /\ st' = st
+                                                                                                                                                                                               /\ pc' = [pc EXCEPT ![self] = "CC5"]
+                                                                                                                                                                                               /\ UNCHANGED << obs, 
+                                                                                                                                                                                                               panicked >>
+                                                                                                                                                                                    /\ UNCHANGED << stack, 
+                                                                                                                                                                                                    fr, 
+                                                                                                                                                                                                    to, 
+                                                                                                                                                                                                    m, 
+                                                                                                                                                                                                    lg, 
+                                                                                                                                                                                                    sx, 
+                                                                                                                                                                                                    jx, 
+                                                                                                                                                                                                    ch, 
+                                                                                                                                                                                                    lv, 
+                                                                                                                                                                                                    snap >>
+                                                                                                                                                              /\ UNCHANGED << nd, 
+                                                                                                                                                                              tasks, 
+                                                                                                                                                                              script >>
+                                                                                                                                                         ELSE /\ IF Kind(to[self].n) = "combine"
+                                                                                                                                                                    THEN /\ IF to[self].r = "src"
+                                                                                                                                                                               THEN /\ IF m[self].t = "H"
+                                                                                                                                                                                          THEN /\ sx' = [sx EXCEPT ![self] = Len(st[to[self].n]) + 1]
+                                                                                                                                                                                               /\ st' = [st EXCEPT ![to[self].n] = Append(st[to[self].n], InitSt(to[self].n, m[self].tb))]
+                                                                                                                                                                                               /\ jx' = [jx EXCEPT ![self] = 1]
+                                                                                                                                                                                               /\ pc' = [pc EXCEPT ![self] = "CB1"]
+                                                                                                                                                                                          ELSE /\ pc' = [pc EXCEPT ![self] = "Ret"]
+                                                                                                                                                                                               /\ UNCHANGED << st, 
+                                                                                                                                                                                                               sx, 
+                                                                                                                                                                                                               jx >>
+                                                                                                                                                                                    /\ UNCHANGED << obs, 
+                                                                                                                                                                                                    panicked >>
+                                                                                                                                                                               ELSE /\ IF to[self].r = "up"
+                                                                                                                                                                                          THEN /\ IF m[self].t = "H"
+                                                                                                                                                                                                     THEN /\ pc' = [pc EXCEPT ![self] = "cb_tb_st"]
+                                                                                                                                                                                                          /\ UNCHANGED << obs, 
+                                                                                                                                                                                                                          panicked >>
+                                                                                                                                                                                                     ELSE /\ IF m[self].t = "D"
+                                                                                                                                                                                                                THEN /\ pc' = [pc EXCEPT ![self] = "cb_vals_ld"]
+                                                                                                                                                                                                                     /\ UNCHANGED << obs, 
+                                                                                                                                                                                                                                     panicked >>
+                                                                                                                                                                                                                ELSE /\ IF m[self].t = "P"
+                                                                                                                                                                                                                           THEN /\ obs' = LogO(obs \o [q \in 1..OpenCount(obs, 1, 0) |-> RetEv(ThOf(self))],
+                                                                                                                                                                                                                                               Ev("panic", ThOf(self), "", "", "", 0))
+                                                                                                                                                                                                                                /\ panicked' = TRUE
+                                                                                                                                                                                                                                /\ pc' = [pc EXCEPT ![self] = "Halt"]
+                                                                                                                                                                                                                           ELSE /\ pc' = [pc EXCEPT ![self] = "cb_end_fs"]
+                                                                                                                                                                                                                                /\ UNCHANGED << obs, 
+                                                                                                                                                                                                                                                panicked >>
+                                                                                                                                                                                               /\ jx' = jx
+                                                                                                                                                                                          ELSE /\ IF m[self].t \in {"H", "D"}
+                                                                                                                                                                                                     THEN /\ obs' = LogO(obs \o [q \in 1..OpenCount(obs, 1, 0) |-> RetEv(ThOf(self))],
+                                                                                                                                                                                                                         Ev("panic", ThOf(self), "", "", "", 0))
+                                                                                                                                                                                                          /\ panicked' = TRUE
+                                                                                                                                                                                                          /\ pc' = [pc EXCEPT ![self] = "Halt"]
+                                                                                                                                                                                                          /\ jx' = jx
+                                                                                                                                                                                                     ELSE /\ jx' = [jx EXCEPT ![self] = 1]
+                                                                                                                                                                                                          /\ pc' = [pc EXCEPT ![self] = "CB6"]
+                                                                                                                                                                                                          /\ UNCHANGED << obs, 
+                                                                                                                                                                                                                          panicked >>
+                                                                                                                                                                                    /\ UNCHANGED << st, 
+                                                                                                                                                                                                    sx >>
+                                                                                                                                                                         /\ UNCHANGED << nd, 
+                                                                                                                                                                                         tasks, 
+                                                                                                                                                                                         script, 
+                                                                                                                                                                                         stack, 
+                                                                                                                                                                                         fr, 
+                                                                                                                                                                                         to, 
+                                                                                                                                                                                         m, 
+                                                                                                                                                                                         lg, 
+                                                                                                                                                                                         ch, 
+                                                                                                                                                                                         lv, 
+                                                                                                                                                                                         snap >>
+                                                                                                                                                                    ELSE /\ IF Kind(to[self].n) \in {"flatten", "flatmap"}
+                                                                                                                                                                               THEN /\ IF to[self].r = "src"
+                                                                                                                                                                                          THEN /\ IF m[self].t = "H"
+                                                                                                                                                                                                     THEN /\ sx' = [sx EXCEPT ![self] = Len(st[to[self].n]) + 1]
+                                                                                                                                                                                                          /\ st' = [st EXCEPT ![to[self].n] = Append(st[to[self].n], InitSt(to[self].n, m[self].tb))]
+                                                                                                                                                                                                          /\ pc' = [pc EXCEPT ![self] = "FL1"]
+                                                                                                                                                                                                     ELSE /\ pc' = [pc EXCEPT ![self] = "Ret"]
+                                                                                                                                                                                                          /\ UNCHANGED << st, 
+                                                                                                                                                                                                                          sx >>
+                                                                                                                                                                                               /\ UNCHANGED << obs, 
+                                                                                                                                                                                                               panicked, 
+                                                                                                                                                                                                               stack, 
+                                                                                                                                                                                                               fr, 
+                                                                                                                                                                                                               to, 
+                                                                                                                                                                                                               m, 
+                                                                                                                                                                                                               lg, 
+                                                                                                                                                                                                               jx, 
+                                                                                                                                                                                                               ch, 
+                                                                                                                                                                                                               lv, 
+                                                                                                                                                                                                               snap >>
+                                                                                                                                                                                          ELSE /\ IF to[self].r = "up"
+                                                                                                                                                                                                     THEN /\ IF m[self].t = "H"
+                                                                                                                                                                                                                THEN /\ st' = [st EXCEPT ![to[self].n][to[self].s].otb = m[self].tb]
+                                                                                                                                                                                                                     /\ pc' = [pc EXCEPT ![self] = "FL3"]
+                                                                                                                                                                                                                     /\ UNCHANGED << obs, 
+                                                                                                                                                                                                                                     panicked, 
+                                                                                                                                                                                                                                     stack, 
+                                                                                                                                                                                                                                     fr, 
+                                                                                                                                                                                                                                     to, 
+                                                                                                                                                                                                                                     m, 
+                                                                                                                                                                                                                                     lg, 
+                                                                                                                                                                                                                                     sx, 
+                                                                                                                                                                                                                                     jx, 
+                                                                                                                                                                                                                                     ch, 
+                                                                                                                                                                                                                                     lv, 
+                                                                                                                                                                                                                                     snap >>
+                                                                                                                                                                                                                ELSE /\ IF m[self].t = "D"
+                                                                                                                                                                                                                           THEN /\ IF Kind(to[self].n) = "flatmap"
+                                                                                                                                                                                                                                      THEN /\ obs' = LogO(obs, Ev("fn", ThOf(self), "", FnName(to[self].n), "", m[self].v))
+                                                                                                                                                                                                                                      ELSE /\ TRUE
+                                                                                                                                                                                                                                           /\ obs' = obs
+                                                                                                                                                                                                                                /\ pc' = [pc EXCEPT ![self] = "FL5a"]
+                                                                                                                                                                                                                                /\ UNCHANGED << st, 
+                                                                                                                                                                                                                                                panicked, 
+                                                                                                                                                                                                                                                stack, 
+                                                                                                                                                                                                                                                fr, 
+                                                                                                                                                                                                                                                to, 
+                                                                                                                                                                                                                                                m, 
+                                                                                                                                                                                                                                                lg, 
+                                                                                                                                                                                                                                                sx, 
+                                                                                                                                                                                                                                                jx, 
+                                                                                                                                                                                                                                                ch, 
+                                                                                                                                                                                                                                                lv, 
+                                                                                                                                                                                                                                                snap >>
+                                                                                                                                                                                                                           ELSE /\ IF m[self].t = "P"
+                                                                                                                                                                                                                                      THEN /\ obs' = LogO(obs \o [q \in 1..OpenCount(obs, 1, 0) |-> RetEv(ThOf(self))],
+                                                                                                                                                                                                                                                          Ev("panic", ThOf(self), "", "", "", 0))
+                                                                                                                                                                                                                                           /\ panicked' = TRUE
+                                                                                                                                                                                                                                           /\ pc' = [pc EXCEPT ![self] = "Halt"]
+                                                                                                                                                                                                                                           /\ UNCHANGED << st, 
+                                                                                                                                                                                                                                                           stack, 
                                                                                                                                                                                                                                                            fr, 
                                                                                                                                                                                                                                                            to, 
                                                                                                                                                                                                                                                            m, 
@@ -2591,12 +2620,101 @@ DDisp(self) == /\ pc[self] = "DDisp"
                                                                                                                                                                                                                                                            ch, 
                                                                                                                                                                                                                                                            lv, 
                                                                                                                                                                                                                                                            snap >>
-                                                                                                                                                                                                                                /\ st' = st
-                                                                                                                                                                                                                           ELSE /\ IF S(to[self]).itb = NoRef
+                                                                                                                                                                                                                                      ELSE /\ IF m[self].t = "E"
+                                                                                                                                                                                                                                                 THEN /\ IF S(to[self]).itb # NoRef
+                                                                                                                                                                                                                                                            THEN /\ /\ fr' = [fr EXCEPT ![self] = "S"]
+                                                                                                                                                                                                                                                                    /\ m' = [m EXCEPT ![self] = Msg("T")]
+                                                                                                                                                                                                                                                                    /\ stack' = [stack EXCEPT ![self] = << [ procedure |->  "Deliver",
+                                                                                                                                                                                                                                                                                                             pc        |->  "FL7",
+                                                                                                                                                                                                                                                                                                             lg        |->  lg[self],
+                                                                                                                                                                                                                                                                                                             sx        |->  sx[self],
+                                                                                                                                                                                                                                                                                                             jx        |->  jx[self],
+                                                                                                                                                                                                                                                                                                             ch        |->  ch[self],
+                                                                                                                                                                                                                                                                                                             lv        |->  lv[self],
+                                                                                                                                                                                                                                                                                                             snap      |->  snap[self],
+                                                                                                                                                                                                                                                                                                             fr        |->  fr[self],
+                                                                                                                                                                                                                                                                                                             to        |->  to[self],
+                                                                                                                                                                                                                                                                                                             m         |->  m[self] ] >>
+                                                                                                                                                                                                                                                                                                         \o stack[self]]
+                                                                                                                                                                                                                                                                    /\ to' = [to EXCEPT ![self] = S(to[self]).itb]
+                                                                                                                                                                                                                                                                 /\ lg' = [lg EXCEPT ![self] = FALSE]
+                                                                                                                                                                                                                                                                 /\ sx' = [sx EXCEPT ![self] = 0]
+                                                                                                                                                                                                                                                                 /\ jx' = [jx EXCEPT ![self] = 0]
+                                                                                                                                                                                                                                                                 /\ ch' = [ch EXCEPT ![self] = ""]
+                                                                                                                                                                                                                                                                 /\ lv' = [lv EXCEPT ![self] = 0]
+                                                                                                                                                                                                                                                                 /\ snap' = [snap EXCEPT ![self] = <<>>]
+                                                                                                                                                                                                                                                                 /\ pc' = [pc EXCEPT ![self] = "DStart"]
+                                                                                                                                                                                                                                                            ELSE /\ pc' = [pc EXCEPT ![self] = "FL7"]
+                                                                                                                                                                                                                                                                 /\ UNCHANGED << stack, 
+                                                                                                                                                                                                                                                                                 fr, 
+                                                                                                                                                                                                                                                                                 to, 
+                                                                                                                                                                                                                                                                                 m, 
+                                                                                                                                                                                                                                                                                 lg, 
+                                                                                                                                                                                                                                                                                 sx, 
+                                                                                                                                                                                                                                                                                 jx, 
+                                                                                                                                                                                                                                                                                 ch, 
+                                                                                                                                                                                                                                                                                 lv, 
+                                                                                                                                                                                                                                                                                 snap >>
+                                                                                                                                                                                                                                                      /\ st' = st
+                                                                                                                                                                                                                                                 ELSE /\ IF S(to[self]).itb = NoRef
+                                                                                                                                                                                                                                                            THEN /\ /\ fr' = [fr EXCEPT ![self] = "S"]
+                                                                                                                                                                                                                                                                    /\ m' = [m EXCEPT ![self] = Msg("T")]
+                                                                                                                                                                                                                                                                    /\ stack' = [stack EXCEPT ![self] = << [ procedure |->  "Deliver",
+                                                                                                                                                                                                                                                                                                             pc        |->  "FL9",
+                                                                                                                                                                                                                                                                                                             lg        |->  lg[self],
+                                                                                                                                                                                                                                                                                                             sx        |->  sx[self],
+                                                                                                                                                                                                                                                                                                             jx        |->  jx[self],
+                                                                                                                                                                                                                                                                                                             ch        |->  ch[self],
+                                                                                                                                                                                                                                                                                                             lv        |->  lv[self],
+                                                                                                                                                                                                                                                                                                             snap      |->  snap[self],
+                                                                                                                                                                                                                                                                                                             fr        |->  fr[self],
+                                                                                                                                                                                                                                                                                                             to        |->  to[self],
+                                                                                                                                                                                                                                                                                                             m         |->  m[self] ] >>
+                                                                                                                                                                                                                                                                                                         \o stack[self]]
+                                                                                                                                                                                                                                                                    /\ to' = [to EXCEPT ![self] = S(to[self]).sink]
+                                                                                                                                                                                                                                                                 /\ lg' = [lg EXCEPT ![self] = FALSE]
+                                                                                                                                                                                                                                                                 /\ sx' = [sx EXCEPT ![self] = 0]
+                                                                                                                                                                                                                                                                 /\ jx' = [jx EXCEPT ![self] = 0]
+                                                                                                                                                                                                                                                                 /\ ch' = [ch EXCEPT ![self] = ""]
+                                                                                                                                                                                                                                                                 /\ lv' = [lv EXCEPT ![self] = 0]
+                                                                                                                                                                                                                                                                 /\ snap' = [snap EXCEPT ![self] = <<>>]
+                                                                                                                                                                                                                                                                 /\ pc' = [pc EXCEPT ![self] = "DStart"]
+                                                                                                                                                                                                                                                                 /\ st' = st
+                                                                                                                                                                                                                                                            ELSE /\ st' = [st EXCEPT ![to[self].n][to[self].s].otb = NoRef]
+                                                                                                                                                                                                                                                                 /\ pc' = [pc EXCEPT ![self] = "FL9"]
+                                                                                                                                                                                                                                                                 /\ UNCHANGED << stack, 
+                                                                                                                                                                                                                                                                                 fr, 
+                                                                                                                                                                                                                                                                                 to, 
+                                                                                                                                                                                                                                                                                 m, 
+                                                                                                                                                                                                                                                                                 lg, 
+                                                                                                                                                                                                                                                                                 sx, 
+                                                                                                                                                                                                                                                                                 jx, 
+                                                                                                                                                                                                                                                                                 ch, 
+                                                                                                                                                                                                                                                                                 lv, 
+                                                                                                                                                                                                                                                                                 snap >>
+                                                                                                                                                                                                                                           /\ UNCHANGED << obs, 
+                                                                                                                                                                                                                                                           panicked >>
+                                                                                                                                                                                                     ELSE /\ IF to[self].r = "in"
+                                                                                                                                                                                                                THEN /\ IF m[self].t = "H"
+                                                                                                                                                                                                                           THEN /\ st' = [st EXCEPT ![to[self].n][to[self].s].itb = m[self].tb]
+                                                                                                                                                                                                                                /\ pc' = [pc EXCEPT ![self] = "FL10"]
+                                                                                                                                                                                                                                /\ UNCHANGED << obs, 
+                                                                                                                                                                                                                                                panicked, 
+                                                                                                                                                                                                                                                stack, 
+                                                                                                                                                                                                                                                fr, 
+                                                                                                                                                                                                                                                to, 
+                                                                                                                                                                                                                                                m, 
+                                                                                                                                                                                                                                                lg, 
+                                                                                                                                                                                                                                                sx, 
+                                                                                                                                                                                                                                                jx, 
+                                                                                                                                                                                                                                                ch, 
+                                                                                                                                                                                                                                                lv, 
+                                                                                                                                                                                                                                                snap >>
+                                                                                                                                                                                                                           ELSE /\ IF m[self].t = "D"
                                                                                                                                                                                                                                       THEN /\ /\ fr' = [fr EXCEPT ![self] = "S"]
-                                                                                                                                                                                                                                              /\ m' = [m EXCEPT ![self] = Msg("T")]
+                                                                                                                                                                                                                                              /\ m' = [m EXCEPT ![self] = m[self]]
                                                                                                                                                                                                                                               /\ stack' = [stack EXCEPT ![self] = << [ procedure |->  "Deliver",
-                                                                                                                                                                                                                                                                                       pc        |->  "FL9",
+                                                                                                                                                                                                                                                                                       pc        |->  "FL12",
                                                                                                                                                                                                                                                                                        lg        |->  lg[self],
                                                                                                                                                                                                                                                                                        sx        |->  sx[self],
                                                                                                                                                                                                                                                                                        jx        |->  jx[self],
@@ -2615,25 +2733,223 @@ DDisp(self) == /\ pc[self] = "DDisp"
                                                                                                                                                                                                                                            /\ lv' = [lv EXCEPT ![self] = 0]
                                                                                                                                                                                                                                            /\ snap' = [snap EXCEPT ![self] = <<>>]
                                                                                                                                                                                                                                            /\ pc' = [pc EXCEPT ![self] = "DStart"]
-                                                                                                                                                                                                                                           /\ st' = st
-                                                                                                                                                                                                                                      ELSE /\ st' = [st EXCEPT ![to[self].n][to[self].s].otb = NoRef]
-                                                                                                                                                                                                                                           /\ pc' = [pc EXCEPT ![self] = "FL9"]
-                                                                                                                                                                                                                                           /\ UNCHANGED << stack, 
-                                                                                                                                                                                                                                                           fr, 
-                                                                                                                                                                                                                                                           to, 
-                                                                                                                                                                                                                                                           m, 
-                                                                                                                                                                                                                                                           lg, 
-                                                                                                                                                                                                                                                           sx, 
-                                                                                                                                                                                                                                                           jx, 
-                                                                                                                                                                                                                                                           ch, 
-                                                                                                                                                                                                                                                           lv, 
-                                                                                                                                                                                                                                                           snap >>
-                                                                                                                                                                                                                     /\ UNCHANGED << obs, 
-                                                                                                                                                                                                                                     panicked >>
-                                                                                                                                                                               ELSE /\ IF to[self].r = "in"
-                                                                                                                                                                                          THEN /\ IF m[self].t = "H"
-                                                                                                                                                                                                     THEN /\ st' = [st EXCEPT ![to[self].n][to[self].s].itb = m[self].tb]
-                                                                                                                                                                                                          /\ pc' = [pc EXCEPT ![self] = "FL10"]
+                                                                                                                                                                                                                                           /\ UNCHANGED << st, 
+                                                                                                                                                                                                                                                           obs, 
+                                                                                                                                                                                                                                                           panicked >>
+                                                                                                                                                                                                                                      ELSE /\ IF m[self].t = "P"
+                                                                                                                                                                                                                                                 THEN /\ obs' = LogO(obs \o [q \in 1..OpenCount(obs, 1, 0) |-> RetEv(ThOf(self))],
+                                                                                                                                                                                                                                                                     Ev("panic", ThOf(self), "", "", "", 0))
+                                                                                                                                                                                                                                                      /\ panicked' = TRUE
+                                                                                                                                                                                                                                                      /\ pc' = [pc EXCEPT ![self] = "Halt"]
+                                                                                                                                                                                                                                                      /\ UNCHANGED << st, 
+                                                                                                                                                                                                                                                                      stack, 
+                                                                                                                                                                                                                                                                      fr, 
+                                                                                                                                                                                                                                                                      to, 
+                                                                                                                                                                                                                                                                      m, 
+                                                                                                                                                                                                                                                                      lg, 
+                                                                                                                                                                                                                                                                      sx, 
+                                                                                                                                                                                                                                                                      jx, 
+                                                                                                                                                                                                                                                                      ch, 
+                                                                                                                                                                                                                                                                      lv, 
+                                                                                                                                                                                                                                                                      snap >>
+                                                                                                                                                                                                                                                 ELSE /\ IF m[self].t = "E"
+                                                                                                                                                                                                                                                            THEN /\ IF S(to[self]).otb # NoRef
+                                                                                                                                                                                                                                                                       THEN /\ /\ fr' = [fr EXCEPT ![self] = "S"]
+                                                                                                                                                                                                                                                                               /\ m' = [m EXCEPT ![self] = Msg("T")]
+                                                                                                                                                                                                                                                                               /\ stack' = [stack EXCEPT ![self] = << [ procedure |->  "Deliver",
+                                                                                                                                                                                                                                                                                                                        pc        |->  "FL13",
+                                                                                                                                                                                                                                                                                                                        lg        |->  lg[self],
+                                                                                                                                                                                                                                                                                                                        sx        |->  sx[self],
+                                                                                                                                                                                                                                                                                                                        jx        |->  jx[self],
+                                                                                                                                                                                                                                                                                                                        ch        |->  ch[self],
+                                                                                                                                                                                                                                                                                                                        lv        |->  lv[self],
+                                                                                                                                                                                                                                                                                                                        snap      |->  snap[self],
+                                                                                                                                                                                                                                                                                                                        fr        |->  fr[self],
+                                                                                                                                                                                                                                                                                                                        to        |->  to[self],
+                                                                                                                                                                                                                                                                                                                        m         |->  m[self] ] >>
+                                                                                                                                                                                                                                                                                                                    \o stack[self]]
+                                                                                                                                                                                                                                                                               /\ to' = [to EXCEPT ![self] = S(to[self]).otb]
+                                                                                                                                                                                                                                                                            /\ lg' = [lg EXCEPT ![self] = FALSE]
+                                                                                                                                                                                                                                                                            /\ sx' = [sx EXCEPT ![self] = 0]
+                                                                                                                                                                                                                                                                            /\ jx' = [jx EXCEPT ![self] = 0]
+                                                                                                                                                                                                                                                                            /\ ch' = [ch EXCEPT ![self] = ""]
+                                                                                                                                                                                                                                                                            /\ lv' = [lv EXCEPT ![self] = 0]
+                                                                                                                                                                                                                                                                            /\ snap' = [snap EXCEPT ![self] = <<>>]
+                                                                                                                                                                                                                                                                            /\ pc' = [pc EXCEPT ![self] = "DStart"]
+                                                                                                                                                                                                                                                                       ELSE /\ pc' = [pc EXCEPT ![self] = "FL13"]
+                                                                                                                                                                                                                                                                            /\ UNCHANGED << stack, 
+                                                                                                                                                                                                                                                                                            fr, 
+                                                                                                                                                                                                                                                                                            to, 
+                                                                                                                                                                                                                                                                                            m, 
+                                                                                                                                                                                                                                                                                            lg, 
+                                                                                                                                                                                                                                                                                            sx, 
+                                                                                                                                                                                                                                                                                            jx, 
+                                                                                                                                                                                                                                                                                            ch, 
+                                                                                                                                                                                                                                                                                            lv, 
+                                                                                                                                                                                                                                                                                            snap >>
+                                                                                                                                                                                                                                                                 /\ st' = st
+                                                                                                                                                                                                                                                            ELSE /\ IF S(to[self]).otb = NoRef
+                                                                                                                                                                                                                                                                       THEN /\ /\ fr' = [fr EXCEPT ![self] = "S"]
+                                                                                                                                                                                                                                                                               /\ m' = [m EXCEPT ![self] = Msg("T")]
+                                                                                                                                                                                                                                                                               /\ stack' = [stack EXCEPT ![self] = << [ procedure |->  "Deliver",
+                                                                                                                                                                                                                                                                                                                        pc        |->  "FL16",
+                                                                                                                                                                                                                                                                                                                        lg        |->  lg[self],
+                                                                                                                                                                                                                                                                                                                        sx        |->  sx[self],
+                                                                                                                                                                                                                                                                                                                        jx        |->  jx[self],
+                                                                                                                                                                                                                                                                                                                        ch        |->  ch[self],
+                                                                                                                                                                                                                                                                                                                        lv        |->  lv[self],
+                                                                                                                                                                                                                                                                                                                        snap      |->  snap[self],
+                                                                                                                                                                                                                                                                                                                        fr        |->  fr[self],
+                                                                                                                                                                                                                                                                                                                        to        |->  to[self],
+                                                                                                                                                                                                                                                                                                                        m         |->  m[self] ] >>
+                                                                                                                                                                                                                                                                                                                    \o stack[self]]
+                                                                                                                                                                                                                                                                               /\ to' = [to EXCEPT ![self] = S(to[self]).sink]
+                                                                                                                                                                                                                                                                            /\ lg' = [lg EXCEPT ![self] = FALSE]
+                                                                                                                                                                                                                                                                            /\ sx' = [sx EXCEPT ![self] = 0]
+                                                                                                                                                                                                                                                                            /\ jx' = [jx EXCEPT ![self] = 0]
+                                                                                                                                                                                                                                                                            /\ ch' = [ch EXCEPT ![self] = ""]
+                                                                                                                                                                                                                                                                            /\ lv' = [lv EXCEPT ![self] = 0]
+                                                                                                                                                                                                                                                                            /\ snap' = [snap EXCEPT ![self] = <<>>]
+                                                                                                                                                                                                                                                                            /\ pc' = [pc EXCEPT ![self] = "DStart"]
+                                                                                                                                                                                                                                                                            /\ st' = st
+                                                                                                                                                                                                                                                                       ELSE /\ st' = [st EXCEPT ![to[self].n][to[self].s].itb = NoRef]
+                                                                                                                                                                                                                                                                            /\ pc' = [pc EXCEPT ![self] = "FL15"]
+                                                                                                                                                                                                                                                                            /\ UNCHANGED << stack, 
+                                                                                                                                                                                                                                                                                            fr, 
+                                                                                                                                                                                                                                                                                            to, 
+                                                                                                                                                                                                                                                                                            m, 
+                                                                                                                                                                                                                                                                                            lg, 
+                                                                                                                                                                                                                                                                                            sx, 
+                                                                                                                                                                                                                                                                                            jx, 
+                                                                                                                                                                                                                                                                                            ch, 
+                                                                                                                                                                                                                                                                                            lv, 
+                                                                                                                                                                                                                                                                                            snap >>
+                                                                                                                                                                                                                                                      /\ UNCHANGED << obs, 
+                                                                                                                                                                                                                                                                      panicked >>
+                                                                                                                                                                                                                ELSE /\ IF m[self].t \in {"H", "D"}
+                                                                                                                                                                                                                           THEN /\ obs' = LogO(obs \o [q \in 1..OpenCount(obs, 1, 0) |-> RetEv(ThOf(self))],
+                                                                                                                                                                                                                                               Ev("panic", ThOf(self), "", "", "", 0))
+                                                                                                                                                                                                                                /\ panicked' = TRUE
+                                                                                                                                                                                                                                /\ pc' = [pc EXCEPT ![self] = "Halt"]
+                                                                                                                                                                                                                                /\ UNCHANGED << stack, 
+                                                                                                                                                                                                                                                fr, 
+                                                                                                                                                                                                                                                to, 
+                                                                                                                                                                                                                                                m, 
+                                                                                                                                                                                                                                                lg, 
+                                                                                                                                                                                                                                                sx, 
+                                                                                                                                                                                                                                                jx, 
+                                                                                                                                                                                                                                                ch, 
+                                                                                                                                                                                                                                                lv, 
+                                                                                                                                                                                                                                                snap >>
+                                                                                                                                                                                                                           ELSE /\ IF m[self].t = "P"
+                                                                                                                                                                                                                                      THEN /\ IF S(to[self]).itb # NoRef
+                                                                                                                                                                                                                                                 THEN /\ /\ fr' = [fr EXCEPT ![self] = "S"]
+                                                                                                                                                                                                                                                         /\ m' = [m EXCEPT ![self] = m[self]]
+                                                                                                                                                                                                                                                         /\ stack' = [stack EXCEPT ![self] = << [ procedure |->  "Deliver",
+                                                                                                                                                                                                                                                                                                  pc        |->  "FL17",
+                                                                                                                                                                                                                                                                                                  lg        |->  lg[self],
+                                                                                                                                                                                                                                                                                                  sx        |->  sx[self],
+                                                                                                                                                                                                                                                                                                  jx        |->  jx[self],
+                                                                                                                                                                                                                                                                                                  ch        |->  ch[self],
+                                                                                                                                                                                                                                                                                                  lv        |->  lv[self],
+                                                                                                                                                                                                                                                                                                  snap      |->  snap[self],
+                                                                                                                                                                                                                                                                                                  fr        |->  fr[self],
+                                                                                                                                                                                                                                                                                                  to        |->  to[self],
+                                                                                                                                                                                                                                                                                                  m         |->  m[self] ] >>
+                                                                                                                                                                                                                                                                                              \o stack[self]]
+                                                                                                                                                                                                                                                         /\ to' = [to EXCEPT ![self] = S(to[self]).itb]
+                                                                                                                                                                                                                                                      /\ lg' = [lg EXCEPT ![self] = FALSE]
+                                                                                                                                                                                                                                                      /\ sx' = [sx EXCEPT ![self] = 0]
+                                                                                                                                                                                                                                                      /\ jx' = [jx EXCEPT ![self] = 0]
+                                                                                                                                                                                                                                                      /\ ch' = [ch EXCEPT ![self] = ""]
+                                                                                                                                                                                                                                                      /\ lv' = [lv EXCEPT ![self] = 0]
+                                                                                                                                                                                                                                                      /\ snap' = [snap EXCEPT ![self] = <<>>]
+                                                                                                                                                                                                                                                      /\ pc' = [pc EXCEPT ![self] = "DStart"]
+                                                                                                                                                                                                                                                 ELSE /\ IF S(to[self]).otb # NoRef
+                                                                                                                                                                                                                                                            THEN /\ /\ fr' = [fr EXCEPT ![self] = "S"]
+                                                                                                                                                                                                                                                                    /\ m' = [m EXCEPT ![self] = m[self]]
+                                                                                                                                                                                                                                                                    /\ stack' = [stack EXCEPT ![self] = << [ procedure |->  "Deliver",
+                                                                                                                                                                                                                                                                                                             pc        |->  "FL17",
+                                                                                                                                                                                                                                                                                                             lg        |->  lg[self],
+                                                                                                                                                                                                                                                                                                             sx        |->  sx[self],
+                                                                                                                                                                                                                                                                                                             jx        |->  jx[self],
+                                                                                                                                                                                                                                                                                                             ch        |->  ch[self],
+                                                                                                                                                                                                                                                                                                             lv        |->  lv[self],
+                                                                                                                                                                                                                                                                                                             snap      |->  snap[self],
+                                                                                                                                                                                                                                                                                                             fr        |->  fr[self],
+                                                                                                                                                                                                                                                                                                             to        |->  to[self],
+                                                                                                                                                                                                                                                                                                             m         |->  m[self] ] >>
+                                                                                                                                                                                                                                                                                                         \o stack[self]]
+                                                                                                                                                                                                                                                                    /\ to' = [to EXCEPT ![self] = S(to[self]).otb]
+                                                                                                                                                                                                                                                                 /\ lg' = [lg EXCEPT ![self] = FALSE]
+                                                                                                                                                                                                                                                                 /\ sx' = [sx EXCEPT ![self] = 0]
+                                                                                                                                                                                                                                                                 /\ jx' = [jx EXCEPT ![self] = 0]
+                                                                                                                                                                                                                                                                 /\ ch' = [ch EXCEPT ![self] = ""]
+                                                                                                                                                                                                                                                                 /\ lv' = [lv EXCEPT ![self] = 0]
+                                                                                                                                                                                                                                                                 /\ snap' = [snap EXCEPT ![self] = <<>>]
+                                                                                                                                                                                                                                                                 /\ pc' = [pc EXCEPT ![self] = "DStart"]
+                                                                                                                                                                                                                                                            ELSE /\ pc' = [pc EXCEPT ![self] = "FL17"]
+                                                                                                                                                                                                                                                                 /\ UNCHANGED << stack, 
+                                                                                                                                                                                                                                                                                 fr, 
+                                                                                                                                                                                                                                                                                 to, 
+                                                                                                                                                                                                                                                                                 m, 
+                                                                                                                                                                                                                                                                                 lg, 
+                                                                                                                                                                                                                                                                                 sx, 
+                                                                                                                                                                                                                                                                                 jx, 
+                                                                                                                                                                                                                                                                                 ch, 
+                                                                                                                                                                                                                                                                                 lv, 
+                                                                                                                                                                                                                                                                                 snap >>
+                                                                                                                                                                                                                                      ELSE /\ IF S(to[self]).itb # NoRef
+                                                                                                                                                                                                                                                 THEN /\ /\ fr' = [fr EXCEPT ![self] = "S"]
+                                                                                                                                                                                                                                                         /\ m' = [m EXCEPT ![self] = Msg("T")]
+                                                                                                                                                                                                                                                         /\ stack' = [stack EXCEPT ![self] = << [ procedure |->  "Deliver",
+                                                                                                                                                                                                                                                                                                  pc        |->  "FL18",
+                                                                                                                                                                                                                                                                                                  lg        |->  lg[self],
+                                                                                                                                                                                                                                                                                                  sx        |->  sx[self],
+                                                                                                                                                                                                                                                                                                  jx        |->  jx[self],
+                                                                                                                                                                                                                                                                                                  ch        |->  ch[self],
+                                                                                                                                                                                                                                                                                                  lv        |->  lv[self],
+                                                                                                                                                                                                                                                                                                  snap      |->  snap[self],
+                                                                                                                                                                                                                                                                                                  fr        |->  fr[self],
+                                                                                                                                                                                                                                                                                                  to        |->  to[self],
+                                                                                                                                                                                                                                                                                                  m         |->  m[self] ] >>
+                                                                                                                                                                                                                                                                                              \o stack[self]]
+                                                                                                                                                                                                                                                         /\ to' = [to EXCEPT ![self] = S(to[self]).itb]
+                                                                                                                                                                                                                                                      /\ lg' = [lg EXCEPT ![self] = FALSE]
+                                                                                                                                                                                                                                                      /\ sx' = [sx EXCEPT ![self] = 0]
+                                                                                                                                                                                                                                                      /\ jx' = [jx EXCEPT ![self] = 0]
+                                                                                                                                                                                                                                                      /\ ch' = [ch EXCEPT ![self] = ""]
+                                                                                                                                                                                                                                                      /\ lv' = [lv EXCEPT ![self] = 0]
+                                                                                                                                                                                                                                                      /\ snap' = [snap EXCEPT ![self] = <<>>]
+                                                                                                                                                                                                                                                      /\ pc' = [pc EXCEPT ![self] = "DStart"]
+                                                                                                                                                                                                                                                 ELSE /\ pc' = [pc EXCEPT ![self] = "FL18"]
+                                                                                                                                                                                                                                                      /\ UNCHANGED << stack, 
+                                                                                                                                                                                                                                                                      fr, 
+                                                                                                                                                                                                                                                                      to, 
+                                                                                                                                                                                                                                                                      m, 
+                                                                                                                                                                                                                                                                      lg, 
+                                                                                                                                                                                                                                                                      sx, 
+                                                                                                                                                                                                                                                                      jx, 
+                                                                                                                                                                                                                                                                      ch, 
+                                                                                                                                                                                                                                                                      lv, 
+                                                                                                                                                                                                                                                                      snap >>
+                                                                                                                                                                                                                                /\ UNCHANGED << obs, 
+                                                                                                                                                                                                                                                panicked >>
+                                                                                                                                                                                                                     /\ st' = st
+                                                                                                                                                                                    /\ UNCHANGED << nd, 
+                                                                                                                                                                                                    tasks, 
+                                                                                                                                                                                                    script >>
+                                                                                                                                                                               ELSE /\ IF Kind(to[self].n) = "share"
+                                                                                                                                                                                          THEN /\ IF to[self].r = "src"
+                                                                                                                                                                                                     THEN /\ IF m[self].t = "H"
+                                                                                                                                                                                                                THEN /\ sx' = [sx EXCEPT ![self] = Len(st[to[self].n]) + 1]
+                                                                                                                                                                                                                     /\ st' = [st EXCEPT ![to[self].n] = Append(st[to[self].n], InitSt(to[self].n, m[self].tb))]
+                                                                                                                                                                                                                     /\ nd' = [nd EXCEPT ![to[self].n].sinks = Append(nd[to[self].n].sinks, m[self].tb)]
+                                                                                                                                                                                                                     /\ pc' = [pc EXCEPT ![self] = "SH1"]
+                                                                                                                                                                                                                ELSE /\ pc' = [pc EXCEPT ![self] = "Ret"]
+                                                                                                                                                                                                                     /\ UNCHANGED << st, 
+                                                                                                                                                                                                                                     nd, 
+                                                                                                                                                                                                                                     sx >>
                                                                                                                                                                                                           /\ UNCHANGED << obs, 
                                                                                                                                                                                                                           panicked, 
                                                                                                                                                                                                                           stack, 
@@ -2641,43 +2957,36 @@ DDisp(self) == /\ pc[self] = "DDisp"
                                                                                                                                                                                                                           to, 
                                                                                                                                                                                                                           m, 
                                                                                                                                                                                                                           lg, 
-                                                                                                                                                                                                                          sx, 
                                                                                                                                                                                                                           jx, 
                                                                                                                                                                                                                           ch, 
                                                                                                                                                                                                                           lv, 
                                                                                                                                                                                                                           snap >>
-                                                                                                                                                                                                     ELSE /\ IF m[self].t = "D"
-                                                                                                                                                                                                                THEN /\ /\ fr' = [fr EXCEPT ![self] = "S"]
-                                                                                                                                                                                                                        /\ m' = [m EXCEPT ![self] = m[self]]
-                                                                                                                                                                                                                        /\ stack' = [stack EXCEPT ![self] = << [ procedure |->  "Deliver",
-                                                                                                                                                                                                                                                                 pc        |->  "FL12",
-                                                                                                                                                                                                                                                                 lg        |->  lg[self],
-                                                                                                                                                                                                                                                                 sx        |->  sx[self],
-                                                                                                                                                                                                                                                                 jx        |->  jx[self],
-                                                                                                                                                                                                                                                                 ch        |->  ch[self],
-                                                                                                                                                                                                                                                                 lv        |->  lv[self],
-                                                                                                                                                                                                                                                                 snap      |->  snap[self],
-                                                                                                                                                                                                                                                                 fr        |->  fr[self],
-                                                                                                                                                                                                                                                                 to        |->  to[self],
-                                                                                                                                                                                                                                                                 m         |->  m[self] ] >>
-                                                                                                                                                                                                                                                             \o stack[self]]
-                                                                                                                                                                                                                        /\ to' = [to EXCEPT ![self] = S(to[self]).sink]
-                                                                                                                                                                                                                     /\ lg' = [lg EXCEPT ![self] = FALSE]
-                                                                                                                                                                                                                     /\ sx' = [sx EXCEPT ![self] = 0]
-                                                                                                                                                                                                                     /\ jx' = [jx EXCEPT ![self] = 0]
-                                                                                                                                                                                                                     /\ ch' = [ch EXCEPT ![self] = ""]
-                                                                                                                                                                                                                     /\ lv' = [lv EXCEPT ![self] = 0]
-                                                                                                                                                                                                                     /\ snap' = [snap EXCEPT ![self] = <<>>]
-                                                                                                                                                                                                                     /\ pc' = [pc EXCEPT ![self] = "DStart"]
-                                                                                                                                                                                                                     /\ UNCHANGED << st, 
-                                                                                                                                                                                                                                     obs, 
-                                                                                                                                                                                                                                     panicked >>
-                                                                                                                                                                                                                ELSE /\ IF m[self].t = "P"
+                                                                                                                                                                                                     ELSE /\ IF to[self].r = "up"
+                                                                                                                                                                                                                THEN /\ IF m[self].t = "H"
+                                                                                                                                                                                                                           THEN /\ nd' = [nd EXCEPT ![to[self].n].utb = m[self].tb]
+                                                                                                                                                                                                                                /\ pc' = [pc EXCEPT ![self] = "SH3"]
+                                                                                                                                                                                                                                /\ UNCHANGED << jx, 
+                                                                                                                                                                                                                                                snap >>
+                                                                                                                                                                                                                           ELSE /\ snap' = [snap EXCEPT ![self] = nd[to[self].n].sinks]
+                                                                                                                                                                                                                                /\ jx' = [jx EXCEPT ![self] = 1]
+                                                                                                                                                                                                                                /\ pc' = [pc EXCEPT ![self] = "SH5"]
+                                                                                                                                                                                                                                /\ nd' = nd
+                                                                                                                                                                                                                     /\ UNCHANGED << obs, 
+                                                                                                                                                                                                                                     panicked, 
+                                                                                                                                                                                                                                     stack, 
+                                                                                                                                                                                                                                     fr, 
+                                                                                                                                                                                                                                     to, 
+                                                                                                                                                                                                                                     m, 
+                                                                                                                                                                                                                                     lg, 
+                                                                                                                                                                                                                                     sx, 
+                                                                                                                                                                                                                                     ch, 
+                                                                                                                                                                                                                                     lv >>
+                                                                                                                                                                                                                ELSE /\ IF m[self].t \in {"H", "D"}
                                                                                                                                                                                                                            THEN /\ obs' = LogO(obs \o [q \in 1..OpenCount(obs, 1, 0) |-> RetEv(ThOf(self))],
                                                                                                                                                                                                                                                Ev("panic", ThOf(self), "", "", "", 0))
                                                                                                                                                                                                                                 /\ panicked' = TRUE
                                                                                                                                                                                                                                 /\ pc' = [pc EXCEPT ![self] = "Halt"]
-                                                                                                                                                                                                                                /\ UNCHANGED << st, 
+                                                                                                                                                                                                                                /\ UNCHANGED << nd, 
                                                                                                                                                                                                                                                 stack, 
                                                                                                                                                                                                                                                 fr, 
                                                                                                                                                                                                                                                 to, 
@@ -2688,31 +2997,12 @@ DDisp(self) == /\ pc[self] = "DDisp"
                                                                                                                                                                                                                                                 ch, 
                                                                                                                                                                                                                                                 lv, 
                                                                                                                                                                                                                                                 snap >>
-                                                                                                                                                                                                                           ELSE /\ IF m[self].t = "E"
-                                                                                                                                                                                                                                      THEN /\ IF S(to[self]).otb # NoRef
-                                                                                                                                                                                                                                                 THEN /\ /\ fr' = [fr EXCEPT ![self] = "S"]
-                                                                                                                                                                                                                                                         /\ m' = [m EXCEPT ![self] = Msg("T")]
-                                                                                                                                                                                                                                                         /\ stack' = [stack EXCEPT ![self] = << [ procedure |->  "Deliver",
-                                                                                                                                                                                                                                                                                                  pc        |->  "FL13",
-                                                                                                                                                                                                                                                                                                  lg        |->  lg[self],
-                                                                                                                                                                                                                                                                                                  sx        |->  sx[self],
-                                                                                                                                                                                                                                                                                                  jx        |->  jx[self],
-                                                                                                                                                                                                                                                                                                  ch        |->  ch[self],
-                                                                                                                                                                                                                                                                                                  lv        |->  lv[self],
-                                                                                                                                                                                                                                                                                                  snap      |->  snap[self],
-                                                                                                                                                                                                                                                                                                  fr        |->  fr[self],
-                                                                                                                                                                                                                                                                                                  to        |->  to[self],
-                                                                                                                                                                                                                                                                                                  m         |->  m[self] ] >>
-                                                                                                                                                                                                                                                                                              \o stack[self]]
-                                                                                                                                                                                                                                                         /\ to' = [to EXCEPT ![self] = S(to[self]).otb]
-                                                                                                                                                                                                                                                      /\ lg' = [lg EXCEPT ![self] = FALSE]
-                                                                                                                                                                                                                                                      /\ sx' = [sx EXCEPT ![self] = 0]
-                                                                                                                                                                                                                                                      /\ jx' = [jx EXCEPT ![self] = 0]
-                                                                                                                                                                                                                                                      /\ ch' = [ch EXCEPT ![self] = ""]
-                                                                                                                                                                                                                                                      /\ lv' = [lv EXCEPT ![self] = 0]
-                                                                                                                                                                                                                                                      /\ snap' = [snap EXCEPT ![self] = <<>>]
-                                                                                                                                                                                                                                                      /\ pc' = [pc EXCEPT ![self] = "DStart"]
-                                                                                                                                                                                                                                                 ELSE /\ pc' = [pc EXCEPT ![self] = "FL13"]
+                                                                                                                                                                                                                           ELSE /\ IF m[self].t = "P"
+                                                                                                                                                                                                                                      THEN /\ IF nd[to[self].n].utb = NoRef
+                                                                                                                                                                                                                                                 THEN /\ obs' = LogO(obs \o [q \in 1..OpenCount(obs, 1, 0) |-> RetEv(ThOf(self))],
+                                                                                                                                                                                                                                                                     Ev("panic", ThOf(self), "", "", "", 0))
+                                                                                                                                                                                                                                                      /\ panicked' = TRUE
+                                                                                                                                                                                                                                                      /\ pc' = [pc EXCEPT ![self] = "Halt"]
                                                                                                                                                                                                                                                       /\ UNCHANGED << stack, 
                                                                                                                                                                                                                                                                       fr, 
                                                                                                                                                                                                                                                                       to, 
@@ -2723,12 +3013,10 @@ DDisp(self) == /\ pc[self] = "DDisp"
                                                                                                                                                                                                                                                                       ch, 
                                                                                                                                                                                                                                                                       lv, 
                                                                                                                                                                                                                                                                       snap >>
-                                                                                                                                                                                                                                           /\ st' = st
-                                                                                                                                                                                                                                      ELSE /\ IF S(to[self]).otb = NoRef
-                                                                                                                                                                                                                                                 THEN /\ /\ fr' = [fr EXCEPT ![self] = "S"]
-                                                                                                                                                                                                                                                         /\ m' = [m EXCEPT ![self] = Msg("T")]
+                                                                                                                                                                                                                                                 ELSE /\ /\ fr' = [fr EXCEPT ![self] = "S"]
+                                                                                                                                                                                                                                                         /\ m' = [m EXCEPT ![self] = m[self]]
                                                                                                                                                                                                                                                          /\ stack' = [stack EXCEPT ![self] = << [ procedure |->  "Deliver",
-                                                                                                                                                                                                                                                                                                  pc        |->  "FL16",
+                                                                                                                                                                                                                                                                                                  pc        |->  "SH8",
                                                                                                                                                                                                                                                                                                   lg        |->  lg[self],
                                                                                                                                                                                                                                                                                                   sx        |->  sx[self],
                                                                                                                                                                                                                                                                                                   jx        |->  jx[self],
@@ -2739,7 +3027,7 @@ DDisp(self) == /\ pc[self] = "DDisp"
                                                                                                                                                                                                                                                                                                   to        |->  to[self],
                                                                                                                                                                                                                                                                                                   m         |->  m[self] ] >>
                                                                                                                                                                                                                                                                                               \o stack[self]]
-                                                                                                                                                                                                                                                         /\ to' = [to EXCEPT ![self] = S(to[self]).sink]
+                                                                                                                                                                                                                                                         /\ to' = [to EXCEPT ![self] = nd[to[self].n].utb]
                                                                                                                                                                                                                                                       /\ lg' = [lg EXCEPT ![self] = FALSE]
                                                                                                                                                                                                                                                       /\ sx' = [sx EXCEPT ![self] = 0]
                                                                                                                                                                                                                                                       /\ jx' = [jx EXCEPT ![self] = 0]
@@ -2747,85 +3035,17 @@ DDisp(self) == /\ pc[self] = "DDisp"
                                                                                                                                                                                                                                                       /\ lv' = [lv EXCEPT ![self] = 0]
                                                                                                                                                                                                                                                       /\ snap' = [snap EXCEPT ![self] = <<>>]
                                                                                                                                                                                                                                                       /\ pc' = [pc EXCEPT ![self] = "DStart"]
-                                                                                                                                                                                                                                                      /\ st' = st
-                                                                                                                                                                                                                                                 ELSE /\ st' = [st EXCEPT ![to[self].n][to[self].s].itb = NoRef]
-                                                                                                                                                                                                                                                      /\ pc' = [pc EXCEPT ![self] = "FL15"]
-                                                                                                                                                                                                                                                      /\ UNCHANGED << stack, 
-                                                                                                                                                                                                                                                                      fr, 
-                                                                                                                                                                                                                                                                      to, 
-                                                                                                                                                                                                                                                                      m, 
-                                                                                                                                                                                                                                                                      lg, 
-                                                                                                                                                                                                                                                                      sx, 
-                                                                                                                                                                                                                                                                      jx, 
-                                                                                                                                                                                                                                                                      ch, 
-                                                                                                                                                                                                                                                                      lv, 
-                                                                                                                                                                                                                                                                      snap >>
-                                                                                                                                                                                                                                /\ UNCHANGED << obs, 
-                                                                                                                                                                                                                                                panicked >>
-                                                                                                                                                                                          ELSE /\ IF m[self].t \in {"H", "D"}
-                                                                                                                                                                                                     THEN /\ obs' = LogO(obs \o [q \in 1..OpenCount(obs, 1, 0) |-> RetEv(ThOf(self))],
-                                                                                                                                                                                                                         Ev("panic", ThOf(self), "", "", "", 0))
-                                                                                                                                                                                                          /\ panicked' = TRUE
-                                                                                                                                                                                                          /\ pc' = [pc EXCEPT ![self] = "Halt"]
-                                                                                                                                                                                                          /\ UNCHANGED << stack, 
-                                                                                                                                                                                                                          fr, 
-                                                                                                                                                                                                                          to, 
-                                                                                                                                                                                                                          m, 
-                                                                                                                                                                                                                          lg, 
-                                                                                                                                                                                                                          sx, 
-                                                                                                                                                                                                                          jx, 
-                                                                                                                                                                                                                          ch, 
-                                                                                                                                                                                                                          lv, 
-                                                                                                                                                                                                                          snap >>
-                                                                                                                                                                                                     ELSE /\ IF m[self].t = "P"
-                                                                                                                                                                                                                THEN /\ IF S(to[self]).itb # NoRef
-                                                                                                                                                                                                                           THEN /\ /\ fr' = [fr EXCEPT ![self] = "S"]
-                                                                                                                                                                                                                                   /\ m' = [m EXCEPT ![self] = m[self]]
-                                                                                                                                                                                                                                   /\ stack' = [stack EXCEPT ![self] = << [ procedure |->  "Deliver",
-                                                                                                                                                                                                                                                                            pc        |->  "FL17",
-                                                                                                                                                                                                                                                                            lg        |->  lg[self],
-                                                                                                                                                                                                                                                                            sx        |->  sx[self],
-                                                                                                                                                                                                                                                                            jx        |->  jx[self],
-                                                                                                                                                                                                                                                                            ch        |->  ch[self],
-                                                                                                                                                                                                                                                                            lv        |->  lv[self],
-                                                                                                                                                                                                                                                                            snap      |->  snap[self],
-                                                                                                                                                                                                                                                                            fr        |->  fr[self],
-                                                                                                                                                                                                                                                                            to        |->  to[self],
-                                                                                                                                                                                                                                                                            m         |->  m[self] ] >>
-                                                                                                                                                                                                                                                                        \o stack[self]]
-                                                                                                                                                                                                                                   /\ to' = [to EXCEPT ![self] = S(to[self]).itb]
-                                                                                                                                                                                                                                /\ lg' = [lg EXCEPT ![self] = FALSE]
-                                                                                                                                                                                                                                /\ sx' = [sx EXCEPT ![self] = 0]
-                                                                                                                                                                                                                                /\ jx' = [jx EXCEPT ![self] = 0]
-                                                                                                                                                                                                                                /\ ch' = [ch EXCEPT ![self] = ""]
-                                                                                                                                                                                                                                /\ lv' = [lv EXCEPT ![self] = 0]
-                                                                                                                                                                                                                                /\ snap' = [snap EXCEPT ![self] = <<>>]
-                                                                                                                                                                                                                                /\ pc' = [pc EXCEPT ![self] = "DStart"]
-                                                                                                                                                                                                                           ELSE /\ IF S(to[self]).otb # NoRef
-                                                                                                                                                                                                                                      THEN /\ /\ fr' = [fr EXCEPT ![self] = "S"]
-                                                                                                                                                                                                                                              /\ m' = [m EXCEPT ![self] = m[self]]
-                                                                                                                                                                                                                                              /\ stack' = [stack EXCEPT ![self] = << [ procedure |->  "Deliver",
-                                                                                                                                                                                                                                                                                       pc        |->  "FL17",
-                                                                                                                                                                                                                                                                                       lg        |->  lg[self],
-                                                                                                                                                                                                                                                                                       sx        |->  sx[self],
-                                                                                                                                                                                                                                                                                       jx        |->  jx[self],
-                                                                                                                                                                                                                                                                                       ch        |->  ch[self],
-                                                                                                                                                                                                                                                                                       lv        |->  lv[self],
-                                                                                                                                                                                                                                                                                       snap      |->  snap[self],
-                                                                                                                                                                                                                                                                                       fr        |->  fr[self],
-                                                                                                                                                                                                                                                                                       to        |->  to[self],
-                                                                                                                                                                                                                                                                                       m         |->  m[self] ] >>
-                                                                                                                                                                                                                                                                                   \o stack[self]]
-                                                                                                                                                                                                                                              /\ to' = [to EXCEPT ![self] = S(to[self]).otb]
-                                                                                                                                                                                                                                           /\ lg' = [lg EXCEPT ![self] = FALSE]
-                                                                                                                                                                                                                                           /\ sx' = [sx EXCEPT ![self] = 0]
-                                                                                                                                                                                                                                           /\ jx' = [jx EXCEPT ![self] = 0]
-                                                                                                                                                                                                                                           /\ ch' = [ch EXCEPT ![self] = ""]
-                                                                                                                                                                                                                                           /\ lv' = [lv EXCEPT ![self] = 0]
-                                                                                                                                                                                                                                           /\ snap' = [snap EXCEPT ![self] = <<>>]
-                                                                                                                                                                                                                                           /\ pc' = [pc EXCEPT ![self] = "DStart"]
-                                                                                                                                                                                                                                      ELSE /\ pc' = [pc EXCEPT ![self] = "FL17"]
-                                                                                                                                                                                                                                           /\ UNCHANGED << stack, 
+                                                                                                                                                                                                                                                      /\ UNCHANGED << obs, 
+                                                                                                                                                                                                                                                                      panicked >>
+                                                                                                                                                                                                                                           /\ nd' = nd
+                                                                                                                                                                                                                                      ELSE /\ IF IndexOf(nd[to[self].n].sinks, S(to[self]).sink) # 0
+                                                                                                                                                                                                                                                 THEN /\ nd' = [nd EXCEPT ![to[self].n].sinks = RemoveAt(nd[to[self].n].sinks, IndexOf(nd[to[self].n].sinks, S(to[self]).sink))]
+                                                                                                                                                                                                                                                 ELSE /\ TRUE
+                                                                                                                                                                                                                                                      /\ nd' = nd
+                                                                                                                                                                                                                                           /\ pc' = [pc EXCEPT ![self] = "SH9"]
+                                                                                                                                                                                                                                           /\ UNCHANGED << obs, 
+                                                                                                                                                                                                                                                           panicked, 
+                                                                                                                                                                                                                                                           stack, 
                                                                                                                                                                                                                                                            fr, 
                                                                                                                                                                                                                                                            to, 
                                                                                                                                                                                                                                                            m, 
@@ -2835,248 +3055,59 @@ DDisp(self) == /\ pc[self] = "DDisp"
                                                                                                                                                                                                                                                            ch, 
                                                                                                                                                                                                                                                            lv, 
                                                                                                                                                                                                                                                            snap >>
-                                                                                                                                                                                                                ELSE /\ IF S(to[self]).itb # NoRef
-                                                                                                                                                                                                                           THEN /\ /\ fr' = [fr EXCEPT ![self] = "S"]
-                                                                                                                                                                                                                                   /\ m' = [m EXCEPT ![self] = Msg("T")]
-                                                                                                                                                                                                                                   /\ stack' = [stack EXCEPT ![self] = << [ procedure |->  "Deliver",
-                                                                                                                                                                                                                                                                            pc        |->  "FL18",
-                                                                                                                                                                                                                                                                            lg        |->  lg[self],
-                                                                                                                                                                                                                                                                            sx        |->  sx[self],
-                                                                                                                                                                                                                                                                            jx        |->  jx[self],
-                                                                                                                                                                                                                                                                            ch        |->  ch[self],
-                                                                                                                                                                                                                                                                            lv        |->  lv[self],
-                                                                                                                                                                                                                                                                            snap      |->  snap[self],
-                                                                                                                                                                                                                                                                            fr        |->  fr[self],
-                                                                                                                                                                                                                                                                            to        |->  to[self],
-                                                                                                                                                                                                                                                                            m         |->  m[self] ] >>
-                                                                                                                                                                                                                                                                        \o stack[self]]
-                                                                                                                                                                                                                                   /\ to' = [to EXCEPT ![self] = S(to[self]).itb]
-                                                                                                                                                                                                                                /\ lg' = [lg EXCEPT ![self] = FALSE]
-                                                                                                                                                                                                                                /\ sx' = [sx EXCEPT ![self] = 0]
-                                                                                                                                                                                                                                /\ jx' = [jx EXCEPT ![self] = 0]
-                                                                                                                                                                                                                                /\ ch' = [ch EXCEPT ![self] = ""]
-                                                                                                                                                                                                                                /\ lv' = [lv EXCEPT ![self] = 0]
-                                                                                                                                                                                                                                /\ snap' = [snap EXCEPT ![self] = <<>>]
-                                                                                                                                                                                                                                /\ pc' = [pc EXCEPT ![self] = "DStart"]
-                                                                                                                                                                                                                           ELSE /\ pc' = [pc EXCEPT ![self] = "FL18"]
-                                                                                                                                                                                                                                /\ UNCHANGED << stack, 
-                                                                                                                                                                                                                                                fr, 
-                                                                                                                                                                                                                                                to, 
-                                                                                                                                                                                                                                                m, 
-                                                                                                                                                                                                                                                lg, 
+                                                                                                                                                                                                          /\ st' = st
+                                                                                                                                                                                               /\ UNCHANGED << tasks, 
+                                                                                                                                                                                                               script >>
+                                                                                                                                                                                          ELSE /\ IF Kind(to[self].n) = "interval"
+                                                                                                                                                                                                     THEN /\ IF to[self].r = "src"
+                                                                                                                                                                                                                THEN /\ IF m[self].t = "H"
+                                                                                                                                                                                                                           THEN /\ sx' = [sx EXCEPT ![self] = Len(st[to[self].n]) + 1]
+                                                                                                                                                                                                                                /\ st' = [st EXCEPT ![to[self].n] = Append(st[to[self].n], InitSt(to[self].n, m[self].tb))]
+                                                                                                                                                                                                                                /\ \E c \in SpawnOpts:
+                                                                                                                                                                                                                                     /\ script' = LogS(script, <<"spawn", TName(Len(tasks) + 1), c>>)
+                                                                                                                                                                                                                                     /\ obs' = LogO(obs, Ev("spawn", ThOf(self), "", TName(Len(tasks) + 1), c, 0))
+                                                                                                                                                                                                                                     /\ ch' = [ch EXCEPT ![self] = c]
+                                                                                                                                                                                                                                     /\ tasks' = Append(tasks, [node |-> to[self].n, sub |-> sx'[self], ok |-> (c = "ok"),
+                                                                                                                                                                                                                                                                started |-> (c # "ok"), armed |-> FALSE, deadline |-> 0,
+                                                                                                                                                                                                                                                                finished |-> FALSE])
+                                                                                                                                                                                                                                /\ pc' = [pc EXCEPT ![self] = "IV1"]
+                                                                                                                                                                                                                           ELSE /\ pc' = [pc EXCEPT ![self] = "Ret"]
+                                                                                                                                                                                                                                /\ UNCHANGED << st, 
+                                                                                                                                                                                                                                                tasks, 
+                                                                                                                                                                                                                                                obs, 
+                                                                                                                                                                                                                                                script, 
                                                                                                                                                                                                                                                 sx, 
-                                                                                                                                                                                                                                                jx, 
-                                                                                                                                                                                                                                                ch, 
-                                                                                                                                                                                                                                                lv, 
-                                                                                                                                                                                                                                                snap >>
-                                                                                                                                                                                                          /\ UNCHANGED << obs, 
-                                                                                                                                                                                                                          panicked >>
-                                                                                                                                                                                               /\ st' = st
-                                                                                                                                                              /\ UNCHANGED << nd, 
-                                                                                                                                                                              tasks, 
-                                                                                                                                                                              script >>
-                                                                                                                                                         ELSE /\ IF Kind(to[self].n) = "share"
-                                                                                                                                                                    THEN /\ IF to[self].r = "src"
-                                                                                                                                                                               THEN /\ IF m[self].t = "H"
-                                                                                                                                                                                          THEN /\ sx' = [sx EXCEPT ![self] = Len(st[to[self].n]) + 1]
-                                                                                                                                                                                               /\ st' = [st EXCEPT ![to[self].n] = Append(st[to[self].n], InitSt(to[self].n, m[self].tb))]
-                                                                                                                                                                                               /\ nd' = [nd EXCEPT ![to[self].n].sinks = Append(nd[to[self].n].sinks, m[self].tb)]
-                                                                                                                                                                                               /\ pc' = [pc EXCEPT ![self] = "SH1"]
-                                                                                                                                                                                          ELSE /\ pc' = [pc EXCEPT ![self] = "Ret"]
-                                                                                                                                                                                               /\ UNCHANGED << st, 
-                                                                                                                                                                                                               nd, 
-                                                                                                                                                                                                               sx >>
-                                                                                                                                                                                    /\ UNCHANGED << obs, 
-                                                                                                                                                                                                    panicked, 
-                                                                                                                                                                                                    stack, 
-                                                                                                                                                                                                    fr, 
-                                                                                                                                                                                                    to, 
-                                                                                                                                                                                                    m, 
-                                                                                                                                                                                                    lg, 
-                                                                                                                                                                                                    jx, 
-                                                                                                                                                                                                    ch, 
-                                                                                                                                                                                                    lv, 
-                                                                                                                                                                                                    snap >>
-                                                                                                                                                                               ELSE /\ IF to[self].r = "up"
-                                                                                                                                                                                          THEN /\ IF m[self].t = "H"
-                                                                                                                                                                                                     THEN /\ nd' = [nd EXCEPT ![to[self].n].utb = m[self].tb]
-                                                                                                                                                                                                          /\ pc' = [pc EXCEPT ![self] = "SH3"]
-                                                                                                                                                                                                          /\ UNCHANGED << jx, 
-                                                                                                                                                                                                                          snap >>
-                                                                                                                                                                                                     ELSE /\ snap' = [snap EXCEPT ![self] = nd[to[self].n].sinks]
-                                                                                                                                                                                                          /\ jx' = [jx EXCEPT ![self] = 1]
-                                                                                                                                                                                                          /\ pc' = [pc EXCEPT ![self] = "SH5"]
-                                                                                                                                                                                                          /\ nd' = nd
-                                                                                                                                                                                               /\ UNCHANGED << obs, 
+                                                                                                                                                                                                                                                ch >>
+                                                                                                                                                                                                                ELSE /\ IF IsEnd(m[self])
+                                                                                                                                                                                                                           THEN /\ st' = [st EXCEPT ![to[self].n][to[self].s].cleared = TRUE]
+                                                                                                                                                                                                                           ELSE /\ TRUE
+                                                                                                                                                                                                                                /\ st' = st
+                                                                                                                                                                                                                     /\ pc' = [pc EXCEPT ![self] = "Ret"]
+                                                                                                                                                                                                                     /\ UNCHANGED << tasks, 
+                                                                                                                                                                                                                                     obs, 
+                                                                                                                                                                                                                                     script, 
+                                                                                                                                                                                                                                     sx, 
+                                                                                                                                                                                                                                     ch >>
+                                                                                                                                                                                                     ELSE /\ Assert(FALSE, 
+                                                                                                                                                                                                                    "Failure of assertion at line 1070, column 5.")
+                                                                                                                                                                                                          /\ pc' = [pc EXCEPT ![self] = "Ret"]
+                                                                                                                                                                                                          /\ UNCHANGED << st, 
+                                                                                                                                                                                                                          tasks, 
+                                                                                                                                                                                                                          obs, 
+                                                                                                                                                                                                                          script, 
+                                                                                                                                                                                                                          sx, 
+                                                                                                                                                                                                                          ch >>
+                                                                                                                                                                                               /\ UNCHANGED << nd, 
                                                                                                                                                                                                                panicked, 
                                                                                                                                                                                                                stack, 
                                                                                                                                                                                                                fr, 
                                                                                                                                                                                                                to, 
                                                                                                                                                                                                                m, 
                                                                                                                                                                                                                lg, 
-                                                                                                                                                                                                               sx, 
-                                                                                                                                                                                                               ch, 
-                                                                                                                                                                                                               lv >>
-                                                                                                                                                                                          ELSE /\ IF m[self].t \in {"H", "D"}
-                                                                                                                                                                                                     THEN /\ obs' = LogO(obs \o [q \in 1..OpenCount(obs, 1, 0) |-> RetEv(ThOf(self))],
-                                                                                                                                                                                                                         Ev("panic", ThOf(self), "", "", "", 0))
-                                                                                                                                                                                                          /\ panicked' = TRUE
-                                                                                                                                                                                                          /\ pc' = [pc EXCEPT ![self] = "Halt"]
-                                                                                                                                                                                                          /\ UNCHANGED << nd, 
-                                                                                                                                                                                                                          stack, 
-                                                                                                                                                                                                                          fr, 
-                                                                                                                                                                                                                          to, 
-                                                                                                                                                                                                                          m, 
-                                                                                                                                                                                                                          lg, 
-                                                                                                                                                                                                                          sx, 
-                                                                                                                                                                                                                          jx, 
-                                                                                                                                                                                                                          ch, 
-                                                                                                                                                                                                                          lv, 
-                                                                                                                                                                                                                          snap >>
-                                                                                                                                                                                                     ELSE /\ IF m[self].t = "P"
-                                                                                                                                                                                                                THEN /\ IF nd[to[self].n].utb = NoRef
-                                                                                                                                                                                                                           THEN /\ obs' = LogO(obs \o [q \in 1..OpenCount(obs, 1, 0) |-> RetEv(ThOf(self))],
-                                                                                                                                                                                                                                               Ev("panic", ThOf(self), "", "", "", 0))
-                                                                                                                                                                                                                                /\ panicked' = TRUE
-                                                                                                                                                                                                                                /\ pc' = [pc EXCEPT ![self] = "Halt"]
-                                                                                                                                                                                                                                /\ UNCHANGED << stack, 
-                                                                                                                                                                                                                                                fr, 
-                                                                                                                                                                                                                                                to, 
-                                                                                                                                                                                                                                                m, 
-                                                                                                                                                                                                                                                lg, 
-                                                                                                                                                                                                                                                sx, 
-                                                                                                                                                                                                                                                jx, 
-                                                                                                                                                                                                                                                ch, 
-                                                                                                                                                                                                                                                lv, 
-                                                                                                                                                                                                                                                snap >>
-                                                                                                                                                                                                                           ELSE /\ /\ fr' = [fr EXCEPT ![self] = "S"]
-                                                                                                                                                                                                                                   /\ m' = [m EXCEPT ![self] = m[self]]
-                                                                                                                                                                                                                                   /\ stack' = [stack EXCEPT ![self] = << [ procedure |->  "Deliver",
-                                                                                                                                                                                                                                                                            pc        |->  "SH8",
-                                                                                                                                                                                                                                                                            lg        |->  lg[self],
-                                                                                                                                                                                                                                                                            sx        |->  sx[self],
-                                                                                                                                                                                                                                                                            jx        |->  jx[self],
-                                                                                                                                                                                                                                                                            ch        |->  ch[self],
-                                                                                                                                                                                                                                                                            lv        |->  lv[self],
-                                                                                                                                                                                                                                                                            snap      |->  snap[self],
-                                                                                                                                                                                                                                                                            fr        |->  fr[self],
-                                                                                                                                                                                                                                                                            to        |->  to[self],
-                                                                                                                                                                                                                                                                            m         |->  m[self] ] >>
-                                                                                                                                                                                                                                                                        \o stack[self]]
-                                                                                                                                                                                                                                   /\ to' = [to EXCEPT ![self] = nd[to[self].n].utb]
-                                                                                                                                                                                                                                /\ lg' = [lg EXCEPT ![self] = FALSE]
-                                                                                                                                                                                                                                /\ sx' = [sx EXCEPT ![self] = 0]
-                                                                                                                                                                                                                                /\ jx' = [jx EXCEPT ![self] = 0]
-                                                                                                                                                                                                                                /\ ch' = [ch EXCEPT ![self] = ""]
-                                                                                                                                                                                                                                /\ lv' = [lv EXCEPT ![self] = 0]
-                                                                                                                                                                                                                                /\ snap' = [snap EXCEPT ![self] = <<>>]
-                                                                                                                                                                                                                                /\ pc' = [pc EXCEPT ![self] = "DStart"]
-                                                                                                                                                                                                                                /\ UNCHANGED << obs, 
-                                                                                                                                                                                                                                                panicked >>
-                                                                                                                                                                                                                     /\ nd' = nd
-                                                                                                                                                                                                                ELSE /\ IF IndexOf(nd[to[self].n].sinks, S(to[self]).sink) # 0
-                                                                                                                                                                                                                           THEN /\ nd' = [nd EXCEPT ![to[self].n].sinks = RemoveAt(nd[to[self].n].sinks, IndexOf(nd[to[self].n].sinks, S(to[self]).sink))]
-                                                                                                                                                                                                                           ELSE /\ TRUE
-                                                                                                                                                                                                                                /\ nd' = nd
-                                                                                                                                                                                                                     /\ pc' = [pc EXCEPT ![self] = "SH9"]
-                                                                                                                                                                                                                     /\ UNCHANGED << obs, 
-                                                                                                                                                                                                                                     panicked, 
-                                                                                                                                                                                                                                     stack, 
-                                                                                                                                                                                                                                     fr, 
-                                                                                                                                                                                                                                     to, 
-                                                                                                                                                                                                                                     m, 
-                                                                                                                                                                                                                                     lg, 
-                                                                                                                                                                                                                                     sx, 
-                                                                                                                                                                                                                                     jx, 
-                                                                                                                                                                                                                                     ch, 
-                                                                                                                                                                                                                                     lv, 
-                                                                                                                                                                                                                                     snap >>
-                                                                                                                                                                                    /\ st' = st
-                                                                                                                                                                         /\ UNCHANGED << tasks, 
-                                                                                                                                                                                         script >>
-                                                                                                                                                                    ELSE /\ IF Kind(to[self].n) = "from_iter"
-                                                                                                                                                                               THEN /\ IF to[self].r = "src"
-                                                                                                                                                                                          THEN /\ IF m[self].t = "H"
-                                                                                                                                                                                                     THEN /\ sx' = [sx EXCEPT ![self] = Len(st[to[self].n]) + 1]
-                                                                                                                                                                                                          /\ st' = [st EXCEPT ![to[self].n] = Append(st[to[self].n], InitSt(to[self].n, m[self].tb))]
-                                                                                                                                                                                                          /\ obs' = LogO(obs, Ev("clone", ThOf(self), "", "I" \o ToString(to[self].n) \o "#" \o ToString(sx'[self]), "", 0))
-                                                                                                                                                                                                          /\ pc' = [pc EXCEPT ![self] = "FR1"]
-                                                                                                                                                                                                     ELSE /\ pc' = [pc EXCEPT ![self] = "Ret"]
-                                                                                                                                                                                                          /\ UNCHANGED << st, 
-                                                                                                                                                                                                                          obs, 
-                                                                                                                                                                                                                          sx >>
-                                                                                                                                                                                               /\ UNCHANGED panicked
-                                                                                                                                                                                          ELSE /\ IF S(to[self]).completed
-                                                                                                                                                                                                     THEN /\ pc' = [pc EXCEPT ![self] = "Ret"]
-                                                                                                                                                                                                          /\ UNCHANGED << st, 
-                                                                                                                                                                                                                          obs, 
-                                                                                                                                                                                                                          panicked >>
-                                                                                                                                                                                                     ELSE /\ IF m[self].t \in {"H", "D"}
-                                                                                                                                                                                                                THEN /\ obs' = LogO(obs \o [q \in 1..OpenCount(obs, 1, 0) |-> RetEv(ThOf(self))],
-                                                                                                                                                                                                                                    Ev("panic", ThOf(self), "", "", "", 0))
-                                                                                                                                                                                                                     /\ panicked' = TRUE
-                                                                                                                                                                                                                     /\ pc' = [pc EXCEPT ![self] = "Halt"]
-                                                                                                                                                                                                                     /\ st' = st
-                                                                                                                                                                                                                ELSE /\ IF m[self].t = "P"
-                                                                                                                                                                                                                           THEN /\ st' = [st EXCEPT ![to[self].n][to[self].s].gotpull = TRUE]
-                                                                                                                                                                                                                                /\ pc' = [pc EXCEPT ![self] = "FR3"]
-                                                                                                                                                                                                                           ELSE /\ st' = [st EXCEPT ![to[self].n][to[self].s].completed = TRUE]
-                                                                                                                                                                                                                                /\ pc' = [pc EXCEPT ![self] = "Ret"]
-                                                                                                                                                                                                                     /\ UNCHANGED << obs, 
-                                                                                                                                                                                                                                     panicked >>
-                                                                                                                                                                                               /\ sx' = sx
-                                                                                                                                                                                    /\ UNCHANGED << tasks, 
-                                                                                                                                                                                                    script, 
-                                                                                                                                                                                                    ch >>
-                                                                                                                                                                               ELSE /\ IF Kind(to[self].n) = "interval"
-                                                                                                                                                                                          THEN /\ IF to[self].r = "src"
-                                                                                                                                                                                                     THEN /\ IF m[self].t = "H"
-                                                                                                                                                                                                                THEN /\ sx' = [sx EXCEPT ![self] = Len(st[to[self].n]) + 1]
-                                                                                                                                                                                                                     /\ st' = [st EXCEPT ![to[self].n] = Append(st[to[self].n], InitSt(to[self].n, m[self].tb))]
-                                                                                                                                                                                                                     /\ \E c \in SpawnOpts:
-                                                                                                                                                                                                                          /\ script' = LogS(script, <<"spawn", TName(Len(tasks) + 1), c>>)
-                                                                                                                                                                                                                          /\ obs' = LogO(obs, Ev("spawn", ThOf(self), "", TName(Len(tasks) + 1), c, 0))
-                                                                                                                                                                                                                          /\ ch' = [ch EXCEPT ![self] = c]
-                                                                                                                                                                                                                          /\ tasks' = Append(tasks, [node |-> to[self].n, sub |-> sx'[self], ok |-> (c = "ok"),
-                                                                                                                                                                                                                                                     started |-> (c # "ok"), armed |-> FALSE, deadline |-> 0,
-                                                                                                                                                                                                                                                     finished |-> FALSE])
-                                                                                                                                                                                                                     /\ pc' = [pc EXCEPT ![self] = "IV1"]
-                                                                                                                                                                                                                ELSE /\ pc' = [pc EXCEPT ![self] = "Ret"]
-                                                                                                                                                                                                                     /\ UNCHANGED << st, 
-                                                                                                                                                                                                                                     tasks, 
-                                                                                                                                                                                                                                     obs, 
-                                                                                                                                                                                                                                     script, 
-                                                                                                                                                                                                                                     sx, 
-                                                                                                                                                                                                                                     ch >>
-                                                                                                                                                                                                     ELSE /\ IF IsEnd(m[self])
-                                                                                                                                                                                                                THEN /\ st' = [st EXCEPT ![to[self].n][to[self].s].cleared = TRUE]
-                                                                                                                                                                                                                ELSE /\ TRUE
-                                                                                                                                                                                                                     /\ st' = st
-                                                                                                                                                                                                          /\ pc' = [pc EXCEPT ![self] = "Ret"]
-                                                                                                                                                                                                          /\ UNCHANGED << tasks, 
-                                                                                                                                                                                                                          obs, 
-                                                                                                                                                                                                                          script, 
-                                                                                                                                                                                                                          sx, 
-                                                                                                                                                                                                                          ch >>
-                                                                                                                                                                                          ELSE /\ Assert(FALSE, 
-                                                                                                                                                                                                         "Failure of assertion at line 1049, column 5.")
-                                                                                                                                                                                               /\ pc' = [pc EXCEPT ![self] = "Ret"]
-                                                                                                                                                                                               /\ UNCHANGED << st, 
-                                                                                                                                                                                                               tasks, 
-                                                                                                                                                                                                               obs, 
-                                                                                                                                                                                                               script, 
-                                                                                                                                                                                                               sx, 
-                                                                                                                                                                                                               ch >>
-                                                                                                                                                                                    /\ UNCHANGED panicked
-                                                                                                                                                                         /\ UNCHANGED << nd, 
-                                                                                                                                                                                         stack, 
-                                                                                                                                                                                         fr, 
-                                                                                                                                                                                         to, 
-                                                                                                                                                                                         m, 
-                                                                                                                                                                                         lg, 
-                                                                                                                                                                                         jx, 
-                                                                                                                                                                                         lv, 
-                                                                                                                                                                                         snap >>
+                                                                                                                                                                                                               jx, 
+                                                                                                                                                                                                               lv, 
+                                                                                                                                                                                                               snap >>
+                                                                                 /\ fi' = fi
                                                            /\ sk' = sk
                                                 /\ pi' = pi
                /\ UNCHANGED << now, ntop, done, ka, ca, gx, ex, nx, fx, bx, bc, 
@@ -3090,10 +3121,10 @@ K1(self) == /\ pc[self] = "K1"
                        /\ pc' = [pc EXCEPT ![self] = "K2"]
                   ELSE /\ pc' = [pc EXCEPT ![self] = "K3"]
                        /\ UNCHANGED << script, ch >>
-            /\ UNCHANGED << st, nd, sk, pi, tasks, now, obs, ntop, panicked, 
-                            done, stack, fr, to, m, lg, sx, jx, lv, snap, ka, 
-                            ca, gx, ex, nx, fx, bx, bc, tx, ta, tc, ft, act, 
-                            sj >>
+            /\ UNCHANGED << st, nd, sk, pi, fi, tasks, now, obs, ntop, 
+                            panicked, done, stack, fr, to, m, lg, sx, jx, lv, 
+                            snap, ka, ca, gx, ex, nx, fx, bx, bc, tx, ta, tc, 
+                            ft, act, sj >>
 
 K2(self) == /\ pc[self] = "K2"
             /\ /\ ca' = [ca EXCEPT ![self] = ch[self]]
@@ -3104,14 +3135,14 @@ K2(self) == /\ pc[self] = "K2"
                                                         ca        |->  ca[self] ] >>
                                                     \o stack[self]]
             /\ pc' = [pc EXCEPT ![self] = "SA0"]
-            /\ UNCHANGED << st, nd, sk, pi, tasks, now, obs, script, ntop, 
+            /\ UNCHANGED << st, nd, sk, pi, fi, tasks, now, obs, script, ntop, 
                             panicked, done, fr, to, m, lg, sx, jx, ch, lv, 
                             snap, gx, ex, nx, fx, bx, bc, tx, ta, tc, ft, act, 
                             sj >>
 
 K3(self) == /\ pc[self] = "K3"
             /\ pc' = [pc EXCEPT ![self] = "Ret"]
-            /\ UNCHANGED << st, nd, sk, pi, tasks, now, obs, script, ntop, 
+            /\ UNCHANGED << st, nd, sk, pi, fi, tasks, now, obs, script, ntop, 
                             panicked, done, stack, fr, to, m, lg, sx, jx, ch, 
                             lv, snap, ka, ca, gx, ex, nx, fx, bx, bc, tx, ta, 
                             tc, ft, act, sj >>
@@ -3128,7 +3159,7 @@ P1(self) == /\ pc[self] = "P1"
                   ELSE /\ pi' = [pi EXCEPT ![sx[self]].pending = TRUE]
                        /\ pc' = [pc EXCEPT ![self] = "P3"]
                        /\ UNCHANGED << stack, gx >>
-            /\ UNCHANGED << st, nd, sk, tasks, now, obs, script, ntop, 
+            /\ UNCHANGED << st, nd, sk, fi, tasks, now, obs, script, ntop, 
                             panicked, done, fr, to, m, lg, sx, jx, ch, lv, 
                             snap, ka, ca, ex, nx, fx, bx, bc, tx, ta, tc, ft, 
                             act, sj >>
@@ -3142,14 +3173,14 @@ P2(self) == /\ pc[self] = "P2"
                                                     \o stack[self]]
             /\ bc' = [bc EXCEPT ![self] = ""]
             /\ pc' = [pc EXCEPT ![self] = "B0"]
-            /\ UNCHANGED << st, nd, sk, pi, tasks, now, obs, script, ntop, 
+            /\ UNCHANGED << st, nd, sk, pi, fi, tasks, now, obs, script, ntop, 
                             panicked, done, fr, to, m, lg, sx, jx, ch, lv, 
                             snap, ka, ca, gx, ex, nx, fx, tx, ta, tc, ft, act, 
                             sj >>
 
 P3(self) == /\ pc[self] = "P3"
             /\ pc' = [pc EXCEPT ![self] = "Ret"]
-            /\ UNCHANGED << st, nd, sk, pi, tasks, now, obs, script, ntop, 
+            /\ UNCHANGED << st, nd, sk, pi, fi, tasks, now, obs, script, ntop, 
                             panicked, done, stack, fr, to, m, lg, sx, jx, ch, 
                             lv, snap, ka, ca, gx, ex, nx, fx, bx, bc, tx, ta, 
                             tc, ft, act, sj >>
@@ -3162,7 +3193,7 @@ T1(self) == /\ pc[self] = "T1"
                                                                    ex        |->  ex[self] ] >>
                                                                \o stack[self]]
                        /\ pc' = [pc EXCEPT ![self] = "E0"]
-                       /\ UNCHANGED << pi, nx, fx >>
+                       /\ UNCHANGED << pi, obs, nx, fx >>
                   ELSE /\ IF ch[self] = "end"
                              THEN /\ /\ nx' = [nx EXCEPT ![self] = to[self].s]
                                      /\ stack' = [stack EXCEPT ![self] = << [ procedure |->  "EndP",
@@ -3170,7 +3201,7 @@ T1(self) == /\ pc[self] = "T1"
                                                                               nx        |->  nx[self] ] >>
                                                                           \o stack[self]]
                                   /\ pc' = [pc EXCEPT ![self] = "N0"]
-                                  /\ UNCHANGED << pi, fx >>
+                                  /\ UNCHANGED << pi, obs, fx >>
                              ELSE /\ IF ch[self] = "err"
                                         THEN /\ /\ fx' = [fx EXCEPT ![self] = to[self].s]
                                                 /\ stack' = [stack EXCEPT ![self] = << [ procedure |->  "FailP",
@@ -3178,22 +3209,24 @@ T1(self) == /\ pc[self] = "T1"
                                                                                          fx        |->  fx[self] ] >>
                                                                                      \o stack[self]]
                                              /\ pc' = [pc EXCEPT ![self] = "F0"]
-                                             /\ pi' = pi
+                                             /\ UNCHANGED << pi, obs >>
                                         ELSE /\ IF ch[self] = "defer"
                                                    THEN /\ pi' = [pi EXCEPT ![to[self].s].deferred = pi[to[self].s].deferred + 1]
+                                                        /\ obs' = LogO(obs, Ev("note", ThOf(self), "", IName(to[self].s), "defer", 0))
                                                    ELSE /\ TRUE
-                                                        /\ pi' = pi
+                                                        /\ UNCHANGED << pi, 
+                                                                        obs >>
                                              /\ pc' = [pc EXCEPT ![self] = "T2"]
                                              /\ UNCHANGED << stack, fx >>
                                   /\ nx' = nx
                        /\ ex' = ex
-            /\ UNCHANGED << st, nd, sk, tasks, now, obs, script, ntop, 
-                            panicked, done, fr, to, m, lg, sx, jx, ch, lv, 
-                            snap, ka, ca, gx, bx, bc, tx, ta, tc, ft, act, sj >>
+            /\ UNCHANGED << st, nd, sk, fi, tasks, now, script, ntop, panicked, 
+                            done, fr, to, m, lg, sx, jx, ch, lv, snap, ka, ca, 
+                            gx, bx, bc, tx, ta, tc, ft, act, sj >>
 
 T2(self) == /\ pc[self] = "T2"
             /\ pc' = [pc EXCEPT ![self] = "Ret"]
-            /\ UNCHANGED << st, nd, sk, pi, tasks, now, obs, script, ntop, 
+            /\ UNCHANGED << st, nd, sk, pi, fi, tasks, now, obs, script, ntop, 
                             panicked, done, stack, fr, to, m, lg, sx, jx, ch, 
                             lv, snap, ka, ca, gx, ex, nx, fx, bx, bc, tx, ta, 
                             tc, ft, act, sj >>
@@ -3221,13 +3254,13 @@ FE1(self) == /\ pc[self] = "FE1"
              /\ lv' = [lv EXCEPT ![self] = 0]
              /\ snap' = [snap EXCEPT ![self] = <<>>]
              /\ pc' = [pc EXCEPT ![self] = "DStart"]
-             /\ UNCHANGED << st, nd, sk, pi, tasks, now, obs, script, ntop, 
+             /\ UNCHANGED << st, nd, sk, pi, fi, tasks, now, obs, script, ntop, 
                              panicked, done, ka, ca, gx, ex, nx, fx, bx, bc, 
                              tx, ta, tc, ft, act, sj >>
 
 FE2(self) == /\ pc[self] = "FE2"
              /\ pc' = [pc EXCEPT ![self] = "Ret"]
-             /\ UNCHANGED << st, nd, sk, pi, tasks, now, obs, script, ntop, 
+             /\ UNCHANGED << st, nd, sk, pi, fi, tasks, now, obs, script, ntop, 
                              panicked, done, stack, fr, to, m, lg, sx, jx, ch, 
                              lv, snap, ka, ca, gx, ex, nx, fx, bx, bc, tx, ta, 
                              tc, ft, act, sj >>
@@ -3263,13 +3296,159 @@ FE3(self) == /\ pc[self] = "FE3"
                         /\ snap' = [snap EXCEPT ![self] = <<>>]
                         /\ pc' = [pc EXCEPT ![self] = "DStart"]
                         /\ UNCHANGED << obs, panicked >>
-             /\ UNCHANGED << st, nd, sk, pi, tasks, now, script, ntop, done, 
-                             ka, ca, gx, ex, nx, fx, bx, bc, tx, ta, tc, ft, 
-                             act, sj >>
+             /\ UNCHANGED << st, nd, sk, pi, fi, tasks, now, script, ntop, 
+                             done, ka, ca, gx, ex, nx, fx, bx, bc, tx, ta, tc, 
+                             ft, act, sj >>
 
 FE4(self) == /\ pc[self] = "FE4"
              /\ pc' = [pc EXCEPT ![self] = "Ret"]
+             /\ UNCHANGED << st, nd, sk, pi, fi, tasks, now, obs, script, ntop, 
+                             panicked, done, stack, fr, to, m, lg, sx, jx, ch, 
+                             lv, snap, ka, ca, gx, ex, nx, fx, bx, bc, tx, ta, 
+                             tc, ft, act, sj >>
+
+FR1(self) == /\ pc[self] = "FR1"
+             /\ /\ fr' = [fr EXCEPT ![self] = "S"]
+                /\ m' = [m EXCEPT ![self] = MsgH(Ref(0, "fitb", sx[self], 0))]
+                /\ stack' = [stack EXCEPT ![self] = << [ procedure |->  "Deliver",
+                                                         pc        |->  "FR2",
+                                                         lg        |->  lg[self],
+                                                         sx        |->  sx[self],
+                                                         jx        |->  jx[self],
+                                                         ch        |->  ch[self],
+                                                         lv        |->  lv[self],
+                                                         snap      |->  snap[self],
+                                                         fr        |->  fr[self],
+                                                         to        |->  to[self],
+                                                         m         |->  m[self] ] >>
+                                                     \o stack[self]]
+                /\ to' = [to EXCEPT ![self] = m[self].tb]
+             /\ lg' = [lg EXCEPT ![self] = FALSE]
+             /\ sx' = [sx EXCEPT ![self] = 0]
+             /\ jx' = [jx EXCEPT ![self] = 0]
+             /\ ch' = [ch EXCEPT ![self] = ""]
+             /\ lv' = [lv EXCEPT ![self] = 0]
+             /\ snap' = [snap EXCEPT ![self] = <<>>]
+             /\ pc' = [pc EXCEPT ![self] = "DStart"]
+             /\ UNCHANGED << st, nd, sk, pi, fi, tasks, now, obs, script, ntop, 
+                             panicked, done, ka, ca, gx, ex, nx, fx, bx, bc, 
+                             tx, ta, tc, ft, act, sj >>
+
+FR2(self) == /\ pc[self] = "FR2"
+             /\ pc' = [pc EXCEPT ![self] = "Ret"]
+             /\ UNCHANGED << st, nd, sk, pi, fi, tasks, now, obs, script, ntop, 
+                             panicked, done, stack, fr, to, m, lg, sx, jx, ch, 
+                             lv, snap, ka, ca, gx, ex, nx, fx, bx, bc, tx, ta, 
+                             tc, ft, act, sj >>
+
+FR3(self) == /\ pc[self] = "FR3"
+             /\ IF ~fi[to[self].s].inloop /\ ~fi[to[self].s].resdone
+                   THEN /\ fi' = [fi EXCEPT ![to[self].s].inloop = TRUE]
+                        /\ pc' = [pc EXCEPT ![self] = "FR4"]
+                   ELSE /\ pc' = [pc EXCEPT ![self] = "FR9"]
+                        /\ fi' = fi
              /\ UNCHANGED << st, nd, sk, pi, tasks, now, obs, script, ntop, 
+                             panicked, done, stack, fr, to, m, lg, sx, jx, ch, 
+                             lv, snap, ka, ca, gx, ex, nx, fx, bx, bc, tx, ta, 
+                             tc, ft, act, sj >>
+
+FR4(self) == /\ pc[self] = "FR4"
+             /\ IF fi[to[self].s].gotpull /\ ~fi[to[self].s].completed
+                   THEN /\ lv' = [lv EXCEPT ![self] = IF fi[to[self].s].unbounded
+                                                      THEN (IF fi[to[self].s].pos >= fi[to[self].s].limit THEN -1 ELSE fi[to[self].s].pos + 1)
+                                                      ELSE (IF fi[to[self].s].pos < Len(fi[to[self].s].items) THEN fi[to[self].s].items[fi[to[self].s].pos + 1] ELSE -1)]
+                        /\ fi' = [fi EXCEPT ![to[self].s] = [fi[to[self].s] EXCEPT !.gotpull = FALSE, !.pos = @ + 1, !.resdone = (lv'[self] = -1)]]
+                        /\ IF fi'[to[self].s].name # ""
+                              THEN /\ obs' = LogO(IF fi'[to[self].s].unbounded /\ lv'[self] = -1
+                                                  THEN LogO(obs, Ev("runaway", ThOf(self), "", fi'[to[self].s].name, "", fi'[to[self].s].pos - 1))
+                                                  ELSE obs,
+                                                  Ev("next", ThOf(self), "", fi'[to[self].s].name, "", lv'[self]))
+                              ELSE /\ TRUE
+                                   /\ obs' = obs
+                        /\ pc' = [pc EXCEPT ![self] = "FR5"]
+                   ELSE /\ pc' = [pc EXCEPT ![self] = "FR8"]
+                        /\ UNCHANGED << fi, obs, lv >>
+             /\ UNCHANGED << st, nd, sk, pi, tasks, now, script, ntop, 
+                             panicked, done, stack, fr, to, m, lg, sx, jx, ch, 
+                             snap, ka, ca, gx, ex, nx, fx, bx, bc, tx, ta, tc, 
+                             ft, act, sj >>
+
+FR5(self) == /\ pc[self] = "FR5"
+             /\ IF fi[to[self].s].resdone
+                   THEN /\ /\ fr' = [fr EXCEPT ![self] = "S"]
+                           /\ m' = [m EXCEPT ![self] = Msg("T")]
+                           /\ stack' = [stack EXCEPT ![self] = << [ procedure |->  "Deliver",
+                                                                    pc        |->  "FR6",
+                                                                    lg        |->  lg[self],
+                                                                    sx        |->  sx[self],
+                                                                    jx        |->  jx[self],
+                                                                    ch        |->  ch[self],
+                                                                    lv        |->  lv[self],
+                                                                    snap      |->  snap[self],
+                                                                    fr        |->  fr[self],
+                                                                    to        |->  to[self],
+                                                                    m         |->  m[self] ] >>
+                                                                \o stack[self]]
+                           /\ to' = [to EXCEPT ![self] = fi[to[self].s].sink]
+                        /\ lg' = [lg EXCEPT ![self] = FALSE]
+                        /\ sx' = [sx EXCEPT ![self] = 0]
+                        /\ jx' = [jx EXCEPT ![self] = 0]
+                        /\ ch' = [ch EXCEPT ![self] = ""]
+                        /\ lv' = [lv EXCEPT ![self] = 0]
+                        /\ snap' = [snap EXCEPT ![self] = <<>>]
+                        /\ pc' = [pc EXCEPT ![self] = "DStart"]
+                   ELSE /\ /\ fr' = [fr EXCEPT ![self] = "S"]
+                           /\ m' = [m EXCEPT ![self] = MsgD(lv[self])]
+                           /\ stack' = [stack EXCEPT ![self] = << [ procedure |->  "Deliver",
+                                                                    pc        |->  "FR7",
+                                                                    lg        |->  lg[self],
+                                                                    sx        |->  sx[self],
+                                                                    jx        |->  jx[self],
+                                                                    ch        |->  ch[self],
+                                                                    lv        |->  lv[self],
+                                                                    snap      |->  snap[self],
+                                                                    fr        |->  fr[self],
+                                                                    to        |->  to[self],
+                                                                    m         |->  m[self] ] >>
+                                                                \o stack[self]]
+                           /\ to' = [to EXCEPT ![self] = fi[to[self].s].sink]
+                        /\ lg' = [lg EXCEPT ![self] = FALSE]
+                        /\ sx' = [sx EXCEPT ![self] = 0]
+                        /\ jx' = [jx EXCEPT ![self] = 0]
+                        /\ ch' = [ch EXCEPT ![self] = ""]
+                        /\ lv' = [lv EXCEPT ![self] = 0]
+                        /\ snap' = [snap EXCEPT ![self] = <<>>]
+                        /\ pc' = [pc EXCEPT ![self] = "DStart"]
+             /\ UNCHANGED << st, nd, sk, pi, fi, tasks, now, obs, script, ntop, 
+                             panicked, done, ka, ca, gx, ex, nx, fx, bx, bc, 
+                             tx, ta, tc, ft, act, sj >>
+
+FR6(self) == /\ pc[self] = "FR6"
+             /\ pc' = [pc EXCEPT ![self] = "FR8"]
+             /\ UNCHANGED << st, nd, sk, pi, fi, tasks, now, obs, script, ntop, 
+                             panicked, done, stack, fr, to, m, lg, sx, jx, ch, 
+                             lv, snap, ka, ca, gx, ex, nx, fx, bx, bc, tx, ta, 
+                             tc, ft, act, sj >>
+
+FR7(self) == /\ pc[self] = "FR7"
+             /\ TRUE
+             /\ pc' = [pc EXCEPT ![self] = "FR4"]
+             /\ UNCHANGED << st, nd, sk, pi, fi, tasks, now, obs, script, ntop, 
+                             panicked, done, stack, fr, to, m, lg, sx, jx, ch, 
+                             lv, snap, ka, ca, gx, ex, nx, fx, bx, bc, tx, ta, 
+                             tc, ft, act, sj >>
+
+FR8(self) == /\ pc[self] = "FR8"
+             /\ fi' = [fi EXCEPT ![to[self].s].inloop = FALSE]
+             /\ pc' = [pc EXCEPT ![self] = "FR9"]
+             /\ UNCHANGED << st, nd, sk, pi, tasks, now, obs, script, ntop, 
+                             panicked, done, stack, fr, to, m, lg, sx, jx, ch, 
+                             lv, snap, ka, ca, gx, ex, nx, fx, bx, bc, tx, ta, 
+                             tc, ft, act, sj >>
+
+FR9(self) == /\ pc[self] = "FR9"
+             /\ pc' = [pc EXCEPT ![self] = "Ret"]
+             /\ UNCHANGED << st, nd, sk, pi, fi, tasks, now, obs, script, ntop, 
                              panicked, done, stack, fr, to, m, lg, sx, jx, ch, 
                              lv, snap, ka, ca, gx, ex, nx, fx, bx, bc, tx, ta, 
                              tc, ft, act, sj >>
@@ -3297,13 +3476,13 @@ MP1(self) == /\ pc[self] = "MP1"
              /\ lv' = [lv EXCEPT ![self] = 0]
              /\ snap' = [snap EXCEPT ![self] = <<>>]
              /\ pc' = [pc EXCEPT ![self] = "DStart"]
-             /\ UNCHANGED << st, nd, sk, pi, tasks, now, obs, script, ntop, 
+             /\ UNCHANGED << st, nd, sk, pi, fi, tasks, now, obs, script, ntop, 
                              panicked, done, ka, ca, gx, ex, nx, fx, bx, bc, 
                              tx, ta, tc, ft, act, sj >>
 
 MP2(self) == /\ pc[self] = "MP2"
              /\ pc' = [pc EXCEPT ![self] = "Ret"]
-             /\ UNCHANGED << st, nd, sk, pi, tasks, now, obs, script, ntop, 
+             /\ UNCHANGED << st, nd, sk, pi, fi, tasks, now, obs, script, ntop, 
                              panicked, done, stack, fr, to, m, lg, sx, jx, ch, 
                              lv, snap, ka, ca, gx, ex, nx, fx, bx, bc, tx, ta, 
                              tc, ft, act, sj >>
@@ -3331,13 +3510,13 @@ MP3(self) == /\ pc[self] = "MP3"
              /\ lv' = [lv EXCEPT ![self] = 0]
              /\ snap' = [snap EXCEPT ![self] = <<>>]
              /\ pc' = [pc EXCEPT ![self] = "DStart"]
-             /\ UNCHANGED << st, nd, sk, pi, tasks, now, obs, script, ntop, 
+             /\ UNCHANGED << st, nd, sk, pi, fi, tasks, now, obs, script, ntop, 
                              panicked, done, ka, ca, gx, ex, nx, fx, bx, bc, 
                              tx, ta, tc, ft, act, sj >>
 
 MP4(self) == /\ pc[self] = "MP4"
              /\ pc' = [pc EXCEPT ![self] = "Ret"]
-             /\ UNCHANGED << st, nd, sk, pi, tasks, now, obs, script, ntop, 
+             /\ UNCHANGED << st, nd, sk, pi, fi, tasks, now, obs, script, ntop, 
                              panicked, done, stack, fr, to, m, lg, sx, jx, ch, 
                              lv, snap, ka, ca, gx, ex, nx, fx, bx, bc, tx, ta, 
                              tc, ft, act, sj >>
@@ -3365,27 +3544,27 @@ MP5(self) == /\ pc[self] = "MP5"
              /\ lv' = [lv EXCEPT ![self] = 0]
              /\ snap' = [snap EXCEPT ![self] = <<>>]
              /\ pc' = [pc EXCEPT ![self] = "DStart"]
-             /\ UNCHANGED << st, nd, sk, pi, tasks, now, obs, script, ntop, 
+             /\ UNCHANGED << st, nd, sk, pi, fi, tasks, now, obs, script, ntop, 
                              panicked, done, ka, ca, gx, ex, nx, fx, bx, bc, 
                              tx, ta, tc, ft, act, sj >>
 
 MP6(self) == /\ pc[self] = "MP6"
              /\ pc' = [pc EXCEPT ![self] = "Ret"]
-             /\ UNCHANGED << st, nd, sk, pi, tasks, now, obs, script, ntop, 
+             /\ UNCHANGED << st, nd, sk, pi, fi, tasks, now, obs, script, ntop, 
                              panicked, done, stack, fr, to, m, lg, sx, jx, ch, 
                              lv, snap, ka, ca, gx, ex, nx, fx, bx, bc, tx, ta, 
                              tc, ft, act, sj >>
 
 MP7(self) == /\ pc[self] = "MP7"
              /\ pc' = [pc EXCEPT ![self] = "Ret"]
-             /\ UNCHANGED << st, nd, sk, pi, tasks, now, obs, script, ntop, 
+             /\ UNCHANGED << st, nd, sk, pi, fi, tasks, now, obs, script, ntop, 
                              panicked, done, stack, fr, to, m, lg, sx, jx, ch, 
                              lv, snap, ka, ca, gx, ex, nx, fx, bx, bc, tx, ta, 
                              tc, ft, act, sj >>
 
 MP8(self) == /\ pc[self] = "MP8"
              /\ pc' = [pc EXCEPT ![self] = "Ret"]
-             /\ UNCHANGED << st, nd, sk, pi, tasks, now, obs, script, ntop, 
+             /\ UNCHANGED << st, nd, sk, pi, fi, tasks, now, obs, script, ntop, 
                              panicked, done, stack, fr, to, m, lg, sx, jx, ch, 
                              lv, snap, ka, ca, gx, ex, nx, fx, bx, bc, tx, ta, 
                              tc, ft, act, sj >>
@@ -3413,13 +3592,13 @@ FI1(self) == /\ pc[self] = "FI1"
              /\ lv' = [lv EXCEPT ![self] = 0]
              /\ snap' = [snap EXCEPT ![self] = <<>>]
              /\ pc' = [pc EXCEPT ![self] = "DStart"]
-             /\ UNCHANGED << st, nd, sk, pi, tasks, now, obs, script, ntop, 
+             /\ UNCHANGED << st, nd, sk, pi, fi, tasks, now, obs, script, ntop, 
                              panicked, done, ka, ca, gx, ex, nx, fx, bx, bc, 
                              tx, ta, tc, ft, act, sj >>
 
 FI2(self) == /\ pc[self] = "FI2"
              /\ pc' = [pc EXCEPT ![self] = "Ret"]
-             /\ UNCHANGED << st, nd, sk, pi, tasks, now, obs, script, ntop, 
+             /\ UNCHANGED << st, nd, sk, pi, fi, tasks, now, obs, script, ntop, 
                              panicked, done, stack, fr, to, m, lg, sx, jx, ch, 
                              lv, snap, ka, ca, gx, ex, nx, fx, bx, bc, tx, ta, 
                              tc, ft, act, sj >>
@@ -3447,13 +3626,13 @@ FI3(self) == /\ pc[self] = "FI3"
              /\ lv' = [lv EXCEPT ![self] = 0]
              /\ snap' = [snap EXCEPT ![self] = <<>>]
              /\ pc' = [pc EXCEPT ![self] = "DStart"]
-             /\ UNCHANGED << st, nd, sk, pi, tasks, now, obs, script, ntop, 
+             /\ UNCHANGED << st, nd, sk, pi, fi, tasks, now, obs, script, ntop, 
                              panicked, done, ka, ca, gx, ex, nx, fx, bx, bc, 
                              tx, ta, tc, ft, act, sj >>
 
 FI4(self) == /\ pc[self] = "FI4"
              /\ pc' = [pc EXCEPT ![self] = "Ret"]
-             /\ UNCHANGED << st, nd, sk, pi, tasks, now, obs, script, ntop, 
+             /\ UNCHANGED << st, nd, sk, pi, fi, tasks, now, obs, script, ntop, 
                              panicked, done, stack, fr, to, m, lg, sx, jx, ch, 
                              lv, snap, ka, ca, gx, ex, nx, fx, bx, bc, tx, ta, 
                              tc, ft, act, sj >>
@@ -3513,27 +3692,27 @@ FI5(self) == /\ pc[self] = "FI5"
                                    /\ snap' = [snap EXCEPT ![self] = <<>>]
                                    /\ pc' = [pc EXCEPT ![self] = "DStart"]
                                    /\ UNCHANGED << obs, panicked >>
-             /\ UNCHANGED << st, nd, sk, pi, tasks, now, script, ntop, done, 
-                             ka, ca, gx, ex, nx, fx, bx, bc, tx, ta, tc, ft, 
-                             act, sj >>
+             /\ UNCHANGED << st, nd, sk, pi, fi, tasks, now, script, ntop, 
+                             done, ka, ca, gx, ex, nx, fx, bx, bc, tx, ta, tc, 
+                             ft, act, sj >>
 
 FI6(self) == /\ pc[self] = "FI6"
              /\ pc' = [pc EXCEPT ![self] = "Ret"]
-             /\ UNCHANGED << st, nd, sk, pi, tasks, now, obs, script, ntop, 
+             /\ UNCHANGED << st, nd, sk, pi, fi, tasks, now, obs, script, ntop, 
                              panicked, done, stack, fr, to, m, lg, sx, jx, ch, 
                              lv, snap, ka, ca, gx, ex, nx, fx, bx, bc, tx, ta, 
                              tc, ft, act, sj >>
 
 FI7(self) == /\ pc[self] = "FI7"
              /\ pc' = [pc EXCEPT ![self] = "Ret"]
-             /\ UNCHANGED << st, nd, sk, pi, tasks, now, obs, script, ntop, 
+             /\ UNCHANGED << st, nd, sk, pi, fi, tasks, now, obs, script, ntop, 
                              panicked, done, stack, fr, to, m, lg, sx, jx, ch, 
                              lv, snap, ka, ca, gx, ex, nx, fx, bx, bc, tx, ta, 
                              tc, ft, act, sj >>
 
 FI8(self) == /\ pc[self] = "FI8"
              /\ pc' = [pc EXCEPT ![self] = "Ret"]
-             /\ UNCHANGED << st, nd, sk, pi, tasks, now, obs, script, ntop, 
+             /\ UNCHANGED << st, nd, sk, pi, fi, tasks, now, obs, script, ntop, 
                              panicked, done, stack, fr, to, m, lg, sx, jx, ch, 
                              lv, snap, ka, ca, gx, ex, nx, fx, bx, bc, tx, ta, 
                              tc, ft, act, sj >>
@@ -3561,13 +3740,13 @@ SC1(self) == /\ pc[self] = "SC1"
              /\ lv' = [lv EXCEPT ![self] = 0]
              /\ snap' = [snap EXCEPT ![self] = <<>>]
              /\ pc' = [pc EXCEPT ![self] = "DStart"]
-             /\ UNCHANGED << st, nd, sk, pi, tasks, now, obs, script, ntop, 
+             /\ UNCHANGED << st, nd, sk, pi, fi, tasks, now, obs, script, ntop, 
                              panicked, done, ka, ca, gx, ex, nx, fx, bx, bc, 
                              tx, ta, tc, ft, act, sj >>
 
 SC2(self) == /\ pc[self] = "SC2"
              /\ pc' = [pc EXCEPT ![self] = "Ret"]
-             /\ UNCHANGED << st, nd, sk, pi, tasks, now, obs, script, ntop, 
+             /\ UNCHANGED << st, nd, sk, pi, fi, tasks, now, obs, script, ntop, 
                              panicked, done, stack, fr, to, m, lg, sx, jx, ch, 
                              lv, snap, ka, ca, gx, ex, nx, fx, bx, bc, tx, ta, 
                              tc, ft, act, sj >>
@@ -3595,13 +3774,13 @@ SC3(self) == /\ pc[self] = "SC3"
              /\ lv' = [lv EXCEPT ![self] = 0]
              /\ snap' = [snap EXCEPT ![self] = <<>>]
              /\ pc' = [pc EXCEPT ![self] = "DStart"]
-             /\ UNCHANGED << st, nd, sk, pi, tasks, now, obs, script, ntop, 
+             /\ UNCHANGED << st, nd, sk, pi, fi, tasks, now, obs, script, ntop, 
                              panicked, done, ka, ca, gx, ex, nx, fx, bx, bc, 
                              tx, ta, tc, ft, act, sj >>
 
 SC4(self) == /\ pc[self] = "SC4"
              /\ pc' = [pc EXCEPT ![self] = "Ret"]
-             /\ UNCHANGED << st, nd, sk, pi, tasks, now, obs, script, ntop, 
+             /\ UNCHANGED << st, nd, sk, pi, fi, tasks, now, obs, script, ntop, 
                              panicked, done, stack, fr, to, m, lg, sx, jx, ch, 
                              lv, snap, ka, ca, gx, ex, nx, fx, bx, bc, tx, ta, 
                              tc, ft, act, sj >>
@@ -3629,27 +3808,27 @@ SC5(self) == /\ pc[self] = "SC5"
              /\ lv' = [lv EXCEPT ![self] = 0]
              /\ snap' = [snap EXCEPT ![self] = <<>>]
              /\ pc' = [pc EXCEPT ![self] = "DStart"]
-             /\ UNCHANGED << st, nd, sk, pi, tasks, now, obs, script, ntop, 
+             /\ UNCHANGED << st, nd, sk, pi, fi, tasks, now, obs, script, ntop, 
                              panicked, done, ka, ca, gx, ex, nx, fx, bx, bc, 
                              tx, ta, tc, ft, act, sj >>
 
 SC6(self) == /\ pc[self] = "SC6"
              /\ pc' = [pc EXCEPT ![self] = "Ret"]
-             /\ UNCHANGED << st, nd, sk, pi, tasks, now, obs, script, ntop, 
+             /\ UNCHANGED << st, nd, sk, pi, fi, tasks, now, obs, script, ntop, 
                              panicked, done, stack, fr, to, m, lg, sx, jx, ch, 
                              lv, snap, ka, ca, gx, ex, nx, fx, bx, bc, tx, ta, 
                              tc, ft, act, sj >>
 
 SC7(self) == /\ pc[self] = "SC7"
              /\ pc' = [pc EXCEPT ![self] = "Ret"]
-             /\ UNCHANGED << st, nd, sk, pi, tasks, now, obs, script, ntop, 
+             /\ UNCHANGED << st, nd, sk, pi, fi, tasks, now, obs, script, ntop, 
                              panicked, done, stack, fr, to, m, lg, sx, jx, ch, 
                              lv, snap, ka, ca, gx, ex, nx, fx, bx, bc, tx, ta, 
                              tc, ft, act, sj >>
 
 SC8(self) == /\ pc[self] = "SC8"
              /\ pc' = [pc EXCEPT ![self] = "Ret"]
-             /\ UNCHANGED << st, nd, sk, pi, tasks, now, obs, script, ntop, 
+             /\ UNCHANGED << st, nd, sk, pi, fi, tasks, now, obs, script, ntop, 
                              panicked, done, stack, fr, to, m, lg, sx, jx, ch, 
                              lv, snap, ka, ca, gx, ex, nx, fx, bx, bc, tx, ta, 
                              tc, ft, act, sj >>
@@ -3677,13 +3856,13 @@ TK1(self) == /\ pc[self] = "TK1"
              /\ lv' = [lv EXCEPT ![self] = 0]
              /\ snap' = [snap EXCEPT ![self] = <<>>]
              /\ pc' = [pc EXCEPT ![self] = "DStart"]
-             /\ UNCHANGED << st, nd, sk, pi, tasks, now, obs, script, ntop, 
+             /\ UNCHANGED << st, nd, sk, pi, fi, tasks, now, obs, script, ntop, 
                              panicked, done, ka, ca, gx, ex, nx, fx, bx, bc, 
                              tx, ta, tc, ft, act, sj >>
 
 TK2(self) == /\ pc[self] = "TK2"
              /\ pc' = [pc EXCEPT ![self] = "Ret"]
-             /\ UNCHANGED << st, nd, sk, pi, tasks, now, obs, script, ntop, 
+             /\ UNCHANGED << st, nd, sk, pi, fi, tasks, now, obs, script, ntop, 
                              panicked, done, stack, fr, to, m, lg, sx, jx, ch, 
                              lv, snap, ka, ca, gx, ex, nx, fx, bx, bc, tx, ta, 
                              tc, ft, act, sj >>
@@ -3711,13 +3890,13 @@ TK3(self) == /\ pc[self] = "TK3"
              /\ lv' = [lv EXCEPT ![self] = 0]
              /\ snap' = [snap EXCEPT ![self] = <<>>]
              /\ pc' = [pc EXCEPT ![self] = "DStart"]
-             /\ UNCHANGED << st, nd, sk, pi, tasks, now, obs, script, ntop, 
+             /\ UNCHANGED << st, nd, sk, pi, fi, tasks, now, obs, script, ntop, 
                              panicked, done, ka, ca, gx, ex, nx, fx, bx, bc, 
                              tx, ta, tc, ft, act, sj >>
 
 TK4(self) == /\ pc[self] = "TK4"
              /\ pc' = [pc EXCEPT ![self] = "Ret"]
-             /\ UNCHANGED << st, nd, sk, pi, tasks, now, obs, script, ntop, 
+             /\ UNCHANGED << st, nd, sk, pi, fi, tasks, now, obs, script, ntop, 
                              panicked, done, stack, fr, to, m, lg, sx, jx, ch, 
                              lv, snap, ka, ca, gx, ex, nx, fx, bx, bc, tx, ta, 
                              tc, ft, act, sj >>
@@ -3726,19 +3905,20 @@ tk_taken_ld(self) == /\ pc[self] = "tk_taken_ld"
                      /\ IF S(to[self]).taken < Node(to[self].n).n
                            THEN /\ pc' = [pc EXCEPT ![self] = "tk_taken_fa"]
                            ELSE /\ pc' = [pc EXCEPT ![self] = "TK5"]
-                     /\ UNCHANGED << st, nd, sk, pi, tasks, now, obs, script, 
-                                     ntop, panicked, done, stack, fr, to, m, 
-                                     lg, sx, jx, ch, lv, snap, ka, ca, gx, ex, 
-                                     nx, fx, bx, bc, tx, ta, tc, ft, act, sj >>
+                     /\ UNCHANGED << st, nd, sk, pi, fi, tasks, now, obs, 
+                                     script, ntop, panicked, done, stack, fr, 
+                                     to, m, lg, sx, jx, ch, lv, snap, ka, ca, 
+                                     gx, ex, nx, fx, bx, bc, tx, ta, tc, ft, 
+                                     act, sj >>
 
 tk_taken_fa(self) == /\ pc[self] = "tk_taken_fa"
                      /\ lv' = [lv EXCEPT ![self] = S(to[self]).taken + 1]
                      /\ st' = [st EXCEPT ![to[self].n][to[self].s].taken = S(to[self]).taken + 1]
                      /\ pc' = [pc EXCEPT ![self] = "tk_data"]
-                     /\ UNCHANGED << nd, sk, pi, tasks, now, obs, script, ntop, 
-                                     panicked, done, stack, fr, to, m, lg, sx, 
-                                     jx, ch, snap, ka, ca, gx, ex, nx, fx, bx, 
-                                     bc, tx, ta, tc, ft, act, sj >>
+                     /\ UNCHANGED << nd, sk, pi, fi, tasks, now, obs, script, 
+                                     ntop, panicked, done, stack, fr, to, m, 
+                                     lg, sx, jx, ch, snap, ka, ca, gx, ex, nx, 
+                                     fx, bx, bc, tx, ta, tc, ft, act, sj >>
 
 tk_data(self) == /\ pc[self] = "tk_data"
                  /\ /\ fr' = [fr EXCEPT ![self] = "S"]
@@ -3763,15 +3943,15 @@ tk_data(self) == /\ pc[self] = "tk_data"
                  /\ lv' = [lv EXCEPT ![self] = 0]
                  /\ snap' = [snap EXCEPT ![self] = <<>>]
                  /\ pc' = [pc EXCEPT ![self] = "DStart"]
-                 /\ UNCHANGED << st, nd, sk, pi, tasks, now, obs, script, ntop, 
-                                 panicked, done, ka, ca, gx, ex, nx, fx, bx, 
-                                 bc, tx, ta, tc, ft, act, sj >>
+                 /\ UNCHANGED << st, nd, sk, pi, fi, tasks, now, obs, script, 
+                                 ntop, panicked, done, ka, ca, gx, ex, nx, fx, 
+                                 bx, bc, tx, ta, tc, ft, act, sj >>
 
 tk_end_ld(self) == /\ pc[self] = "tk_end_ld"
                    /\ IF lv[self] = Node(to[self].n).n /\ ~S(to[self]).end
                          THEN /\ pc' = [pc EXCEPT ![self] = "tk_end_st"]
                          ELSE /\ pc' = [pc EXCEPT ![self] = "TK5"]
-                   /\ UNCHANGED << st, nd, sk, pi, tasks, now, obs, script, 
+                   /\ UNCHANGED << st, nd, sk, pi, fi, tasks, now, obs, script, 
                                    ntop, panicked, done, stack, fr, to, m, lg, 
                                    sx, jx, ch, lv, snap, ka, ca, gx, ex, nx, 
                                    fx, bx, bc, tx, ta, tc, ft, act, sj >>
@@ -3779,10 +3959,10 @@ tk_end_ld(self) == /\ pc[self] = "tk_end_ld"
 tk_end_st(self) == /\ pc[self] = "tk_end_st"
                    /\ st' = [st EXCEPT ![to[self].n][to[self].s].end = TRUE]
                    /\ pc' = [pc EXCEPT ![self] = "tk_up_ld"]
-                   /\ UNCHANGED << nd, sk, pi, tasks, now, obs, script, ntop, 
-                                   panicked, done, stack, fr, to, m, lg, sx, 
-                                   jx, ch, lv, snap, ka, ca, gx, ex, nx, fx, 
-                                   bx, bc, tx, ta, tc, ft, act, sj >>
+                   /\ UNCHANGED << nd, sk, pi, fi, tasks, now, obs, script, 
+                                   ntop, panicked, done, stack, fr, to, m, lg, 
+                                   sx, jx, ch, lv, snap, ka, ca, gx, ex, nx, 
+                                   fx, bx, bc, tx, ta, tc, ft, act, sj >>
 
 tk_up_ld(self) == /\ pc[self] = "tk_up_ld"
                   /\ IF S(to[self]).utb = NoRef
@@ -3792,7 +3972,7 @@ tk_up_ld(self) == /\ pc[self] = "tk_up_ld"
                              /\ pc' = [pc EXCEPT ![self] = "Halt"]
                         ELSE /\ pc' = [pc EXCEPT ![self] = "tk_up_term"]
                              /\ UNCHANGED << obs, panicked >>
-                  /\ UNCHANGED << st, nd, sk, pi, tasks, now, script, ntop, 
+                  /\ UNCHANGED << st, nd, sk, pi, fi, tasks, now, script, ntop, 
                                   done, stack, fr, to, m, lg, sx, jx, ch, lv, 
                                   snap, ka, ca, gx, ex, nx, fx, bx, bc, tx, ta, 
                                   tc, ft, act, sj >>
@@ -3820,9 +4000,10 @@ tk_up_term(self) == /\ pc[self] = "tk_up_term"
                     /\ lv' = [lv EXCEPT ![self] = 0]
                     /\ snap' = [snap EXCEPT ![self] = <<>>]
                     /\ pc' = [pc EXCEPT ![self] = "DStart"]
-                    /\ UNCHANGED << st, nd, sk, pi, tasks, now, obs, script, 
-                                    ntop, panicked, done, ka, ca, gx, ex, nx, 
-                                    fx, bx, bc, tx, ta, tc, ft, act, sj >>
+                    /\ UNCHANGED << st, nd, sk, pi, fi, tasks, now, obs, 
+                                    script, ntop, panicked, done, ka, ca, gx, 
+                                    ex, nx, fx, bx, bc, tx, ta, tc, ft, act, 
+                                    sj >>
 
 tk_sink_term(self) == /\ pc[self] = "tk_sink_term"
                       /\ /\ fr' = [fr EXCEPT ![self] = "S"]
@@ -3847,27 +4028,28 @@ tk_sink_term(self) == /\ pc[self] = "tk_sink_term"
                       /\ lv' = [lv EXCEPT ![self] = 0]
                       /\ snap' = [snap EXCEPT ![self] = <<>>]
                       /\ pc' = [pc EXCEPT ![self] = "DStart"]
-                      /\ UNCHANGED << st, nd, sk, pi, tasks, now, obs, script, 
-                                      ntop, panicked, done, ka, ca, gx, ex, nx, 
-                                      fx, bx, bc, tx, ta, tc, ft, act, sj >>
+                      /\ UNCHANGED << st, nd, sk, pi, fi, tasks, now, obs, 
+                                      script, ntop, panicked, done, ka, ca, gx, 
+                                      ex, nx, fx, bx, bc, tx, ta, tc, ft, act, 
+                                      sj >>
 
 TK5(self) == /\ pc[self] = "TK5"
              /\ pc' = [pc EXCEPT ![self] = "Ret"]
-             /\ UNCHANGED << st, nd, sk, pi, tasks, now, obs, script, ntop, 
+             /\ UNCHANGED << st, nd, sk, pi, fi, tasks, now, obs, script, ntop, 
                              panicked, done, stack, fr, to, m, lg, sx, jx, ch, 
                              lv, snap, ka, ca, gx, ex, nx, fx, bx, bc, tx, ta, 
                              tc, ft, act, sj >>
 
 TK6(self) == /\ pc[self] = "TK6"
              /\ pc' = [pc EXCEPT ![self] = "Ret"]
-             /\ UNCHANGED << st, nd, sk, pi, tasks, now, obs, script, ntop, 
+             /\ UNCHANGED << st, nd, sk, pi, fi, tasks, now, obs, script, ntop, 
                              panicked, done, stack, fr, to, m, lg, sx, jx, ch, 
                              lv, snap, ka, ca, gx, ex, nx, fx, bx, bc, tx, ta, 
                              tc, ft, act, sj >>
 
 TK7(self) == /\ pc[self] = "TK7"
              /\ pc' = [pc EXCEPT ![self] = "Ret"]
-             /\ UNCHANGED << st, nd, sk, pi, tasks, now, obs, script, ntop, 
+             /\ UNCHANGED << st, nd, sk, pi, fi, tasks, now, obs, script, ntop, 
                              panicked, done, stack, fr, to, m, lg, sx, jx, ch, 
                              lv, snap, ka, ca, gx, ex, nx, fx, bx, bc, tx, ta, 
                              tc, ft, act, sj >>
@@ -3903,13 +4085,13 @@ TK8(self) == /\ pc[self] = "TK8"
                         /\ snap' = [snap EXCEPT ![self] = <<>>]
                         /\ pc' = [pc EXCEPT ![self] = "DStart"]
                         /\ UNCHANGED << obs, panicked >>
-             /\ UNCHANGED << st, nd, sk, pi, tasks, now, script, ntop, done, 
-                             ka, ca, gx, ex, nx, fx, bx, bc, tx, ta, tc, ft, 
-                             act, sj >>
+             /\ UNCHANGED << st, nd, sk, pi, fi, tasks, now, script, ntop, 
+                             done, ka, ca, gx, ex, nx, fx, bx, bc, tx, ta, tc, 
+                             ft, act, sj >>
 
 TK9(self) == /\ pc[self] = "TK9"
              /\ pc' = [pc EXCEPT ![self] = "Ret"]
-             /\ UNCHANGED << st, nd, sk, pi, tasks, now, obs, script, ntop, 
+             /\ UNCHANGED << st, nd, sk, pi, fi, tasks, now, obs, script, ntop, 
                              panicked, done, stack, fr, to, m, lg, sx, jx, ch, 
                              lv, snap, ka, ca, gx, ex, nx, fx, bx, bc, tx, ta, 
                              tc, ft, act, sj >>
@@ -3937,13 +4119,13 @@ SK1(self) == /\ pc[self] = "SK1"
              /\ lv' = [lv EXCEPT ![self] = 0]
              /\ snap' = [snap EXCEPT ![self] = <<>>]
              /\ pc' = [pc EXCEPT ![self] = "DStart"]
-             /\ UNCHANGED << st, nd, sk, pi, tasks, now, obs, script, ntop, 
+             /\ UNCHANGED << st, nd, sk, pi, fi, tasks, now, obs, script, ntop, 
                              panicked, done, ka, ca, gx, ex, nx, fx, bx, bc, 
                              tx, ta, tc, ft, act, sj >>
 
 SK2(self) == /\ pc[self] = "SK2"
              /\ pc' = [pc EXCEPT ![self] = "Ret"]
-             /\ UNCHANGED << st, nd, sk, pi, tasks, now, obs, script, ntop, 
+             /\ UNCHANGED << st, nd, sk, pi, fi, tasks, now, obs, script, ntop, 
                              panicked, done, stack, fr, to, m, lg, sx, jx, ch, 
                              lv, snap, ka, ca, gx, ex, nx, fx, bx, bc, tx, ta, 
                              tc, ft, act, sj >>
@@ -3971,20 +4153,20 @@ SK3(self) == /\ pc[self] = "SK3"
              /\ lv' = [lv EXCEPT ![self] = 0]
              /\ snap' = [snap EXCEPT ![self] = <<>>]
              /\ pc' = [pc EXCEPT ![self] = "DStart"]
-             /\ UNCHANGED << st, nd, sk, pi, tasks, now, obs, script, ntop, 
+             /\ UNCHANGED << st, nd, sk, pi, fi, tasks, now, obs, script, ntop, 
                              panicked, done, ka, ca, gx, ex, nx, fx, bx, bc, 
                              tx, ta, tc, ft, act, sj >>
 
 SK4(self) == /\ pc[self] = "SK4"
              /\ pc' = [pc EXCEPT ![self] = "Ret"]
-             /\ UNCHANGED << st, nd, sk, pi, tasks, now, obs, script, ntop, 
+             /\ UNCHANGED << st, nd, sk, pi, fi, tasks, now, obs, script, ntop, 
                              panicked, done, stack, fr, to, m, lg, sx, jx, ch, 
                              lv, snap, ka, ca, gx, ex, nx, fx, bx, bc, tx, ta, 
                              tc, ft, act, sj >>
 
 SK6(self) == /\ pc[self] = "SK6"
              /\ pc' = [pc EXCEPT ![self] = "Ret"]
-             /\ UNCHANGED << st, nd, sk, pi, tasks, now, obs, script, ntop, 
+             /\ UNCHANGED << st, nd, sk, pi, fi, tasks, now, obs, script, ntop, 
                              panicked, done, stack, fr, to, m, lg, sx, jx, ch, 
                              lv, snap, ka, ca, gx, ex, nx, fx, bx, bc, tx, ta, 
                              tc, ft, act, sj >>
@@ -4020,20 +4202,20 @@ SK5(self) == /\ pc[self] = "SK5"
                         /\ snap' = [snap EXCEPT ![self] = <<>>]
                         /\ pc' = [pc EXCEPT ![self] = "DStart"]
                         /\ UNCHANGED << obs, panicked >>
-             /\ UNCHANGED << st, nd, sk, pi, tasks, now, script, ntop, done, 
-                             ka, ca, gx, ex, nx, fx, bx, bc, tx, ta, tc, ft, 
-                             act, sj >>
+             /\ UNCHANGED << st, nd, sk, pi, fi, tasks, now, script, ntop, 
+                             done, ka, ca, gx, ex, nx, fx, bx, bc, tx, ta, tc, 
+                             ft, act, sj >>
 
 SK7(self) == /\ pc[self] = "SK7"
              /\ pc' = [pc EXCEPT ![self] = "Ret"]
-             /\ UNCHANGED << st, nd, sk, pi, tasks, now, obs, script, ntop, 
+             /\ UNCHANGED << st, nd, sk, pi, fi, tasks, now, obs, script, ntop, 
                              panicked, done, stack, fr, to, m, lg, sx, jx, ch, 
                              lv, snap, ka, ca, gx, ex, nx, fx, bx, bc, tx, ta, 
                              tc, ft, act, sj >>
 
 SK8(self) == /\ pc[self] = "SK8"
              /\ pc' = [pc EXCEPT ![self] = "Ret"]
-             /\ UNCHANGED << st, nd, sk, pi, tasks, now, obs, script, ntop, 
+             /\ UNCHANGED << st, nd, sk, pi, fi, tasks, now, obs, script, ntop, 
                              panicked, done, stack, fr, to, m, lg, sx, jx, ch, 
                              lv, snap, ka, ca, gx, ex, nx, fx, bx, bc, tx, ta, 
                              tc, ft, act, sj >>
@@ -4065,14 +4247,14 @@ MG1(self) == /\ pc[self] = "MG1"
                    ELSE /\ pc' = [pc EXCEPT ![self] = "Ret"]
                         /\ UNCHANGED << stack, fr, to, m, lg, sx, jx, ch, lv, 
                                         snap >>
-             /\ UNCHANGED << st, nd, sk, pi, tasks, now, obs, script, ntop, 
+             /\ UNCHANGED << st, nd, sk, pi, fi, tasks, now, obs, script, ntop, 
                              panicked, done, ka, ca, gx, ex, nx, fx, bx, bc, 
                              tx, ta, tc, ft, act, sj >>
 
 MG2(self) == /\ pc[self] = "MG2"
              /\ jx' = [jx EXCEPT ![self] = jx[self] + 1]
              /\ pc' = [pc EXCEPT ![self] = "MG1"]
-             /\ UNCHANGED << st, nd, sk, pi, tasks, now, obs, script, ntop, 
+             /\ UNCHANGED << st, nd, sk, pi, fi, tasks, now, obs, script, ntop, 
                              panicked, done, stack, fr, to, m, lg, sx, ch, lv, 
                              snap, ka, ca, gx, ex, nx, fx, bx, bc, tx, ta, tc, 
                              ft, act, sj >>
@@ -4118,14 +4300,14 @@ MG8(self) == /\ pc[self] = "MG8"
                    ELSE /\ pc' = [pc EXCEPT ![self] = "Ret"]
                         /\ UNCHANGED << obs, panicked, stack, fr, to, m, lg, 
                                         sx, jx, ch, lv, snap >>
-             /\ UNCHANGED << st, nd, sk, pi, tasks, now, script, ntop, done, 
-                             ka, ca, gx, ex, nx, fx, bx, bc, tx, ta, tc, ft, 
-                             act, sj >>
+             /\ UNCHANGED << st, nd, sk, pi, fi, tasks, now, script, ntop, 
+                             done, ka, ca, gx, ex, nx, fx, bx, bc, tx, ta, tc, 
+                             ft, act, sj >>
 
 MG9(self) == /\ pc[self] = "MG9"
              /\ jx' = [jx EXCEPT ![self] = jx[self] + 1]
              /\ pc' = [pc EXCEPT ![self] = "MG8"]
-             /\ UNCHANGED << st, nd, sk, pi, tasks, now, obs, script, ntop, 
+             /\ UNCHANGED << st, nd, sk, pi, fi, tasks, now, obs, script, ntop, 
                              panicked, done, stack, fr, to, m, lg, sx, ch, lv, 
                              snap, ka, ca, gx, ex, nx, fx, bx, bc, tx, ta, tc, 
                              ft, act, sj >>
@@ -4157,33 +4339,35 @@ mg_late_ld(self) == /\ pc[self] = "mg_late_ld"
                           ELSE /\ pc' = [pc EXCEPT ![self] = "mg_tb_st"]
                                /\ UNCHANGED << stack, fr, to, m, lg, sx, jx, 
                                                ch, lv, snap >>
-                    /\ UNCHANGED << st, nd, sk, pi, tasks, now, obs, script, 
-                                    ntop, panicked, done, ka, ca, gx, ex, nx, 
-                                    fx, bx, bc, tx, ta, tc, ft, act, sj >>
+                    /\ UNCHANGED << st, nd, sk, pi, fi, tasks, now, obs, 
+                                    script, ntop, panicked, done, ka, ca, gx, 
+                                    ex, nx, fx, bx, bc, tx, ta, tc, ft, act, 
+                                    sj >>
 
 mg_late_ret(self) == /\ pc[self] = "mg_late_ret"
                      /\ pc' = [pc EXCEPT ![self] = "Ret"]
-                     /\ UNCHANGED << st, nd, sk, pi, tasks, now, obs, script, 
-                                     ntop, panicked, done, stack, fr, to, m, 
-                                     lg, sx, jx, ch, lv, snap, ka, ca, gx, ex, 
-                                     nx, fx, bx, bc, tx, ta, tc, ft, act, sj >>
+                     /\ UNCHANGED << st, nd, sk, pi, fi, tasks, now, obs, 
+                                     script, ntop, panicked, done, stack, fr, 
+                                     to, m, lg, sx, jx, ch, lv, snap, ka, ca, 
+                                     gx, ex, nx, fx, bx, bc, tx, ta, tc, ft, 
+                                     act, sj >>
 
 mg_tb_st(self) == /\ pc[self] = "mg_tb_st"
                   /\ st' = [st EXCEPT ![to[self].n][to[self].s].tbs[to[self].i] = m[self].tb]
                   /\ pc' = [pc EXCEPT ![self] = "mg_start_fa"]
-                  /\ UNCHANGED << nd, sk, pi, tasks, now, obs, script, ntop, 
-                                  panicked, done, stack, fr, to, m, lg, sx, jx, 
-                                  ch, lv, snap, ka, ca, gx, ex, nx, fx, bx, bc, 
-                                  tx, ta, tc, ft, act, sj >>
+                  /\ UNCHANGED << nd, sk, pi, fi, tasks, now, obs, script, 
+                                  ntop, panicked, done, stack, fr, to, m, lg, 
+                                  sx, jx, ch, lv, snap, ka, ca, gx, ex, nx, fx, 
+                                  bx, bc, tx, ta, tc, ft, act, sj >>
 
 mg_start_fa(self) == /\ pc[self] = "mg_start_fa"
                      /\ lv' = [lv EXCEPT ![self] = S(to[self]).start + 1]
                      /\ st' = [st EXCEPT ![to[self].n][to[self].s].start = S(to[self]).start + 1]
                      /\ pc' = [pc EXCEPT ![self] = "mg_greet"]
-                     /\ UNCHANGED << nd, sk, pi, tasks, now, obs, script, ntop, 
-                                     panicked, done, stack, fr, to, m, lg, sx, 
-                                     jx, ch, snap, ka, ca, gx, ex, nx, fx, bx, 
-                                     bc, tx, ta, tc, ft, act, sj >>
+                     /\ UNCHANGED << nd, sk, pi, fi, tasks, now, obs, script, 
+                                     ntop, panicked, done, stack, fr, to, m, 
+                                     lg, sx, jx, ch, snap, ka, ca, gx, ex, nx, 
+                                     fx, bx, bc, tx, ta, tc, ft, act, sj >>
 
 mg_greet(self) == /\ pc[self] = "mg_greet"
                   /\ IF lv[self] = 1
@@ -4212,13 +4396,13 @@ mg_greet(self) == /\ pc[self] = "mg_greet"
                         ELSE /\ pc' = [pc EXCEPT ![self] = "MG3"]
                              /\ UNCHANGED << stack, fr, to, m, lg, sx, jx, ch, 
                                              lv, snap >>
-                  /\ UNCHANGED << st, nd, sk, pi, tasks, now, obs, script, 
+                  /\ UNCHANGED << st, nd, sk, pi, fi, tasks, now, obs, script, 
                                   ntop, panicked, done, ka, ca, gx, ex, nx, fx, 
                                   bx, bc, tx, ta, tc, ft, act, sj >>
 
 MG3(self) == /\ pc[self] = "MG3"
              /\ pc' = [pc EXCEPT ![self] = "Ret"]
-             /\ UNCHANGED << st, nd, sk, pi, tasks, now, obs, script, ntop, 
+             /\ UNCHANGED << st, nd, sk, pi, fi, tasks, now, obs, script, ntop, 
                              panicked, done, stack, fr, to, m, lg, sx, jx, ch, 
                              lv, snap, ka, ca, gx, ex, nx, fx, bx, bc, tx, ta, 
                              tc, ft, act, sj >>
@@ -4246,13 +4430,13 @@ mg_data(self) == /\ pc[self] = "mg_data"
                  /\ lv' = [lv EXCEPT ![self] = 0]
                  /\ snap' = [snap EXCEPT ![self] = <<>>]
                  /\ pc' = [pc EXCEPT ![self] = "DStart"]
-                 /\ UNCHANGED << st, nd, sk, pi, tasks, now, obs, script, ntop, 
-                                 panicked, done, ka, ca, gx, ex, nx, fx, bx, 
-                                 bc, tx, ta, tc, ft, act, sj >>
+                 /\ UNCHANGED << st, nd, sk, pi, fi, tasks, now, obs, script, 
+                                 ntop, panicked, done, ka, ca, gx, ex, nx, fx, 
+                                 bx, bc, tx, ta, tc, ft, act, sj >>
 
 MG4(self) == /\ pc[self] = "MG4"
              /\ pc' = [pc EXCEPT ![self] = "Ret"]
-             /\ UNCHANGED << st, nd, sk, pi, tasks, now, obs, script, ntop, 
+             /\ UNCHANGED << st, nd, sk, pi, fi, tasks, now, obs, script, ntop, 
                              panicked, done, stack, fr, to, m, lg, sx, jx, ch, 
                              lv, snap, ka, ca, gx, ex, nx, fx, bx, bc, tx, ta, 
                              tc, ft, act, sj >>
@@ -4261,10 +4445,10 @@ mg_ended_st(self) == /\ pc[self] = "mg_ended_st"
                      /\ st' = [st EXCEPT ![to[self].n][to[self].s].ended = TRUE]
                      /\ jx' = [jx EXCEPT ![self] = 1]
                      /\ pc' = [pc EXCEPT ![self] = "mg_sib_ld"]
-                     /\ UNCHANGED << nd, sk, pi, tasks, now, obs, script, ntop, 
-                                     panicked, done, stack, fr, to, m, lg, sx, 
-                                     ch, lv, snap, ka, ca, gx, ex, nx, fx, bx, 
-                                     bc, tx, ta, tc, ft, act, sj >>
+                     /\ UNCHANGED << nd, sk, pi, fi, tasks, now, obs, script, 
+                                     ntop, panicked, done, stack, fr, to, m, 
+                                     lg, sx, ch, lv, snap, ka, ca, gx, ex, nx, 
+                                     fx, bx, bc, tx, ta, tc, ft, act, sj >>
 
 mg_sib_ld(self) == /\ pc[self] = "mg_sib_ld"
                    /\ IF jx[self] <= Len(Ups(to[self].n))
@@ -4272,7 +4456,7 @@ mg_sib_ld(self) == /\ pc[self] = "mg_sib_ld"
                                     THEN /\ pc' = [pc EXCEPT ![self] = "mg_sib_term"]
                                     ELSE /\ pc' = [pc EXCEPT ![self] = "MG5"]
                          ELSE /\ pc' = [pc EXCEPT ![self] = "mg_err"]
-                   /\ UNCHANGED << st, nd, sk, pi, tasks, now, obs, script, 
+                   /\ UNCHANGED << st, nd, sk, pi, fi, tasks, now, obs, script, 
                                    ntop, panicked, done, stack, fr, to, m, lg, 
                                    sx, jx, ch, lv, snap, ka, ca, gx, ex, nx, 
                                    fx, bx, bc, tx, ta, tc, ft, act, sj >>
@@ -4280,7 +4464,7 @@ mg_sib_ld(self) == /\ pc[self] = "mg_sib_ld"
 MG5(self) == /\ pc[self] = "MG5"
              /\ jx' = [jx EXCEPT ![self] = jx[self] + 1]
              /\ pc' = [pc EXCEPT ![self] = "mg_sib_ld"]
-             /\ UNCHANGED << st, nd, sk, pi, tasks, now, obs, script, ntop, 
+             /\ UNCHANGED << st, nd, sk, pi, fi, tasks, now, obs, script, ntop, 
                              panicked, done, stack, fr, to, m, lg, sx, ch, lv, 
                              snap, ka, ca, gx, ex, nx, fx, bx, bc, tx, ta, tc, 
                              ft, act, sj >>
@@ -4308,9 +4492,10 @@ mg_sib_term(self) == /\ pc[self] = "mg_sib_term"
                      /\ lv' = [lv EXCEPT ![self] = 0]
                      /\ snap' = [snap EXCEPT ![self] = <<>>]
                      /\ pc' = [pc EXCEPT ![self] = "DStart"]
-                     /\ UNCHANGED << st, nd, sk, pi, tasks, now, obs, script, 
-                                     ntop, panicked, done, ka, ca, gx, ex, nx, 
-                                     fx, bx, bc, tx, ta, tc, ft, act, sj >>
+                     /\ UNCHANGED << st, nd, sk, pi, fi, tasks, now, obs, 
+                                     script, ntop, panicked, done, ka, ca, gx, 
+                                     ex, nx, fx, bx, bc, tx, ta, tc, ft, act, 
+                                     sj >>
 
 mg_err(self) == /\ pc[self] = "mg_err"
                 /\ /\ fr' = [fr EXCEPT ![self] = "S"]
@@ -4335,13 +4520,13 @@ mg_err(self) == /\ pc[self] = "mg_err"
                 /\ lv' = [lv EXCEPT ![self] = 0]
                 /\ snap' = [snap EXCEPT ![self] = <<>>]
                 /\ pc' = [pc EXCEPT ![self] = "DStart"]
-                /\ UNCHANGED << st, nd, sk, pi, tasks, now, obs, script, ntop, 
-                                panicked, done, ka, ca, gx, ex, nx, fx, bx, bc, 
-                                tx, ta, tc, ft, act, sj >>
+                /\ UNCHANGED << st, nd, sk, pi, fi, tasks, now, obs, script, 
+                                ntop, panicked, done, ka, ca, gx, ex, nx, fx, 
+                                bx, bc, tx, ta, tc, ft, act, sj >>
 
 MG6(self) == /\ pc[self] = "MG6"
              /\ pc' = [pc EXCEPT ![self] = "Ret"]
-             /\ UNCHANGED << st, nd, sk, pi, tasks, now, obs, script, ntop, 
+             /\ UNCHANGED << st, nd, sk, pi, fi, tasks, now, obs, script, ntop, 
                              panicked, done, stack, fr, to, m, lg, sx, jx, ch, 
                              lv, snap, ka, ca, gx, ex, nx, fx, bx, bc, tx, ta, 
                              tc, ft, act, sj >>
@@ -4349,19 +4534,19 @@ MG6(self) == /\ pc[self] = "MG6"
 mg_tb_clr(self) == /\ pc[self] = "mg_tb_clr"
                    /\ st' = [st EXCEPT ![to[self].n][to[self].s].tbs[to[self].i] = NoRef]
                    /\ pc' = [pc EXCEPT ![self] = "mg_end_fa"]
-                   /\ UNCHANGED << nd, sk, pi, tasks, now, obs, script, ntop, 
-                                   panicked, done, stack, fr, to, m, lg, sx, 
-                                   jx, ch, lv, snap, ka, ca, gx, ex, nx, fx, 
-                                   bx, bc, tx, ta, tc, ft, act, sj >>
+                   /\ UNCHANGED << nd, sk, pi, fi, tasks, now, obs, script, 
+                                   ntop, panicked, done, stack, fr, to, m, lg, 
+                                   sx, jx, ch, lv, snap, ka, ca, gx, ex, nx, 
+                                   fx, bx, bc, tx, ta, tc, ft, act, sj >>
 
 mg_end_fa(self) == /\ pc[self] = "mg_end_fa"
                    /\ lv' = [lv EXCEPT ![self] = S(to[self]).endc + 1]
                    /\ st' = [st EXCEPT ![to[self].n][to[self].s].endc = S(to[self]).endc + 1]
                    /\ pc' = [pc EXCEPT ![self] = "mg_term"]
-                   /\ UNCHANGED << nd, sk, pi, tasks, now, obs, script, ntop, 
-                                   panicked, done, stack, fr, to, m, lg, sx, 
-                                   jx, ch, snap, ka, ca, gx, ex, nx, fx, bx, 
-                                   bc, tx, ta, tc, ft, act, sj >>
+                   /\ UNCHANGED << nd, sk, pi, fi, tasks, now, obs, script, 
+                                   ntop, panicked, done, stack, fr, to, m, lg, 
+                                   sx, jx, ch, snap, ka, ca, gx, ex, nx, fx, 
+                                   bx, bc, tx, ta, tc, ft, act, sj >>
 
 mg_term(self) == /\ pc[self] = "mg_term"
                  /\ IF lv[self] = Len(Ups(to[self].n))
@@ -4390,13 +4575,13 @@ mg_term(self) == /\ pc[self] = "mg_term"
                        ELSE /\ pc' = [pc EXCEPT ![self] = "MG7"]
                             /\ UNCHANGED << stack, fr, to, m, lg, sx, jx, ch, 
                                             lv, snap >>
-                 /\ UNCHANGED << st, nd, sk, pi, tasks, now, obs, script, ntop, 
-                                 panicked, done, ka, ca, gx, ex, nx, fx, bx, 
-                                 bc, tx, ta, tc, ft, act, sj >>
+                 /\ UNCHANGED << st, nd, sk, pi, fi, tasks, now, obs, script, 
+                                 ntop, panicked, done, ka, ca, gx, ex, nx, fx, 
+                                 bx, bc, tx, ta, tc, ft, act, sj >>
 
 MG7(self) == /\ pc[self] = "MG7"
              /\ pc' = [pc EXCEPT ![self] = "Ret"]
-             /\ UNCHANGED << st, nd, sk, pi, tasks, now, obs, script, ntop, 
+             /\ UNCHANGED << st, nd, sk, pi, fi, tasks, now, obs, script, ntop, 
                              panicked, done, stack, fr, to, m, lg, sx, jx, ch, 
                              lv, snap, ka, ca, gx, ex, nx, fx, bx, bc, tx, ta, 
                              tc, ft, act, sj >>
@@ -4447,13 +4632,13 @@ CCNext(self) == /\ pc[self] = "CCNext"
                            /\ lv' = [lv EXCEPT ![self] = 0]
                            /\ snap' = [snap EXCEPT ![self] = <<>>]
                            /\ pc' = [pc EXCEPT ![self] = "DStart"]
-                /\ UNCHANGED << st, nd, sk, pi, tasks, now, obs, script, ntop, 
-                                panicked, done, ka, ca, gx, ex, nx, fx, bx, bc, 
-                                tx, ta, tc, ft, act, sj >>
+                /\ UNCHANGED << st, nd, sk, pi, fi, tasks, now, obs, script, 
+                                ntop, panicked, done, ka, ca, gx, ex, nx, fx, 
+                                bx, bc, tx, ta, tc, ft, act, sj >>
 
 CC7(self) == /\ pc[self] = "CC7"
              /\ pc' = [pc EXCEPT ![self] = "Ret"]
-             /\ UNCHANGED << st, nd, sk, pi, tasks, now, obs, script, ntop, 
+             /\ UNCHANGED << st, nd, sk, pi, fi, tasks, now, obs, script, ntop, 
                              panicked, done, stack, fr, to, m, lg, sx, jx, ch, 
                              lv, snap, ka, ca, gx, ex, nx, fx, bx, bc, tx, ta, 
                              tc, ft, act, sj >>
@@ -4508,27 +4693,27 @@ CC1(self) == /\ pc[self] = "CC1"
                               ELSE /\ pc' = [pc EXCEPT ![self] = "CC2"]
                                    /\ UNCHANGED << stack, fr, to, m, lg, sx, 
                                                    jx, ch, lv, snap >>
-             /\ UNCHANGED << st, nd, sk, pi, tasks, now, obs, script, ntop, 
+             /\ UNCHANGED << st, nd, sk, pi, fi, tasks, now, obs, script, ntop, 
                              panicked, done, ka, ca, gx, ex, nx, fx, bx, bc, 
                              tx, ta, tc, ft, act, sj >>
 
 CC2(self) == /\ pc[self] = "CC2"
              /\ pc' = [pc EXCEPT ![self] = "Ret"]
-             /\ UNCHANGED << st, nd, sk, pi, tasks, now, obs, script, ntop, 
+             /\ UNCHANGED << st, nd, sk, pi, fi, tasks, now, obs, script, ntop, 
                              panicked, done, stack, fr, to, m, lg, sx, jx, ch, 
                              lv, snap, ka, ca, gx, ex, nx, fx, bx, bc, tx, ta, 
                              tc, ft, act, sj >>
 
 CC3(self) == /\ pc[self] = "CC3"
              /\ pc' = [pc EXCEPT ![self] = "Ret"]
-             /\ UNCHANGED << st, nd, sk, pi, tasks, now, obs, script, ntop, 
+             /\ UNCHANGED << st, nd, sk, pi, fi, tasks, now, obs, script, ntop, 
                              panicked, done, stack, fr, to, m, lg, sx, jx, ch, 
                              lv, snap, ka, ca, gx, ex, nx, fx, bx, bc, tx, ta, 
                              tc, ft, act, sj >>
 
 CC4(self) == /\ pc[self] = "CC4"
              /\ pc' = [pc EXCEPT ![self] = "Ret"]
-             /\ UNCHANGED << st, nd, sk, pi, tasks, now, obs, script, ntop, 
+             /\ UNCHANGED << st, nd, sk, pi, fi, tasks, now, obs, script, ntop, 
                              panicked, done, stack, fr, to, m, lg, sx, jx, ch, 
                              lv, snap, ka, ca, gx, ex, nx, fx, bx, bc, tx, ta, 
                              tc, ft, act, sj >>
@@ -4564,13 +4749,13 @@ CC5(self) == /\ pc[self] = "CC5"
                         /\ snap' = [snap EXCEPT ![self] = <<>>]
                         /\ pc' = [pc EXCEPT ![self] = "DStart"]
                         /\ UNCHANGED << obs, panicked >>
-             /\ UNCHANGED << st, nd, sk, pi, tasks, now, script, ntop, done, 
-                             ka, ca, gx, ex, nx, fx, bx, bc, tx, ta, tc, ft, 
-                             act, sj >>
+             /\ UNCHANGED << st, nd, sk, pi, fi, tasks, now, script, ntop, 
+                             done, ka, ca, gx, ex, nx, fx, bx, bc, tx, ta, tc, 
+                             ft, act, sj >>
 
 CC6(self) == /\ pc[self] = "CC6"
              /\ pc' = [pc EXCEPT ![self] = "Ret"]
-             /\ UNCHANGED << st, nd, sk, pi, tasks, now, obs, script, ntop, 
+             /\ UNCHANGED << st, nd, sk, pi, fi, tasks, now, obs, script, ntop, 
                              panicked, done, stack, fr, to, m, lg, sx, jx, ch, 
                              lv, snap, ka, ca, gx, ex, nx, fx, bx, bc, tx, ta, 
                              tc, ft, act, sj >>
@@ -4602,14 +4787,14 @@ CB1(self) == /\ pc[self] = "CB1"
                    ELSE /\ pc' = [pc EXCEPT ![self] = "Ret"]
                         /\ UNCHANGED << stack, fr, to, m, lg, sx, jx, ch, lv, 
                                         snap >>
-             /\ UNCHANGED << st, nd, sk, pi, tasks, now, obs, script, ntop, 
+             /\ UNCHANGED << st, nd, sk, pi, fi, tasks, now, obs, script, ntop, 
                              panicked, done, ka, ca, gx, ex, nx, fx, bx, bc, 
                              tx, ta, tc, ft, act, sj >>
 
 CB2(self) == /\ pc[self] = "CB2"
              /\ jx' = [jx EXCEPT ![self] = jx[self] + 1]
              /\ pc' = [pc EXCEPT ![self] = "CB1"]
-             /\ UNCHANGED << st, nd, sk, pi, tasks, now, obs, script, ntop, 
+             /\ UNCHANGED << st, nd, sk, pi, fi, tasks, now, obs, script, ntop, 
                              panicked, done, stack, fr, to, m, lg, sx, ch, lv, 
                              snap, ka, ca, gx, ex, nx, fx, bx, bc, tx, ta, tc, 
                              ft, act, sj >>
@@ -4617,19 +4802,19 @@ CB2(self) == /\ pc[self] = "CB2"
 cb_tb_st(self) == /\ pc[self] = "cb_tb_st"
                   /\ st' = [st EXCEPT ![to[self].n][to[self].s].tbs[to[self].i] = m[self].tb]
                   /\ pc' = [pc EXCEPT ![self] = "cb_start_fs"]
-                  /\ UNCHANGED << nd, sk, pi, tasks, now, obs, script, ntop, 
-                                  panicked, done, stack, fr, to, m, lg, sx, jx, 
-                                  ch, lv, snap, ka, ca, gx, ex, nx, fx, bx, bc, 
-                                  tx, ta, tc, ft, act, sj >>
+                  /\ UNCHANGED << nd, sk, pi, fi, tasks, now, obs, script, 
+                                  ntop, panicked, done, stack, fr, to, m, lg, 
+                                  sx, jx, ch, lv, snap, ka, ca, gx, ex, nx, fx, 
+                                  bx, bc, tx, ta, tc, ft, act, sj >>
 
 cb_start_fs(self) == /\ pc[self] = "cb_start_fs"
                      /\ lv' = [lv EXCEPT ![self] = S(to[self]).nstart - 1]
                      /\ st' = [st EXCEPT ![to[self].n][to[self].s].nstart = S(to[self]).nstart - 1]
                      /\ pc' = [pc EXCEPT ![self] = "cb_greet"]
-                     /\ UNCHANGED << nd, sk, pi, tasks, now, obs, script, ntop, 
-                                     panicked, done, stack, fr, to, m, lg, sx, 
-                                     jx, ch, snap, ka, ca, gx, ex, nx, fx, bx, 
-                                     bc, tx, ta, tc, ft, act, sj >>
+                     /\ UNCHANGED << nd, sk, pi, fi, tasks, now, obs, script, 
+                                     ntop, panicked, done, stack, fr, to, m, 
+                                     lg, sx, jx, ch, snap, ka, ca, gx, ex, nx, 
+                                     fx, bx, bc, tx, ta, tc, ft, act, sj >>
 
 cb_greet(self) == /\ pc[self] = "cb_greet"
                   /\ IF lv[self] = 0
@@ -4658,13 +4843,13 @@ cb_greet(self) == /\ pc[self] = "cb_greet"
                         ELSE /\ pc' = [pc EXCEPT ![self] = "CB3"]
                              /\ UNCHANGED << stack, fr, to, m, lg, sx, jx, ch, 
                                              lv, snap >>
-                  /\ UNCHANGED << st, nd, sk, pi, tasks, now, obs, script, 
+                  /\ UNCHANGED << st, nd, sk, pi, fi, tasks, now, obs, script, 
                                   ntop, panicked, done, ka, ca, gx, ex, nx, fx, 
                                   bx, bc, tx, ta, tc, ft, act, sj >>
 
 CB3(self) == /\ pc[self] = "CB3"
              /\ pc' = [pc EXCEPT ![self] = "Ret"]
-             /\ UNCHANGED << st, nd, sk, pi, tasks, now, obs, script, ntop, 
+             /\ UNCHANGED << st, nd, sk, pi, fi, tasks, now, obs, script, ntop, 
                              panicked, done, stack, fr, to, m, lg, sx, jx, ch, 
                              lv, snap, ka, ca, gx, ex, nx, fx, bx, bc, tx, ta, 
                              tc, ft, act, sj >>
@@ -4673,32 +4858,34 @@ cb_vals_ld(self) == /\ pc[self] = "cb_vals_ld"
                     /\ IF ~S(to[self]).has[to[self].i]
                           THEN /\ pc' = [pc EXCEPT ![self] = "cb_ndata_fs"]
                           ELSE /\ pc' = [pc EXCEPT ![self] = "cb_ndata_ld"]
-                    /\ UNCHANGED << st, nd, sk, pi, tasks, now, obs, script, 
-                                    ntop, panicked, done, stack, fr, to, m, lg, 
-                                    sx, jx, ch, lv, snap, ka, ca, gx, ex, nx, 
-                                    fx, bx, bc, tx, ta, tc, ft, act, sj >>
+                    /\ UNCHANGED << st, nd, sk, pi, fi, tasks, now, obs, 
+                                    script, ntop, panicked, done, stack, fr, 
+                                    to, m, lg, sx, jx, ch, lv, snap, ka, ca, 
+                                    gx, ex, nx, fx, bx, bc, tx, ta, tc, ft, 
+                                    act, sj >>
 
 cb_ndata_fs(self) == /\ pc[self] = "cb_ndata_fs"
                      /\ lv' = [lv EXCEPT ![self] = S(to[self]).ndata - 1]
                      /\ st' = [st EXCEPT ![to[self].n][to[self].s].ndata = S(to[self]).ndata - 1]
                      /\ pc' = [pc EXCEPT ![self] = "cb_rcu"]
-                     /\ UNCHANGED << nd, sk, pi, tasks, now, obs, script, ntop, 
-                                     panicked, done, stack, fr, to, m, lg, sx, 
-                                     jx, ch, snap, ka, ca, gx, ex, nx, fx, bx, 
-                                     bc, tx, ta, tc, ft, act, sj >>
-
-cb_ndata_ld(self) == /\ pc[self] = "cb_ndata_ld"
-                     /\ lv' = [lv EXCEPT ![self] = S(to[self]).ndata]
-                     /\ pc' = [pc EXCEPT ![self] = "cb_rcu"]
-                     /\ UNCHANGED << st, nd, sk, pi, tasks, now, obs, script, 
+                     /\ UNCHANGED << nd, sk, pi, fi, tasks, now, obs, script, 
                                      ntop, panicked, done, stack, fr, to, m, 
                                      lg, sx, jx, ch, snap, ka, ca, gx, ex, nx, 
                                      fx, bx, bc, tx, ta, tc, ft, act, sj >>
 
+cb_ndata_ld(self) == /\ pc[self] = "cb_ndata_ld"
+                     /\ lv' = [lv EXCEPT ![self] = S(to[self]).ndata]
+                     /\ pc' = [pc EXCEPT ![self] = "cb_rcu"]
+                     /\ UNCHANGED << st, nd, sk, pi, fi, tasks, now, obs, 
+                                     script, ntop, panicked, done, stack, fr, 
+                                     to, m, lg, sx, jx, ch, snap, ka, ca, gx, 
+                                     ex, nx, fx, bx, bc, tx, ta, tc, ft, act, 
+                                     sj >>
+
 cb_rcu(self) == /\ pc[self] = "cb_rcu"
                 /\ st' = [st EXCEPT ![to[self].n][to[self].s] = [S(to[self]) EXCEPT !.has[to[self].i] = TRUE, !.vals[to[self].i] = m[self].v]]
                 /\ pc' = [pc EXCEPT ![self] = "cb_emit_ld"]
-                /\ UNCHANGED << nd, sk, pi, tasks, now, obs, script, ntop, 
+                /\ UNCHANGED << nd, sk, pi, fi, tasks, now, obs, script, ntop, 
                                 panicked, done, stack, fr, to, m, lg, sx, jx, 
                                 ch, lv, snap, ka, ca, gx, ex, nx, fx, bx, bc, 
                                 tx, ta, tc, ft, act, sj >>
@@ -4714,10 +4901,10 @@ cb_emit_ld(self) == /\ pc[self] = "cb_emit_ld"
                                           /\ UNCHANGED << obs, panicked >>
                           ELSE /\ pc' = [pc EXCEPT ![self] = "CB4"]
                                /\ UNCHANGED << obs, panicked >>
-                    /\ UNCHANGED << st, nd, sk, pi, tasks, now, script, ntop, 
-                                    done, stack, fr, to, m, lg, sx, jx, ch, lv, 
-                                    snap, ka, ca, gx, ex, nx, fx, bx, bc, tx, 
-                                    ta, tc, ft, act, sj >>
+                    /\ UNCHANGED << st, nd, sk, pi, fi, tasks, now, script, 
+                                    ntop, done, stack, fr, to, m, lg, sx, jx, 
+                                    ch, lv, snap, ka, ca, gx, ex, nx, fx, bx, 
+                                    bc, tx, ta, tc, ft, act, sj >>
 
 cb_data(self) == /\ pc[self] = "cb_data"
                  /\ /\ fr' = [fr EXCEPT ![self] = "S"]
@@ -4742,13 +4929,13 @@ cb_data(self) == /\ pc[self] = "cb_data"
                  /\ lv' = [lv EXCEPT ![self] = 0]
                  /\ snap' = [snap EXCEPT ![self] = <<>>]
                  /\ pc' = [pc EXCEPT ![self] = "DStart"]
-                 /\ UNCHANGED << st, nd, sk, pi, tasks, now, obs, script, ntop, 
-                                 panicked, done, ka, ca, gx, ex, nx, fx, bx, 
-                                 bc, tx, ta, tc, ft, act, sj >>
+                 /\ UNCHANGED << st, nd, sk, pi, fi, tasks, now, obs, script, 
+                                 ntop, panicked, done, ka, ca, gx, ex, nx, fx, 
+                                 bx, bc, tx, ta, tc, ft, act, sj >>
 
 CB4(self) == /\ pc[self] = "CB4"
              /\ pc' = [pc EXCEPT ![self] = "Ret"]
-             /\ UNCHANGED << st, nd, sk, pi, tasks, now, obs, script, ntop, 
+             /\ UNCHANGED << st, nd, sk, pi, fi, tasks, now, obs, script, ntop, 
                              panicked, done, stack, fr, to, m, lg, sx, jx, ch, 
                              lv, snap, ka, ca, gx, ex, nx, fx, bx, bc, tx, ta, 
                              tc, ft, act, sj >>
@@ -4757,10 +4944,10 @@ cb_end_fs(self) == /\ pc[self] = "cb_end_fs"
                    /\ lv' = [lv EXCEPT ![self] = S(to[self]).nend - 1]
                    /\ st' = [st EXCEPT ![to[self].n][to[self].s].nend = S(to[self]).nend - 1]
                    /\ pc' = [pc EXCEPT ![self] = "cb_term"]
-                   /\ UNCHANGED << nd, sk, pi, tasks, now, obs, script, ntop, 
-                                   panicked, done, stack, fr, to, m, lg, sx, 
-                                   jx, ch, snap, ka, ca, gx, ex, nx, fx, bx, 
-                                   bc, tx, ta, tc, ft, act, sj >>
+                   /\ UNCHANGED << nd, sk, pi, fi, tasks, now, obs, script, 
+                                   ntop, panicked, done, stack, fr, to, m, lg, 
+                                   sx, jx, ch, snap, ka, ca, gx, ex, nx, fx, 
+                                   bx, bc, tx, ta, tc, ft, act, sj >>
 
 cb_term(self) == /\ pc[self] = "cb_term"
                  /\ IF lv[self] = 0
@@ -4789,13 +4976,13 @@ cb_term(self) == /\ pc[self] = "cb_term"
                        ELSE /\ pc' = [pc EXCEPT ![self] = "CB5"]
                             /\ UNCHANGED << stack, fr, to, m, lg, sx, jx, ch, 
                                             lv, snap >>
-                 /\ UNCHANGED << st, nd, sk, pi, tasks, now, obs, script, ntop, 
-                                 panicked, done, ka, ca, gx, ex, nx, fx, bx, 
-                                 bc, tx, ta, tc, ft, act, sj >>
+                 /\ UNCHANGED << st, nd, sk, pi, fi, tasks, now, obs, script, 
+                                 ntop, panicked, done, ka, ca, gx, ex, nx, fx, 
+                                 bx, bc, tx, ta, tc, ft, act, sj >>
 
 CB5(self) == /\ pc[self] = "CB5"
              /\ pc' = [pc EXCEPT ![self] = "Ret"]
-             /\ UNCHANGED << st, nd, sk, pi, tasks, now, obs, script, ntop, 
+             /\ UNCHANGED << st, nd, sk, pi, fi, tasks, now, obs, script, ntop, 
                              panicked, done, stack, fr, to, m, lg, sx, jx, ch, 
                              lv, snap, ka, ca, gx, ex, nx, fx, bx, bc, tx, ta, 
                              tc, ft, act, sj >>
@@ -4835,14 +5022,14 @@ CB6(self) == /\ pc[self] = "CB6"
                    ELSE /\ pc' = [pc EXCEPT ![self] = "Ret"]
                         /\ UNCHANGED << obs, panicked, stack, fr, to, m, lg, 
                                         sx, jx, ch, lv, snap >>
-             /\ UNCHANGED << st, nd, sk, pi, tasks, now, script, ntop, done, 
-                             ka, ca, gx, ex, nx, fx, bx, bc, tx, ta, tc, ft, 
-                             act, sj >>
+             /\ UNCHANGED << st, nd, sk, pi, fi, tasks, now, script, ntop, 
+                             done, ka, ca, gx, ex, nx, fx, bx, bc, tx, ta, tc, 
+                             ft, act, sj >>
 
 CB7(self) == /\ pc[self] = "CB7"
              /\ jx' = [jx EXCEPT ![self] = jx[self] + 1]
              /\ pc' = [pc EXCEPT ![self] = "CB6"]
-             /\ UNCHANGED << st, nd, sk, pi, tasks, now, obs, script, ntop, 
+             /\ UNCHANGED << st, nd, sk, pi, fi, tasks, now, obs, script, ntop, 
                              panicked, done, stack, fr, to, m, lg, sx, ch, lv, 
                              snap, ka, ca, gx, ex, nx, fx, bx, bc, tx, ta, tc, 
                              ft, act, sj >>
@@ -4870,13 +5057,13 @@ FL1(self) == /\ pc[self] = "FL1"
              /\ lv' = [lv EXCEPT ![self] = 0]
              /\ snap' = [snap EXCEPT ![self] = <<>>]
              /\ pc' = [pc EXCEPT ![self] = "DStart"]
-             /\ UNCHANGED << st, nd, sk, pi, tasks, now, obs, script, ntop, 
+             /\ UNCHANGED << st, nd, sk, pi, fi, tasks, now, obs, script, ntop, 
                              panicked, done, ka, ca, gx, ex, nx, fx, bx, bc, 
                              tx, ta, tc, ft, act, sj >>
 
 FL2(self) == /\ pc[self] = "FL2"
              /\ pc' = [pc EXCEPT ![self] = "Ret"]
-             /\ UNCHANGED << st, nd, sk, pi, tasks, now, obs, script, ntop, 
+             /\ UNCHANGED << st, nd, sk, pi, fi, tasks, now, obs, script, ntop, 
                              panicked, done, stack, fr, to, m, lg, sx, jx, ch, 
                              lv, snap, ka, ca, gx, ex, nx, fx, bx, bc, tx, ta, 
                              tc, ft, act, sj >>
@@ -4904,47 +5091,103 @@ FL3(self) == /\ pc[self] = "FL3"
              /\ lv' = [lv EXCEPT ![self] = 0]
              /\ snap' = [snap EXCEPT ![self] = <<>>]
              /\ pc' = [pc EXCEPT ![self] = "DStart"]
-             /\ UNCHANGED << st, nd, sk, pi, tasks, now, obs, script, ntop, 
+             /\ UNCHANGED << st, nd, sk, pi, fi, tasks, now, obs, script, ntop, 
                              panicked, done, ka, ca, gx, ex, nx, fx, bx, bc, 
                              tx, ta, tc, ft, act, sj >>
 
 FL4(self) == /\ pc[self] = "FL4"
              /\ pc' = [pc EXCEPT ![self] = "Ret"]
-             /\ UNCHANGED << st, nd, sk, pi, tasks, now, obs, script, ntop, 
+             /\ UNCHANGED << st, nd, sk, pi, fi, tasks, now, obs, script, ntop, 
                              panicked, done, stack, fr, to, m, lg, sx, jx, ch, 
                              lv, snap, ka, ca, gx, ex, nx, fx, bx, bc, tx, ta, 
                              tc, ft, act, sj >>
 
+FL5a(self) == /\ pc[self] = "FL5a"
+              /\ IF S(to[self]).itb # NoRef
+                    THEN /\ /\ fr' = [fr EXCEPT ![self] = "S"]
+                            /\ m' = [m EXCEPT ![self] = Msg("T")]
+                            /\ stack' = [stack EXCEPT ![self] = << [ procedure |->  "Deliver",
+                                                                     pc        |->  "FL5",
+                                                                     lg        |->  lg[self],
+                                                                     sx        |->  sx[self],
+                                                                     jx        |->  jx[self],
+                                                                     ch        |->  ch[self],
+                                                                     lv        |->  lv[self],
+                                                                     snap      |->  snap[self],
+                                                                     fr        |->  fr[self],
+                                                                     to        |->  to[self],
+                                                                     m         |->  m[self] ] >>
+                                                                 \o stack[self]]
+                            /\ to' = [to EXCEPT ![self] = S(to[self]).itb]
+                         /\ lg' = [lg EXCEPT ![self] = FALSE]
+                         /\ sx' = [sx EXCEPT ![self] = 0]
+                         /\ jx' = [jx EXCEPT ![self] = 0]
+                         /\ ch' = [ch EXCEPT ![self] = ""]
+                         /\ lv' = [lv EXCEPT ![self] = 0]
+                         /\ snap' = [snap EXCEPT ![self] = <<>>]
+                         /\ pc' = [pc EXCEPT ![self] = "DStart"]
+                    ELSE /\ pc' = [pc EXCEPT ![self] = "FL5"]
+                         /\ UNCHANGED << stack, fr, to, m, lg, sx, jx, ch, lv, 
+                                         snap >>
+              /\ UNCHANGED << st, nd, sk, pi, fi, tasks, now, obs, script, 
+                              ntop, panicked, done, ka, ca, gx, ex, nx, fx, bx, 
+                              bc, tx, ta, tc, ft, act, sj >>
+
 FL5(self) == /\ pc[self] = "FL5"
-             /\ /\ fr' = [fr EXCEPT ![self] = "S"]
-                /\ m' = [m EXCEPT ![self] = MsgH(Ref(to[self].n, "in", to[self].s, 0))]
-                /\ stack' = [stack EXCEPT ![self] = << [ procedure |->  "Deliver",
-                                                         pc        |->  "FL6",
-                                                         lg        |->  lg[self],
-                                                         sx        |->  sx[self],
-                                                         jx        |->  jx[self],
-                                                         ch        |->  ch[self],
-                                                         lv        |->  lv[self],
-                                                         snap      |->  snap[self],
-                                                         fr        |->  fr[self],
-                                                         to        |->  to[self],
-                                                         m         |->  m[self] ] >>
-                                                     \o stack[self]]
-                /\ to' = [to EXCEPT ![self] = Ref(NodeOfPid(m[self].v), "src", 0, 0)]
-             /\ lg' = [lg EXCEPT ![self] = FALSE]
-             /\ sx' = [sx EXCEPT ![self] = 0]
-             /\ jx' = [jx EXCEPT ![self] = 0]
-             /\ ch' = [ch EXCEPT ![self] = ""]
-             /\ lv' = [lv EXCEPT ![self] = 0]
-             /\ snap' = [snap EXCEPT ![self] = <<>>]
-             /\ pc' = [pc EXCEPT ![self] = "DStart"]
+             /\ IF Kind(to[self].n) = "flatmap"
+                   THEN /\ fi' = Append(fi, NewFi(Ref(to[self].n, "in", to[self].s, 0), GenList(Node(to[self].n).g, m[self].v), FALSE, 0, ""))
+                        /\ /\ fr' = [fr EXCEPT ![self] = "S"]
+                           /\ m' = [m EXCEPT ![self] = MsgH(Ref(0, "fitb", Len(fi'), 0))]
+                           /\ stack' = [stack EXCEPT ![self] = << [ procedure |->  "Deliver",
+                                                                    pc        |->  "FL6",
+                                                                    lg        |->  lg[self],
+                                                                    sx        |->  sx[self],
+                                                                    jx        |->  jx[self],
+                                                                    ch        |->  ch[self],
+                                                                    lv        |->  lv[self],
+                                                                    snap      |->  snap[self],
+                                                                    fr        |->  fr[self],
+                                                                    to        |->  to[self],
+                                                                    m         |->  m[self] ] >>
+                                                                \o stack[self]]
+                           /\ to' = [to EXCEPT ![self] = Ref(to[self].n, "in", to[self].s, 0)]
+                        /\ lg' = [lg EXCEPT ![self] = FALSE]
+                        /\ sx' = [sx EXCEPT ![self] = 0]
+                        /\ jx' = [jx EXCEPT ![self] = 0]
+                        /\ ch' = [ch EXCEPT ![self] = ""]
+                        /\ lv' = [lv EXCEPT ![self] = 0]
+                        /\ snap' = [snap EXCEPT ![self] = <<>>]
+                        /\ pc' = [pc EXCEPT ![self] = "DStart"]
+                   ELSE /\ /\ fr' = [fr EXCEPT ![self] = "S"]
+                           /\ m' = [m EXCEPT ![self] = MsgH(Ref(to[self].n, "in", to[self].s, 0))]
+                           /\ stack' = [stack EXCEPT ![self] = << [ procedure |->  "Deliver",
+                                                                    pc        |->  "FL6",
+                                                                    lg        |->  lg[self],
+                                                                    sx        |->  sx[self],
+                                                                    jx        |->  jx[self],
+                                                                    ch        |->  ch[self],
+                                                                    lv        |->  lv[self],
+                                                                    snap      |->  snap[self],
+                                                                    fr        |->  fr[self],
+                                                                    to        |->  to[self],
+                                                                    m         |->  m[self] ] >>
+                                                                \o stack[self]]
+                           /\ to' = [to EXCEPT ![self] = Ref(NodeOfPid(m[self].v), "src", 0, 0)]
+                        /\ lg' = [lg EXCEPT ![self] = FALSE]
+                        /\ sx' = [sx EXCEPT ![self] = 0]
+                        /\ jx' = [jx EXCEPT ![self] = 0]
+                        /\ ch' = [ch EXCEPT ![self] = ""]
+                        /\ lv' = [lv EXCEPT ![self] = 0]
+                        /\ snap' = [snap EXCEPT ![self] = <<>>]
+                        /\ pc' = [pc EXCEPT ![self] = "DStart"]
+                        /\ fi' = fi
              /\ UNCHANGED << st, nd, sk, pi, tasks, now, obs, script, ntop, 
                              panicked, done, ka, ca, gx, ex, nx, fx, bx, bc, 
                              tx, ta, tc, ft, act, sj >>
 
 FL6(self) == /\ pc[self] = "FL6"
              /\ pc' = [pc EXCEPT ![self] = "Ret"]
-             /\ UNCHANGED << st, nd, sk, pi, tasks, now, obs, script, ntop, 
+             /\ UNCHANGED << st, nd, sk, pi, fi, tasks, now, obs, script, ntop, 
                              panicked, done, stack, fr, to, m, lg, sx, jx, ch, 
                              lv, snap, ka, ca, gx, ex, nx, fx, bx, bc, tx, ta, 
                              tc, ft, act, sj >>
@@ -4972,20 +5215,20 @@ FL7(self) == /\ pc[self] = "FL7"
              /\ lv' = [lv EXCEPT ![self] = 0]
              /\ snap' = [snap EXCEPT ![self] = <<>>]
              /\ pc' = [pc EXCEPT ![self] = "DStart"]
-             /\ UNCHANGED << st, nd, sk, pi, tasks, now, obs, script, ntop, 
+             /\ UNCHANGED << st, nd, sk, pi, fi, tasks, now, obs, script, ntop, 
                              panicked, done, ka, ca, gx, ex, nx, fx, bx, bc, 
                              tx, ta, tc, ft, act, sj >>
 
 FL8(self) == /\ pc[self] = "FL8"
              /\ pc' = [pc EXCEPT ![self] = "Ret"]
-             /\ UNCHANGED << st, nd, sk, pi, tasks, now, obs, script, ntop, 
+             /\ UNCHANGED << st, nd, sk, pi, fi, tasks, now, obs, script, ntop, 
                              panicked, done, stack, fr, to, m, lg, sx, jx, ch, 
                              lv, snap, ka, ca, gx, ex, nx, fx, bx, bc, tx, ta, 
                              tc, ft, act, sj >>
 
 FL9(self) == /\ pc[self] = "FL9"
              /\ pc' = [pc EXCEPT ![self] = "Ret"]
-             /\ UNCHANGED << st, nd, sk, pi, tasks, now, obs, script, ntop, 
+             /\ UNCHANGED << st, nd, sk, pi, fi, tasks, now, obs, script, ntop, 
                              panicked, done, stack, fr, to, m, lg, sx, jx, ch, 
                              lv, snap, ka, ca, gx, ex, nx, fx, bx, bc, tx, ta, 
                              tc, ft, act, sj >>
@@ -5013,23 +5256,23 @@ FL10(self) == /\ pc[self] = "FL10"
               /\ lv' = [lv EXCEPT ![self] = 0]
               /\ snap' = [snap EXCEPT ![self] = <<>>]
               /\ pc' = [pc EXCEPT ![self] = "DStart"]
-              /\ UNCHANGED << st, nd, sk, pi, tasks, now, obs, script, ntop, 
-                              panicked, done, ka, ca, gx, ex, nx, fx, bx, bc, 
-                              tx, ta, tc, ft, act, sj >>
+              /\ UNCHANGED << st, nd, sk, pi, fi, tasks, now, obs, script, 
+                              ntop, panicked, done, ka, ca, gx, ex, nx, fx, bx, 
+                              bc, tx, ta, tc, ft, act, sj >>
 
 FL11(self) == /\ pc[self] = "FL11"
               /\ pc' = [pc EXCEPT ![self] = "Ret"]
-              /\ UNCHANGED << st, nd, sk, pi, tasks, now, obs, script, ntop, 
-                              panicked, done, stack, fr, to, m, lg, sx, jx, ch, 
-                              lv, snap, ka, ca, gx, ex, nx, fx, bx, bc, tx, ta, 
-                              tc, ft, act, sj >>
+              /\ UNCHANGED << st, nd, sk, pi, fi, tasks, now, obs, script, 
+                              ntop, panicked, done, stack, fr, to, m, lg, sx, 
+                              jx, ch, lv, snap, ka, ca, gx, ex, nx, fx, bx, bc, 
+                              tx, ta, tc, ft, act, sj >>
 
 FL12(self) == /\ pc[self] = "FL12"
               /\ pc' = [pc EXCEPT ![self] = "Ret"]
-              /\ UNCHANGED << st, nd, sk, pi, tasks, now, obs, script, ntop, 
-                              panicked, done, stack, fr, to, m, lg, sx, jx, ch, 
-                              lv, snap, ka, ca, gx, ex, nx, fx, bx, bc, tx, ta, 
-                              tc, ft, act, sj >>
+              /\ UNCHANGED << st, nd, sk, pi, fi, tasks, now, obs, script, 
+                              ntop, panicked, done, stack, fr, to, m, lg, sx, 
+                              jx, ch, lv, snap, ka, ca, gx, ex, nx, fx, bx, bc, 
+                              tx, ta, tc, ft, act, sj >>
 
 FL13(self) == /\ pc[self] = "FL13"
               /\ /\ fr' = [fr EXCEPT ![self] = "S"]
@@ -5054,23 +5297,23 @@ FL13(self) == /\ pc[self] = "FL13"
               /\ lv' = [lv EXCEPT ![self] = 0]
               /\ snap' = [snap EXCEPT ![self] = <<>>]
               /\ pc' = [pc EXCEPT ![self] = "DStart"]
-              /\ UNCHANGED << st, nd, sk, pi, tasks, now, obs, script, ntop, 
-                              panicked, done, ka, ca, gx, ex, nx, fx, bx, bc, 
-                              tx, ta, tc, ft, act, sj >>
+              /\ UNCHANGED << st, nd, sk, pi, fi, tasks, now, obs, script, 
+                              ntop, panicked, done, ka, ca, gx, ex, nx, fx, bx, 
+                              bc, tx, ta, tc, ft, act, sj >>
 
 FL14(self) == /\ pc[self] = "FL14"
               /\ pc' = [pc EXCEPT ![self] = "Ret"]
-              /\ UNCHANGED << st, nd, sk, pi, tasks, now, obs, script, ntop, 
-                              panicked, done, stack, fr, to, m, lg, sx, jx, ch, 
-                              lv, snap, ka, ca, gx, ex, nx, fx, bx, bc, tx, ta, 
-                              tc, ft, act, sj >>
+              /\ UNCHANGED << st, nd, sk, pi, fi, tasks, now, obs, script, 
+                              ntop, panicked, done, stack, fr, to, m, lg, sx, 
+                              jx, ch, lv, snap, ka, ca, gx, ex, nx, fx, bx, bc, 
+                              tx, ta, tc, ft, act, sj >>
 
 FL16(self) == /\ pc[self] = "FL16"
               /\ pc' = [pc EXCEPT ![self] = "Ret"]
-              /\ UNCHANGED << st, nd, sk, pi, tasks, now, obs, script, ntop, 
-                              panicked, done, stack, fr, to, m, lg, sx, jx, ch, 
-                              lv, snap, ka, ca, gx, ex, nx, fx, bx, bc, tx, ta, 
-                              tc, ft, act, sj >>
+              /\ UNCHANGED << st, nd, sk, pi, fi, tasks, now, obs, script, 
+                              ntop, panicked, done, stack, fr, to, m, lg, sx, 
+                              jx, ch, lv, snap, ka, ca, gx, ex, nx, fx, bx, bc, 
+                              tx, ta, tc, ft, act, sj >>
 
 FL15(self) == /\ pc[self] = "FL15"
               /\ /\ fr' = [fr EXCEPT ![self] = "S"]
@@ -5095,16 +5338,16 @@ FL15(self) == /\ pc[self] = "FL15"
               /\ lv' = [lv EXCEPT ![self] = 0]
               /\ snap' = [snap EXCEPT ![self] = <<>>]
               /\ pc' = [pc EXCEPT ![self] = "DStart"]
-              /\ UNCHANGED << st, nd, sk, pi, tasks, now, obs, script, ntop, 
-                              panicked, done, ka, ca, gx, ex, nx, fx, bx, bc, 
-                              tx, ta, tc, ft, act, sj >>
+              /\ UNCHANGED << st, nd, sk, pi, fi, tasks, now, obs, script, 
+                              ntop, panicked, done, ka, ca, gx, ex, nx, fx, bx, 
+                              bc, tx, ta, tc, ft, act, sj >>
 
 FL17(self) == /\ pc[self] = "FL17"
               /\ pc' = [pc EXCEPT ![self] = "Ret"]
-              /\ UNCHANGED << st, nd, sk, pi, tasks, now, obs, script, ntop, 
-                              panicked, done, stack, fr, to, m, lg, sx, jx, ch, 
-                              lv, snap, ka, ca, gx, ex, nx, fx, bx, bc, tx, ta, 
-                              tc, ft, act, sj >>
+              /\ UNCHANGED << st, nd, sk, pi, fi, tasks, now, obs, script, 
+                              ntop, panicked, done, stack, fr, to, m, lg, sx, 
+                              jx, ch, lv, snap, ka, ca, gx, ex, nx, fx, bx, bc, 
+                              tx, ta, tc, ft, act, sj >>
 
 FL18(self) == /\ pc[self] = "FL18"
               /\ IF S(to[self]).otb # NoRef
@@ -5133,16 +5376,16 @@ FL18(self) == /\ pc[self] = "FL18"
                     ELSE /\ pc' = [pc EXCEPT ![self] = "FL19"]
                          /\ UNCHANGED << stack, fr, to, m, lg, sx, jx, ch, lv, 
                                          snap >>
-              /\ UNCHANGED << st, nd, sk, pi, tasks, now, obs, script, ntop, 
-                              panicked, done, ka, ca, gx, ex, nx, fx, bx, bc, 
-                              tx, ta, tc, ft, act, sj >>
+              /\ UNCHANGED << st, nd, sk, pi, fi, tasks, now, obs, script, 
+                              ntop, panicked, done, ka, ca, gx, ex, nx, fx, bx, 
+                              bc, tx, ta, tc, ft, act, sj >>
 
 FL19(self) == /\ pc[self] = "FL19"
               /\ pc' = [pc EXCEPT ![self] = "Ret"]
-              /\ UNCHANGED << st, nd, sk, pi, tasks, now, obs, script, ntop, 
-                              panicked, done, stack, fr, to, m, lg, sx, jx, ch, 
-                              lv, snap, ka, ca, gx, ex, nx, fx, bx, bc, tx, ta, 
-                              tc, ft, act, sj >>
+              /\ UNCHANGED << st, nd, sk, pi, fi, tasks, now, obs, script, 
+                              ntop, panicked, done, stack, fr, to, m, lg, sx, 
+                              jx, ch, lv, snap, ka, ca, gx, ex, nx, fx, bx, bc, 
+                              tx, ta, tc, ft, act, sj >>
 
 SH1(self) == /\ pc[self] = "SH1"
              /\ IF Len(nd[to[self].n].sinks) = 1
@@ -5190,13 +5433,13 @@ SH1(self) == /\ pc[self] = "SH1"
                         /\ lv' = [lv EXCEPT ![self] = 0]
                         /\ snap' = [snap EXCEPT ![self] = <<>>]
                         /\ pc' = [pc EXCEPT ![self] = "DStart"]
-             /\ UNCHANGED << st, nd, sk, pi, tasks, now, obs, script, ntop, 
+             /\ UNCHANGED << st, nd, sk, pi, fi, tasks, now, obs, script, ntop, 
                              panicked, done, ka, ca, gx, ex, nx, fx, bx, bc, 
                              tx, ta, tc, ft, act, sj >>
 
 SH2(self) == /\ pc[self] = "SH2"
              /\ pc' = [pc EXCEPT ![self] = "Ret"]
-             /\ UNCHANGED << st, nd, sk, pi, tasks, now, obs, script, ntop, 
+             /\ UNCHANGED << st, nd, sk, pi, fi, tasks, now, obs, script, ntop, 
                              panicked, done, stack, fr, to, m, lg, sx, jx, ch, 
                              lv, snap, ka, ca, gx, ex, nx, fx, bx, bc, tx, ta, 
                              tc, ft, act, sj >>
@@ -5224,13 +5467,13 @@ SH3(self) == /\ pc[self] = "SH3"
              /\ lv' = [lv EXCEPT ![self] = 0]
              /\ snap' = [snap EXCEPT ![self] = <<>>]
              /\ pc' = [pc EXCEPT ![self] = "DStart"]
-             /\ UNCHANGED << st, nd, sk, pi, tasks, now, obs, script, ntop, 
+             /\ UNCHANGED << st, nd, sk, pi, fi, tasks, now, obs, script, ntop, 
                              panicked, done, ka, ca, gx, ex, nx, fx, bx, bc, 
                              tx, ta, tc, ft, act, sj >>
 
 SH4(self) == /\ pc[self] = "SH4"
              /\ pc' = [pc EXCEPT ![self] = "Ret"]
-             /\ UNCHANGED << st, nd, sk, pi, tasks, now, obs, script, ntop, 
+             /\ UNCHANGED << st, nd, sk, pi, fi, tasks, now, obs, script, ntop, 
                              panicked, done, stack, fr, to, m, lg, sx, jx, ch, 
                              lv, snap, ka, ca, gx, ex, nx, fx, bx, bc, tx, ta, 
                              tc, ft, act, sj >>
@@ -5267,28 +5510,28 @@ SH5(self) == /\ pc[self] = "SH5"
                         /\ pc' = [pc EXCEPT ![self] = "SH7"]
                         /\ UNCHANGED << stack, fr, to, m, lg, sx, jx, ch, lv, 
                                         snap >>
-             /\ UNCHANGED << st, sk, pi, tasks, now, obs, script, ntop, 
+             /\ UNCHANGED << st, sk, pi, fi, tasks, now, obs, script, ntop, 
                              panicked, done, ka, ca, gx, ex, nx, fx, bx, bc, 
                              tx, ta, tc, ft, act, sj >>
 
 SH6(self) == /\ pc[self] = "SH6"
              /\ jx' = [jx EXCEPT ![self] = jx[self] + 1]
              /\ pc' = [pc EXCEPT ![self] = "SH5"]
-             /\ UNCHANGED << st, nd, sk, pi, tasks, now, obs, script, ntop, 
+             /\ UNCHANGED << st, nd, sk, pi, fi, tasks, now, obs, script, ntop, 
                              panicked, done, stack, fr, to, m, lg, sx, ch, lv, 
                              snap, ka, ca, gx, ex, nx, fx, bx, bc, tx, ta, tc, 
                              ft, act, sj >>
 
 SH7(self) == /\ pc[self] = "SH7"
              /\ pc' = [pc EXCEPT ![self] = "Ret"]
-             /\ UNCHANGED << st, nd, sk, pi, tasks, now, obs, script, ntop, 
+             /\ UNCHANGED << st, nd, sk, pi, fi, tasks, now, obs, script, ntop, 
                              panicked, done, stack, fr, to, m, lg, sx, jx, ch, 
                              lv, snap, ka, ca, gx, ex, nx, fx, bx, bc, tx, ta, 
                              tc, ft, act, sj >>
 
 SH8(self) == /\ pc[self] = "SH8"
              /\ pc' = [pc EXCEPT ![self] = "Ret"]
-             /\ UNCHANGED << st, nd, sk, pi, tasks, now, obs, script, ntop, 
+             /\ UNCHANGED << st, nd, sk, pi, fi, tasks, now, obs, script, ntop, 
                              panicked, done, stack, fr, to, m, lg, sx, jx, ch, 
                              lv, snap, ka, ca, gx, ex, nx, fx, bx, bc, tx, ta, 
                              tc, ft, act, sj >>
@@ -5328,160 +5571,16 @@ SH9(self) == /\ pc[self] = "SH9"
                    ELSE /\ pc' = [pc EXCEPT ![self] = "SH10"]
                         /\ UNCHANGED << obs, panicked, stack, fr, to, m, lg, 
                                         sx, jx, ch, lv, snap >>
-             /\ UNCHANGED << st, nd, sk, pi, tasks, now, script, ntop, done, 
-                             ka, ca, gx, ex, nx, fx, bx, bc, tx, ta, tc, ft, 
-                             act, sj >>
+             /\ UNCHANGED << st, nd, sk, pi, fi, tasks, now, script, ntop, 
+                             done, ka, ca, gx, ex, nx, fx, bx, bc, tx, ta, tc, 
+                             ft, act, sj >>
 
 SH10(self) == /\ pc[self] = "SH10"
               /\ pc' = [pc EXCEPT ![self] = "Ret"]
-              /\ UNCHANGED << st, nd, sk, pi, tasks, now, obs, script, ntop, 
-                              panicked, done, stack, fr, to, m, lg, sx, jx, ch, 
-                              lv, snap, ka, ca, gx, ex, nx, fx, bx, bc, tx, ta, 
-                              tc, ft, act, sj >>
-
-FR1(self) == /\ pc[self] = "FR1"
-             /\ /\ fr' = [fr EXCEPT ![self] = "S"]
-                /\ m' = [m EXCEPT ![self] = MsgH(Ref(to[self].n, "tb", sx[self], 0))]
-                /\ stack' = [stack EXCEPT ![self] = << [ procedure |->  "Deliver",
-                                                         pc        |->  "FR2",
-                                                         lg        |->  lg[self],
-                                                         sx        |->  sx[self],
-                                                         jx        |->  jx[self],
-                                                         ch        |->  ch[self],
-                                                         lv        |->  lv[self],
-                                                         snap      |->  snap[self],
-                                                         fr        |->  fr[self],
-                                                         to        |->  to[self],
-                                                         m         |->  m[self] ] >>
-                                                     \o stack[self]]
-                /\ to' = [to EXCEPT ![self] = m[self].tb]
-             /\ lg' = [lg EXCEPT ![self] = FALSE]
-             /\ sx' = [sx EXCEPT ![self] = 0]
-             /\ jx' = [jx EXCEPT ![self] = 0]
-             /\ ch' = [ch EXCEPT ![self] = ""]
-             /\ lv' = [lv EXCEPT ![self] = 0]
-             /\ snap' = [snap EXCEPT ![self] = <<>>]
-             /\ pc' = [pc EXCEPT ![self] = "DStart"]
-             /\ UNCHANGED << st, nd, sk, pi, tasks, now, obs, script, ntop, 
-                             panicked, done, ka, ca, gx, ex, nx, fx, bx, bc, 
-                             tx, ta, tc, ft, act, sj >>
-
-FR2(self) == /\ pc[self] = "FR2"
-             /\ pc' = [pc EXCEPT ![self] = "Ret"]
-             /\ UNCHANGED << st, nd, sk, pi, tasks, now, obs, script, ntop, 
-                             panicked, done, stack, fr, to, m, lg, sx, jx, ch, 
-                             lv, snap, ka, ca, gx, ex, nx, fx, bx, bc, tx, ta, 
-                             tc, ft, act, sj >>
-
-FR3(self) == /\ pc[self] = "FR3"
-             /\ IF ~S(to[self]).inloop /\ ~S(to[self]).resdone
-                   THEN /\ st' = [st EXCEPT ![to[self].n][to[self].s].inloop = TRUE]
-                        /\ pc' = [pc EXCEPT ![self] = "FR4"]
-                   ELSE /\ pc' = [pc EXCEPT ![self] = "FR9"]
-                        /\ st' = st
-             /\ UNCHANGED << nd, sk, pi, tasks, now, obs, script, ntop, 
-                             panicked, done, stack, fr, to, m, lg, sx, jx, ch, 
-                             lv, snap, ka, ca, gx, ex, nx, fx, bx, bc, tx, ta, 
-                             tc, ft, act, sj >>
-
-FR4(self) == /\ pc[self] = "FR4"
-             /\ IF S(to[self]).gotpull /\ ~S(to[self]).completed
-                   THEN /\ lv' = [lv EXCEPT ![self] = IF Node(to[self].n).unbounded
-                                                      THEN (IF S(to[self]).pos >= Node(to[self].n).limit THEN -1 ELSE S(to[self]).pos + 1)
-                                                      ELSE (IF S(to[self]).pos < Len(Node(to[self].n).items) THEN Node(to[self].n).items[S(to[self]).pos + 1] ELSE -1)]
-                        /\ st' = [st EXCEPT ![to[self].n][to[self].s] = [S(to[self]) EXCEPT !.gotpull = FALSE, !.pos = @ + 1,
-                                                                                            !.resdone = (lv'[self] = -1)]]
-                        /\ obs' = LogO(IF Node(to[self].n).unbounded /\ lv'[self] = -1
-                                       THEN LogO(obs, Ev("runaway", ThOf(self), "", "I" \o ToString(to[self].n) \o "#" \o ToString(to[self].s), "", S(to[self]).pos - 1))
-                                       ELSE obs,
-                                       Ev("next", ThOf(self), "", "I" \o ToString(to[self].n) \o "#" \o ToString(to[self].s), "", lv'[self]))
-                        /\ pc' = [pc EXCEPT ![self] = "FR5"]
-                   ELSE /\ pc' = [pc EXCEPT ![self] = "FR8"]
-                        /\ UNCHANGED << st, obs, lv >>
-             /\ UNCHANGED << nd, sk, pi, tasks, now, script, ntop, panicked, 
-                             done, stack, fr, to, m, lg, sx, jx, ch, snap, ka, 
-                             ca, gx, ex, nx, fx, bx, bc, tx, ta, tc, ft, act, 
-                             sj >>
-
-FR5(self) == /\ pc[self] = "FR5"
-             /\ IF S(to[self]).resdone
-                   THEN /\ /\ fr' = [fr EXCEPT ![self] = "S"]
-                           /\ m' = [m EXCEPT ![self] = Msg("T")]
-                           /\ stack' = [stack EXCEPT ![self] = << [ procedure |->  "Deliver",
-                                                                    pc        |->  "FR6",
-                                                                    lg        |->  lg[self],
-                                                                    sx        |->  sx[self],
-                                                                    jx        |->  jx[self],
-                                                                    ch        |->  ch[self],
-                                                                    lv        |->  lv[self],
-                                                                    snap      |->  snap[self],
-                                                                    fr        |->  fr[self],
-                                                                    to        |->  to[self],
-                                                                    m         |->  m[self] ] >>
-                                                                \o stack[self]]
-                           /\ to' = [to EXCEPT ![self] = S(to[self]).sink]
-                        /\ lg' = [lg EXCEPT ![self] = FALSE]
-                        /\ sx' = [sx EXCEPT ![self] = 0]
-                        /\ jx' = [jx EXCEPT ![self] = 0]
-                        /\ ch' = [ch EXCEPT ![self] = ""]
-                        /\ lv' = [lv EXCEPT ![self] = 0]
-                        /\ snap' = [snap EXCEPT ![self] = <<>>]
-                        /\ pc' = [pc EXCEPT ![self] = "DStart"]
-                   ELSE /\ /\ fr' = [fr EXCEPT ![self] = "S"]
-                           /\ m' = [m EXCEPT ![self] = MsgD(lv[self])]
-                           /\ stack' = [stack EXCEPT ![self] = << [ procedure |->  "Deliver",
-                                                                    pc        |->  "FR7",
-                                                                    lg        |->  lg[self],
-                                                                    sx        |->  sx[self],
-                                                                    jx        |->  jx[self],
-                                                                    ch        |->  ch[self],
-                                                                    lv        |->  lv[self],
-                                                                    snap      |->  snap[self],
-                                                                    fr        |->  fr[self],
-                                                                    to        |->  to[self],
-                                                                    m         |->  m[self] ] >>
-                                                                \o stack[self]]
-                           /\ to' = [to EXCEPT ![self] = S(to[self]).sink]
-                        /\ lg' = [lg EXCEPT ![self] = FALSE]
-                        /\ sx' = [sx EXCEPT ![self] = 0]
-                        /\ jx' = [jx EXCEPT ![self] = 0]
-                        /\ ch' = [ch EXCEPT ![self] = ""]
-                        /\ lv' = [lv EXCEPT ![self] = 0]
-                        /\ snap' = [snap EXCEPT ![self] = <<>>]
-                        /\ pc' = [pc EXCEPT ![self] = "DStart"]
-             /\ UNCHANGED << st, nd, sk, pi, tasks, now, obs, script, ntop, 
-                             panicked, done, ka, ca, gx, ex, nx, fx, bx, bc, 
-                             tx, ta, tc, ft, act, sj >>
-
-FR6(self) == /\ pc[self] = "FR6"
-             /\ pc' = [pc EXCEPT ![self] = "FR8"]
-             /\ UNCHANGED << st, nd, sk, pi, tasks, now, obs, script, ntop, 
-                             panicked, done, stack, fr, to, m, lg, sx, jx, ch, 
-                             lv, snap, ka, ca, gx, ex, nx, fx, bx, bc, tx, ta, 
-                             tc, ft, act, sj >>
-
-FR7(self) == /\ pc[self] = "FR7"
-             /\ TRUE
-             /\ pc' = [pc EXCEPT ![self] = "FR4"]
-             /\ UNCHANGED << st, nd, sk, pi, tasks, now, obs, script, ntop, 
-                             panicked, done, stack, fr, to, m, lg, sx, jx, ch, 
-                             lv, snap, ka, ca, gx, ex, nx, fx, bx, bc, tx, ta, 
-                             tc, ft, act, sj >>
-
-FR8(self) == /\ pc[self] = "FR8"
-             /\ st' = [st EXCEPT ![to[self].n][to[self].s].inloop = FALSE]
-             /\ pc' = [pc EXCEPT ![self] = "FR9"]
-             /\ UNCHANGED << nd, sk, pi, tasks, now, obs, script, ntop, 
-                             panicked, done, stack, fr, to, m, lg, sx, jx, ch, 
-                             lv, snap, ka, ca, gx, ex, nx, fx, bx, bc, tx, ta, 
-                             tc, ft, act, sj >>
-
-FR9(self) == /\ pc[self] = "FR9"
-             /\ pc' = [pc EXCEPT ![self] = "Ret"]
-             /\ UNCHANGED << st, nd, sk, pi, tasks, now, obs, script, ntop, 
-                             panicked, done, stack, fr, to, m, lg, sx, jx, ch, 
-                             lv, snap, ka, ca, gx, ex, nx, fx, bx, bc, tx, ta, 
-                             tc, ft, act, sj >>
+              /\ UNCHANGED << st, nd, sk, pi, fi, tasks, now, obs, script, 
+                              ntop, panicked, done, stack, fr, to, m, lg, sx, 
+                              jx, ch, lv, snap, ka, ca, gx, ex, nx, fx, bx, bc, 
+                              tx, ta, tc, ft, act, sj >>
 
 IV1(self) == /\ pc[self] = "IV1"
              /\ IF ch[self] = "ok"
@@ -5529,13 +5628,13 @@ IV1(self) == /\ pc[self] = "IV1"
                         /\ lv' = [lv EXCEPT ![self] = 0]
                         /\ snap' = [snap EXCEPT ![self] = <<>>]
                         /\ pc' = [pc EXCEPT ![self] = "DStart"]
-             /\ UNCHANGED << st, nd, sk, pi, tasks, now, obs, script, ntop, 
+             /\ UNCHANGED << st, nd, sk, pi, fi, tasks, now, obs, script, ntop, 
                              panicked, done, ka, ca, gx, ex, nx, fx, bx, bc, 
                              tx, ta, tc, ft, act, sj >>
 
 IV2(self) == /\ pc[self] = "IV2"
              /\ pc' = [pc EXCEPT ![self] = "Ret"]
-             /\ UNCHANGED << st, nd, sk, pi, tasks, now, obs, script, ntop, 
+             /\ UNCHANGED << st, nd, sk, pi, fi, tasks, now, obs, script, ntop, 
                              panicked, done, stack, fr, to, m, lg, sx, jx, ch, 
                              lv, snap, ka, ca, gx, ex, nx, fx, bx, bc, tx, ta, 
                              tc, ft, act, sj >>
@@ -5556,36 +5655,39 @@ Ret(self) == /\ pc[self] = "Ret"
              /\ to' = [to EXCEPT ![self] = Head(stack[self]).to]
              /\ m' = [m EXCEPT ![self] = Head(stack[self]).m]
              /\ stack' = [stack EXCEPT ![self] = Tail(stack[self])]
-             /\ UNCHANGED << st, nd, sk, pi, tasks, now, script, ntop, 
+             /\ UNCHANGED << st, nd, sk, pi, fi, tasks, now, script, ntop, 
                              panicked, done, ka, ca, gx, ex, nx, fx, bx, bc, 
                              tx, ta, tc, ft, act, sj >>
 
 Halt(self) == /\ pc[self] = "Halt"
               /\ FALSE
               /\ pc' = [pc EXCEPT ![self] = "Error"]
-              /\ UNCHANGED << st, nd, sk, pi, tasks, now, obs, script, ntop, 
-                              panicked, done, stack, fr, to, m, lg, sx, jx, ch, 
-                              lv, snap, ka, ca, gx, ex, nx, fx, bx, bc, tx, ta, 
-                              tc, ft, act, sj >>
+              /\ UNCHANGED << st, nd, sk, pi, fi, tasks, now, obs, script, 
+                              ntop, panicked, done, stack, fr, to, m, lg, sx, 
+                              jx, ch, lv, snap, ka, ca, gx, ex, nx, fx, bx, bc, 
+                              tx, ta, tc, ft, act, sj >>
 
 Deliver(self) == DStart(self) \/ DDisp(self) \/ K1(self) \/ K2(self)
                     \/ K3(self) \/ P1(self) \/ P2(self) \/ P3(self)
                     \/ T1(self) \/ T2(self) \/ FE1(self) \/ FE2(self)
-                    \/ FE3(self) \/ FE4(self) \/ MP1(self) \/ MP2(self)
-                    \/ MP3(self) \/ MP4(self) \/ MP5(self) \/ MP6(self)
-                    \/ MP7(self) \/ MP8(self) \/ FI1(self) \/ FI2(self)
-                    \/ FI3(self) \/ FI4(self) \/ FI5(self) \/ FI6(self)
-                    \/ FI7(self) \/ FI8(self) \/ SC1(self) \/ SC2(self)
-                    \/ SC3(self) \/ SC4(self) \/ SC5(self) \/ SC6(self)
-                    \/ SC7(self) \/ SC8(self) \/ TK1(self) \/ TK2(self)
-                    \/ TK3(self) \/ TK4(self) \/ tk_taken_ld(self)
-                    \/ tk_taken_fa(self) \/ tk_data(self)
-                    \/ tk_end_ld(self) \/ tk_end_st(self) \/ tk_up_ld(self)
-                    \/ tk_up_term(self) \/ tk_sink_term(self) \/ TK5(self)
-                    \/ TK6(self) \/ TK7(self) \/ TK8(self) \/ TK9(self)
-                    \/ SK1(self) \/ SK2(self) \/ SK3(self) \/ SK4(self)
-                    \/ SK6(self) \/ SK5(self) \/ SK7(self) \/ SK8(self)
-                    \/ MG1(self) \/ MG2(self) \/ MG8(self) \/ MG9(self)
+                    \/ FE3(self) \/ FE4(self) \/ FR1(self) \/ FR2(self)
+                    \/ FR3(self) \/ FR4(self) \/ FR5(self) \/ FR6(self)
+                    \/ FR7(self) \/ FR8(self) \/ FR9(self) \/ MP1(self)
+                    \/ MP2(self) \/ MP3(self) \/ MP4(self) \/ MP5(self)
+                    \/ MP6(self) \/ MP7(self) \/ MP8(self) \/ FI1(self)
+                    \/ FI2(self) \/ FI3(self) \/ FI4(self) \/ FI5(self)
+                    \/ FI6(self) \/ FI7(self) \/ FI8(self) \/ SC1(self)
+                    \/ SC2(self) \/ SC3(self) \/ SC4(self) \/ SC5(self)
+                    \/ SC6(self) \/ SC7(self) \/ SC8(self) \/ TK1(self)
+                    \/ TK2(self) \/ TK3(self) \/ TK4(self)
+                    \/ tk_taken_ld(self) \/ tk_taken_fa(self)
+                    \/ tk_data(self) \/ tk_end_ld(self) \/ tk_end_st(self)
+                    \/ tk_up_ld(self) \/ tk_up_term(self)
+                    \/ tk_sink_term(self) \/ TK5(self) \/ TK6(self)
+                    \/ TK7(self) \/ TK8(self) \/ TK9(self) \/ SK1(self)
+                    \/ SK2(self) \/ SK3(self) \/ SK4(self) \/ SK6(self)
+                    \/ SK5(self) \/ SK7(self) \/ SK8(self) \/ MG1(self)
+                    \/ MG2(self) \/ MG8(self) \/ MG9(self)
                     \/ mg_late_ld(self) \/ mg_late_ret(self)
                     \/ mg_tb_st(self) \/ mg_start_fa(self)
                     \/ mg_greet(self) \/ MG3(self) \/ mg_data(self)
@@ -5601,16 +5703,14 @@ Deliver(self) == DStart(self) \/ DDisp(self) \/ K1(self) \/ K2(self)
                     \/ cb_rcu(self) \/ cb_emit_ld(self) \/ cb_data(self)
                     \/ CB4(self) \/ cb_end_fs(self) \/ cb_term(self)
                     \/ CB5(self) \/ CB6(self) \/ CB7(self) \/ FL1(self)
-                    \/ FL2(self) \/ FL3(self) \/ FL4(self) \/ FL5(self)
-                    \/ FL6(self) \/ FL7(self) \/ FL8(self) \/ FL9(self)
-                    \/ FL10(self) \/ FL11(self) \/ FL12(self) \/ FL13(self)
-                    \/ FL14(self) \/ FL16(self) \/ FL15(self) \/ FL17(self)
-                    \/ FL18(self) \/ FL19(self) \/ SH1(self) \/ SH2(self)
-                    \/ SH3(self) \/ SH4(self) \/ SH5(self) \/ SH6(self)
-                    \/ SH7(self) \/ SH8(self) \/ SH9(self) \/ SH10(self)
-                    \/ FR1(self) \/ FR2(self) \/ FR3(self) \/ FR4(self)
-                    \/ FR5(self) \/ FR6(self) \/ FR7(self) \/ FR8(self)
-                    \/ FR9(self) \/ IV1(self) \/ IV2(self) \/ Ret(self)
+                    \/ FL2(self) \/ FL3(self) \/ FL4(self) \/ FL5a(self)
+                    \/ FL5(self) \/ FL6(self) \/ FL7(self) \/ FL8(self)
+                    \/ FL9(self) \/ FL10(self) \/ FL11(self) \/ FL12(self)
+                    \/ FL13(self) \/ FL14(self) \/ FL16(self) \/ FL15(self)
+                    \/ FL17(self) \/ FL18(self) \/ FL19(self) \/ SH1(self)
+                    \/ SH2(self) \/ SH3(self) \/ SH4(self) \/ SH5(self)
+                    \/ SH6(self) \/ SH7(self) \/ SH8(self) \/ SH9(self)
+                    \/ SH10(self) \/ IV1(self) \/ IV2(self) \/ Ret(self)
                     \/ Halt(self)
 
 SA0(self) == /\ pc[self] = "SA0"
@@ -5690,7 +5790,7 @@ SA0(self) == /\ pc[self] = "SA0"
                                               /\ UNCHANGED << sk, stack, fr, 
                                                               to, m, lg, sx, 
                                                               jx, ch, lv, snap >>
-             /\ UNCHANGED << st, nd, pi, tasks, now, obs, script, ntop, 
+             /\ UNCHANGED << st, nd, pi, fi, tasks, now, obs, script, ntop, 
                              panicked, done, ka, ca, gx, ex, nx, fx, bx, bc, 
                              tx, ta, tc, ft, act, sj >>
 
@@ -5699,7 +5799,7 @@ SA1(self) == /\ pc[self] = "SA1"
              /\ ka' = [ka EXCEPT ![self] = Head(stack[self]).ka]
              /\ ca' = [ca EXCEPT ![self] = Head(stack[self]).ca]
              /\ stack' = [stack EXCEPT ![self] = Tail(stack[self])]
-             /\ UNCHANGED << st, nd, sk, pi, tasks, now, obs, script, ntop, 
+             /\ UNCHANGED << st, nd, sk, pi, fi, tasks, now, obs, script, ntop, 
                              panicked, done, fr, to, m, lg, sx, jx, ch, lv, 
                              snap, gx, ex, nx, fx, bx, bc, tx, ta, tc, ft, act, 
                              sj >>
@@ -5730,7 +5830,7 @@ G0(self) == /\ pc[self] = "G0"
             /\ lv' = [lv EXCEPT ![self] = 0]
             /\ snap' = [snap EXCEPT ![self] = <<>>]
             /\ pc' = [pc EXCEPT ![self] = "DStart"]
-            /\ UNCHANGED << st, nd, sk, tasks, now, obs, script, ntop, 
+            /\ UNCHANGED << st, nd, sk, fi, tasks, now, obs, script, ntop, 
                             panicked, done, ka, ca, gx, ex, nx, fx, bx, bc, tx, 
                             ta, tc, ft, act, sj >>
 
@@ -5738,7 +5838,7 @@ G1(self) == /\ pc[self] = "G1"
             /\ pc' = [pc EXCEPT ![self] = Head(stack[self]).pc]
             /\ gx' = [gx EXCEPT ![self] = Head(stack[self]).gx]
             /\ stack' = [stack EXCEPT ![self] = Tail(stack[self])]
-            /\ UNCHANGED << st, nd, sk, pi, tasks, now, obs, script, ntop, 
+            /\ UNCHANGED << st, nd, sk, pi, fi, tasks, now, obs, script, ntop, 
                             panicked, done, fr, to, m, lg, sx, jx, ch, lv, 
                             snap, ka, ca, ex, nx, fx, bx, bc, tx, ta, tc, ft, 
                             act, sj >>
@@ -5771,7 +5871,7 @@ E0(self) == /\ pc[self] = "E0"
             /\ lv' = [lv EXCEPT ![self] = 0]
             /\ snap' = [snap EXCEPT ![self] = <<>>]
             /\ pc' = [pc EXCEPT ![self] = "DStart"]
-            /\ UNCHANGED << st, nd, sk, tasks, now, obs, script, ntop, 
+            /\ UNCHANGED << st, nd, sk, fi, tasks, now, obs, script, ntop, 
                             panicked, done, ka, ca, gx, ex, nx, fx, bx, bc, tx, 
                             ta, tc, ft, act, sj >>
 
@@ -5779,7 +5879,7 @@ E1(self) == /\ pc[self] = "E1"
             /\ pc' = [pc EXCEPT ![self] = Head(stack[self]).pc]
             /\ ex' = [ex EXCEPT ![self] = Head(stack[self]).ex]
             /\ stack' = [stack EXCEPT ![self] = Tail(stack[self])]
-            /\ UNCHANGED << st, nd, sk, pi, tasks, now, obs, script, ntop, 
+            /\ UNCHANGED << st, nd, sk, pi, fi, tasks, now, obs, script, ntop, 
                             panicked, done, fr, to, m, lg, sx, jx, ch, lv, 
                             snap, ka, ca, gx, nx, fx, bx, bc, tx, ta, tc, ft, 
                             act, sj >>
@@ -5810,7 +5910,7 @@ N0(self) == /\ pc[self] = "N0"
             /\ lv' = [lv EXCEPT ![self] = 0]
             /\ snap' = [snap EXCEPT ![self] = <<>>]
             /\ pc' = [pc EXCEPT ![self] = "DStart"]
-            /\ UNCHANGED << st, nd, sk, tasks, now, obs, script, ntop, 
+            /\ UNCHANGED << st, nd, sk, fi, tasks, now, obs, script, ntop, 
                             panicked, done, ka, ca, gx, ex, nx, fx, bx, bc, tx, 
                             ta, tc, ft, act, sj >>
 
@@ -5818,7 +5918,7 @@ N1(self) == /\ pc[self] = "N1"
             /\ pc' = [pc EXCEPT ![self] = Head(stack[self]).pc]
             /\ nx' = [nx EXCEPT ![self] = Head(stack[self]).nx]
             /\ stack' = [stack EXCEPT ![self] = Tail(stack[self])]
-            /\ UNCHANGED << st, nd, sk, pi, tasks, now, obs, script, ntop, 
+            /\ UNCHANGED << st, nd, sk, pi, fi, tasks, now, obs, script, ntop, 
                             panicked, done, fr, to, m, lg, sx, jx, ch, lv, 
                             snap, ka, ca, gx, ex, fx, bx, bc, tx, ta, tc, ft, 
                             act, sj >>
@@ -5849,7 +5949,7 @@ F0(self) == /\ pc[self] = "F0"
             /\ lv' = [lv EXCEPT ![self] = 0]
             /\ snap' = [snap EXCEPT ![self] = <<>>]
             /\ pc' = [pc EXCEPT ![self] = "DStart"]
-            /\ UNCHANGED << st, nd, sk, tasks, now, obs, script, ntop, 
+            /\ UNCHANGED << st, nd, sk, fi, tasks, now, obs, script, ntop, 
                             panicked, done, ka, ca, gx, ex, nx, fx, bx, bc, tx, 
                             ta, tc, ft, act, sj >>
 
@@ -5857,7 +5957,7 @@ F1(self) == /\ pc[self] = "F1"
             /\ pc' = [pc EXCEPT ![self] = Head(stack[self]).pc]
             /\ fx' = [fx EXCEPT ![self] = Head(stack[self]).fx]
             /\ stack' = [stack EXCEPT ![self] = Tail(stack[self])]
-            /\ UNCHANGED << st, nd, sk, pi, tasks, now, obs, script, ntop, 
+            /\ UNCHANGED << st, nd, sk, pi, fi, tasks, now, obs, script, ntop, 
                             panicked, done, fr, to, m, lg, sx, jx, ch, lv, 
                             snap, ka, ca, gx, ex, nx, bx, bc, tx, ta, tc, ft, 
                             act, sj >>
@@ -5872,10 +5972,10 @@ B0(self) == /\ pc[self] = "B0"
                        /\ pc' = [pc EXCEPT ![self] = "B1"]
                   ELSE /\ pc' = [pc EXCEPT ![self] = "B4"]
                        /\ UNCHANGED << script, bc >>
-            /\ UNCHANGED << st, nd, sk, pi, tasks, now, obs, ntop, panicked, 
-                            done, stack, fr, to, m, lg, sx, jx, ch, lv, snap, 
-                            ka, ca, gx, ex, nx, fx, bx, tx, ta, tc, ft, act, 
-                            sj >>
+            /\ UNCHANGED << st, nd, sk, pi, fi, tasks, now, obs, ntop, 
+                            panicked, done, stack, fr, to, m, lg, sx, jx, ch, 
+                            lv, snap, ka, ca, gx, ex, nx, fx, bx, tx, ta, tc, 
+                            ft, act, sj >>
 
 B1(self) == /\ pc[self] = "B1"
             /\ IF bc[self] = "data"
@@ -5909,7 +6009,7 @@ B1(self) == /\ pc[self] = "B1"
                                              /\ fx' = fx
                                   /\ nx' = nx
                        /\ ex' = ex
-            /\ UNCHANGED << st, nd, sk, pi, tasks, now, obs, script, ntop, 
+            /\ UNCHANGED << st, nd, sk, pi, fi, tasks, now, obs, script, ntop, 
                             panicked, done, fr, to, m, lg, sx, jx, ch, lv, 
                             snap, ka, ca, gx, tx, ta, tc, ft, act, sj >>
 
@@ -5918,7 +6018,7 @@ B2(self) == /\ pc[self] = "B2"
             /\ bc' = [bc EXCEPT ![self] = Head(stack[self]).bc]
             /\ bx' = [bx EXCEPT ![self] = Head(stack[self]).bx]
             /\ stack' = [stack EXCEPT ![self] = Tail(stack[self])]
-            /\ UNCHANGED << st, nd, sk, pi, tasks, now, obs, script, ntop, 
+            /\ UNCHANGED << st, nd, sk, pi, fi, tasks, now, obs, script, ntop, 
                             panicked, done, fr, to, m, lg, sx, jx, ch, lv, 
                             snap, ka, ca, gx, ex, nx, fx, tx, ta, tc, ft, act, 
                             sj >>
@@ -5928,7 +6028,7 @@ B3(self) == /\ pc[self] = "B3"
             /\ bc' = [bc EXCEPT ![self] = Head(stack[self]).bc]
             /\ bx' = [bx EXCEPT ![self] = Head(stack[self]).bx]
             /\ stack' = [stack EXCEPT ![self] = Tail(stack[self])]
-            /\ UNCHANGED << st, nd, sk, pi, tasks, now, obs, script, ntop, 
+            /\ UNCHANGED << st, nd, sk, pi, fi, tasks, now, obs, script, ntop, 
                             panicked, done, fr, to, m, lg, sx, jx, ch, lv, 
                             snap, ka, ca, gx, ex, nx, fx, tx, ta, tc, ft, act, 
                             sj >>
@@ -5938,7 +6038,7 @@ B4(self) == /\ pc[self] = "B4"
             /\ bc' = [bc EXCEPT ![self] = Head(stack[self]).bc]
             /\ bx' = [bx EXCEPT ![self] = Head(stack[self]).bx]
             /\ stack' = [stack EXCEPT ![self] = Tail(stack[self])]
-            /\ UNCHANGED << st, nd, sk, pi, tasks, now, obs, script, ntop, 
+            /\ UNCHANGED << st, nd, sk, pi, fi, tasks, now, obs, script, ntop, 
                             panicked, done, fr, to, m, lg, sx, jx, ch, lv, 
                             snap, ka, ca, gx, ex, nx, fx, tx, ta, tc, ft, act, 
                             sj >>
@@ -5996,9 +6096,9 @@ PT0(self) == /\ pc[self] = "PT0"
                                               /\ nx' = nx
                                    /\ ex' = ex
                         /\ gx' = gx
-             /\ UNCHANGED << st, nd, sk, tasks, now, obs, ntop, panicked, done, 
-                             fr, to, m, lg, sx, jx, ch, lv, snap, ka, ca, bx, 
-                             bc, tx, ta, ft, act, sj >>
+             /\ UNCHANGED << st, nd, sk, fi, tasks, now, obs, ntop, panicked, 
+                             done, fr, to, m, lg, sx, jx, ch, lv, snap, ka, ca, 
+                             bx, bc, tx, ta, ft, act, sj >>
 
 PT1(self) == /\ pc[self] = "PT1"
              /\ /\ bx' = [bx EXCEPT ![self] = tx[self]]
@@ -6009,7 +6109,7 @@ PT1(self) == /\ pc[self] = "PT1"
                                                      \o stack[self]]
              /\ bc' = [bc EXCEPT ![self] = ""]
              /\ pc' = [pc EXCEPT ![self] = "B0"]
-             /\ UNCHANGED << st, nd, sk, pi, tasks, now, obs, script, ntop, 
+             /\ UNCHANGED << st, nd, sk, pi, fi, tasks, now, obs, script, ntop, 
                              panicked, done, fr, to, m, lg, sx, jx, ch, lv, 
                              snap, ka, ca, gx, ex, nx, fx, tx, ta, tc, ft, act, 
                              sj >>
@@ -6039,7 +6139,7 @@ PT2(self) == /\ pc[self] = "PT2"
                                    /\ pc' = [pc EXCEPT ![self] = "F0"]
                                    /\ nx' = nx
                         /\ ex' = ex
-             /\ UNCHANGED << st, nd, sk, pi, tasks, now, obs, script, ntop, 
+             /\ UNCHANGED << st, nd, sk, pi, fi, tasks, now, obs, script, ntop, 
                              panicked, done, fr, to, m, lg, sx, jx, ch, lv, 
                              snap, ka, ca, gx, bx, bc, tx, ta, tc, ft, act, sj >>
 
@@ -6049,7 +6149,7 @@ PT3(self) == /\ pc[self] = "PT3"
              /\ tx' = [tx EXCEPT ![self] = Head(stack[self]).tx]
              /\ ta' = [ta EXCEPT ![self] = Head(stack[self]).ta]
              /\ stack' = [stack EXCEPT ![self] = Tail(stack[self])]
-             /\ UNCHANGED << st, nd, sk, pi, tasks, now, obs, script, ntop, 
+             /\ UNCHANGED << st, nd, sk, pi, fi, tasks, now, obs, script, ntop, 
                              panicked, done, fr, to, m, lg, sx, jx, ch, lv, 
                              snap, ka, ca, gx, ex, nx, fx, bx, bc, ft, act, sj >>
 
@@ -6059,10 +6159,10 @@ FT0(self) == /\ pc[self] = "FT0"
              /\ now' = tasks[ft[self]].deadline
              /\ tasks' = [tasks EXCEPT ![ft[self]].armed = FALSE]
              /\ pc' = [pc EXCEPT ![self] = "FT1"]
-             /\ UNCHANGED << st, nd, sk, pi, obs, script, ntop, panicked, done, 
-                             stack, fr, to, m, lg, sx, jx, ch, lv, snap, ka, 
-                             ca, gx, ex, nx, fx, bx, bc, tx, ta, tc, ft, act, 
-                             sj >>
+             /\ UNCHANGED << st, nd, sk, pi, fi, obs, script, ntop, panicked, 
+                             done, stack, fr, to, m, lg, sx, jx, ch, lv, snap, 
+                             ka, ca, gx, ex, nx, fx, bx, bc, tx, ta, tc, ft, 
+                             act, sj >>
 
 FT1(self) == /\ pc[self] = "FT1"
              /\ IF st[tasks[ft[self]].node][tasks[ft[self]].sub].cleared
@@ -6097,8 +6197,9 @@ FT1(self) == /\ pc[self] = "FT1"
                         /\ snap' = [snap EXCEPT ![self] = <<>>]
                         /\ pc' = [pc EXCEPT ![self] = "DStart"]
                         /\ UNCHANGED << tasks, obs, ft >>
-             /\ UNCHANGED << nd, sk, pi, now, script, ntop, panicked, done, ka, 
-                             ca, gx, ex, nx, fx, bx, bc, tx, ta, tc, act, sj >>
+             /\ UNCHANGED << nd, sk, pi, fi, now, script, ntop, panicked, done, 
+                             ka, ca, gx, ex, nx, fx, bx, bc, tx, ta, tc, act, 
+                             sj >>
 
 FT2(self) == /\ pc[self] = "FT2"
              /\ obs' = LogO(obs, Ev("sleep", ThOf(self), "", TName(ft[self]), "", Node(tasks[ft[self]].node).period))
@@ -6106,9 +6207,9 @@ FT2(self) == /\ pc[self] = "FT2"
              /\ pc' = [pc EXCEPT ![self] = Head(stack[self]).pc]
              /\ ft' = [ft EXCEPT ![self] = Head(stack[self]).ft]
              /\ stack' = [stack EXCEPT ![self] = Tail(stack[self])]
-             /\ UNCHANGED << st, nd, sk, pi, now, script, ntop, panicked, done, 
-                             fr, to, m, lg, sx, jx, ch, lv, snap, ka, ca, gx, 
-                             ex, nx, fx, bx, bc, tx, ta, tc, act, sj >>
+             /\ UNCHANGED << st, nd, sk, pi, fi, now, script, ntop, panicked, 
+                             done, fr, to, m, lg, sx, jx, ch, lv, snap, ka, ca, 
+                             gx, ex, nx, fx, bx, bc, tx, ta, tc, act, sj >>
 
 Fire(self) == FT0(self) \/ FT1(self) \/ FT2(self)
 
@@ -6120,9 +6221,9 @@ M0 == /\ pc[0] = "M0"
                  /\ pc' = [pc EXCEPT ![0] = "M1"]
             ELSE /\ pc' = [pc EXCEPT ![0] = "MDone"]
                  /\ UNCHANGED << script, act >>
-      /\ UNCHANGED << st, nd, sk, pi, tasks, now, obs, ntop, panicked, done, 
-                      stack, fr, to, m, lg, sx, jx, ch, lv, snap, ka, ca, gx, 
-                      ex, nx, fx, bx, bc, tx, ta, tc, ft, sj >>
+      /\ UNCHANGED << st, nd, sk, pi, fi, tasks, now, obs, ntop, panicked, 
+                      done, stack, fr, to, m, lg, sx, jx, ch, lv, snap, ka, ca, 
+                      gx, ex, nx, fx, bx, bc, tx, ta, tc, ft, sj >>
 
 M1 == /\ pc[0] = "M1"
       /\ IF act[2] = "stop"
@@ -6131,7 +6232,7 @@ M1 == /\ pc[0] = "M1"
             ELSE /\ ntop' = ntop + 1
                  /\ obs' = LogO(obs, Ev("top", 0, "", act[1], act[2], 0))
                  /\ pc' = [pc EXCEPT ![0] = "M2"]
-      /\ UNCHANGED << st, nd, sk, pi, tasks, now, script, panicked, done, 
+      /\ UNCHANGED << st, nd, sk, pi, fi, tasks, now, script, panicked, done, 
                       stack, fr, to, m, lg, sx, jx, ch, lv, snap, ka, ca, gx, 
                       ex, nx, fx, bx, bc, tx, ta, tc, ft, act, sj >>
 
@@ -6215,15 +6316,16 @@ M2 == /\ pc[0] = "M2"
                                        /\ UNCHANGED << ka, ca >>
                             /\ ft' = ft
                  /\ UNCHANGED << sk, fr, to, m, lg, sx, jx, ch, lv, snap >>
-      /\ UNCHANGED << st, nd, pi, tasks, now, obs, script, ntop, panicked, 
+      /\ UNCHANGED << st, nd, pi, fi, tasks, now, obs, script, ntop, panicked, 
                       done, gx, ex, nx, fx, bx, bc, act, sj >>
 
 M3 == /\ pc[0] = "M3"
       /\ sj' = 1
       /\ pc' = [pc EXCEPT ![0] = "M4"]
-      /\ UNCHANGED << st, nd, sk, pi, tasks, now, obs, script, ntop, panicked, 
-                      done, stack, fr, to, m, lg, sx, jx, ch, lv, snap, ka, ca, 
-                      gx, ex, nx, fx, bx, bc, tx, ta, tc, ft, act >>
+      /\ UNCHANGED << st, nd, sk, pi, fi, tasks, now, obs, script, ntop, 
+                      panicked, done, stack, fr, to, m, lg, sx, jx, ch, lv, 
+                      snap, ka, ca, gx, ex, nx, fx, bx, bc, tx, ta, tc, ft, 
+                      act >>
 
 M4 == /\ pc[0] = "M4"
       /\ IF sj <= Len(tasks)
@@ -6237,14 +6339,14 @@ M4 == /\ pc[0] = "M4"
                  /\ pc' = [pc EXCEPT ![0] = "M4"]
             ELSE /\ pc' = [pc EXCEPT ![0] = "M0"]
                  /\ UNCHANGED << tasks, obs, sj >>
-      /\ UNCHANGED << st, nd, sk, pi, now, script, ntop, panicked, done, stack, 
-                      fr, to, m, lg, sx, jx, ch, lv, snap, ka, ca, gx, ex, nx, 
-                      fx, bx, bc, tx, ta, tc, ft, act >>
+      /\ UNCHANGED << st, nd, sk, pi, fi, now, script, ntop, panicked, done, 
+                      stack, fr, to, m, lg, sx, jx, ch, lv, snap, ka, ca, gx, 
+                      ex, nx, fx, bx, bc, tx, ta, tc, ft, act >>
 
 MDone == /\ pc[0] = "MDone"
          /\ done' = TRUE
          /\ pc' = [pc EXCEPT ![0] = "Done"]
-         /\ UNCHANGED << st, nd, sk, pi, tasks, now, obs, script, ntop, 
+         /\ UNCHANGED << st, nd, sk, pi, fi, tasks, now, obs, script, ntop, 
                          panicked, stack, fr, to, m, lg, sx, jx, ch, lv, snap, 
                          ka, ca, gx, ex, nx, fx, bx, bc, tx, ta, tc, ft, act, 
                          sj >>
